@@ -1,3 +1,2189 @@
-(* MergeProofs.v — lemmas and theorems about the model of merge_typesystems (Merge.v). *)
+(* MergeProofs.v — lemmas and theorems about the model of merge_typesystems (Merge.v).
+   Part 1: the hierarchy skeleton (WFh of the type system with all features erased holds between any two steps of a
+           merge, whereas WFh itself does not: a copied feature may name a range type that is merged later) and the C10
+           query specifications under it.
+   Part 2: re-parenting preserves WFh (child link moved, ghost ranks of the moved subtree shifted above the new parent).
+   Part 3: every step of the merge preserves the skeleton invariant; what the steps keep (types stay registered,
+           features are only added, every stored feature names built-in or declared types, own features keep their domain).
+   Part 4: the readiness loop: invariant / post-condition rule, termination within the round bound.
+   Part 5: merge_WFh, merge_terminates, merge_contains_all_types, merge_supertype_most_specific, the error kind,
+           conflicting supertypes, merge_contains_all_features, merge_no_foreign_refs.
+   Part 6: the feature invariant WFf of C11 through a merge (create_type / _add_feature as in TSProofs but under the
+           skeleton invariant; re-parenting suspends completeness for the moved subtree and the inherited list restores
+           it), merge_WFf, conflicting feature declarations. *)
 From Cassis Require Import Base TS TSProofs Merge.
 From Coq Require Import Arith.
+
+(* ================================================================================================ the hierarchy skeleton *)
+(* While a merge is under way a copied feature may name a range type that is merged only later, so the full hierarchy
+   invariant WFh (which asks every feature reference to be registered) does not hold between two steps.  What does hold
+   is WFh of the SKELETON: the type system with all features (and descriptions, constructor fields) erased.  Every
+   hierarchy query answers the same on a type system and on its skeleton, so the query specifications of C10 apply. *)
+Definition strip_ty (t : ty) : ty := mkTy (t_name t) (t_super t) None (t_children t) [] [] None [] (t_rank t).
+Definition strip (ts : tsys) : tsys := map strip_ty ts.
+Definition HI (ts : tsys) : Prop := WFh (strip ts).
+
+Lemma strip_shape : keeps_shape strip_ty.
+Proof. intros t. repeat split. Qed.
+Lemma strip_after g : keeps_shape g -> (forall t, strip_ty (g t) = strip_ty t).
+Proof. intros K t. destruct (K t) as (H1 & H2 & H3 & H4). unfold strip_ty. rewrite H1, H2, H3, H4. reflexivity. Qed.
+Lemma strip_map g ts : keeps_shape g -> strip (map g ts) = strip ts.
+Proof. intros K. unfold strip. rewrite map_map. apply map_ext. apply strip_after. exact K. Qed.
+
+(* ---- queries commute with shape-preserving maps ---- *)
+Lemma walks_up_map g ts : keeps_shape g -> forall k a b, walks_up k (map g ts) a b = walks_up k ts a b.
+Proof.
+  intros K. induction k as [|k IH]; intros a b; [reflexivity|]. cbn [walks_up].
+  destruct (String.eqb a b); [reflexivity|]. rewrite (find_map_shape ts g b K).
+  destruct (find_ty ts b) as [t|]; cbn [option_map]; [|reflexivity].
+  rewrite (proj1 (proj2 (K t))). destruct (t_super t); [apply IH|reflexivity].
+Qed.
+Lemma short_matches_map g ts n : keeps_shape g -> short_matches (map g ts) n = map g (short_matches ts n).
+Proof.
+  intros K. unfold short_matches. induction ts as [|x r IH]; [reflexivity|]. cbn [map filter].
+  rewrite (proj1 (K x)). destruct (String.eqb (short_name (t_name x)) n); cbn [map]; rewrite IH; reflexivity.
+Qed.
+Definition res_map {A B} (f : A -> B) (r : res A) : res B :=
+  match r with Ok a => Ok (f a) | Err e => Err e | OutOfFuel => OutOfFuel end.
+Lemma get_type_map g ts n : keeps_shape g -> get_type (map g ts) n = res_map g (get_type ts n).
+Proof.
+  intros K. unfold get_type. rewrite (find_map_shape ts g n K). destruct (find_ty ts n); [reflexivity|].
+  cbn [option_map]. destruct (has_dot n); [reflexivity|]. rewrite (short_matches_map g ts n K).
+  destruct (short_matches ts n) as [|x [|y r]]; reflexivity.
+Qed.
+Lemma subsumes_ty_map g ts a b : keeps_shape g -> subsumes_ty (map g ts) (g a) (g b) = subsumes_ty ts a b.
+Proof.
+  intros K. unfold subsumes_ty. rewrite (proj1 (K a)), (proj1 (K b)), (proj2 (proj2 (proj2 (K b)))).
+  rewrite (walks_up_map g ts K). reflexivity.
+Qed.
+Lemma ts_subsumes_map g ts p c : keeps_shape g -> ts_subsumes (map g ts) p c = ts_subsumes ts p c.
+Proof.
+  intros K. unfold ts_subsumes. rewrite !(get_type_map g ts _ K).
+  destruct (get_type ts p) as [tp| |]; cbn [res_map bind]; try reflexivity.
+  destruct (get_type ts c) as [tc| |]; cbn [res_map bind]; try reflexivity.
+  apply subsumes_ty_map. exact K.
+Qed.
+Lemma is_below_map g ts a d : keeps_shape g -> is_below (map g ts) a d = is_below ts a d.
+Proof.
+  intros K. unfold is_below. rewrite (find_map_shape ts g d K). destruct (find_ty ts d) as [td|]; cbn [option_map]; [|reflexivity].
+  rewrite (proj2 (proj2 (proj2 (K td)))), (walks_up_map g ts K). reflexivity.
+Qed.
+Lemma below_map g ts a d : keeps_shape g -> (below (map g ts) a d <-> below ts a d).
+Proof.
+  intros K. split; apply below_transfer.
+  - intros n t' H. rewrite (find_map_shape ts g n K) in H. destruct (find_ty ts n) as [t|]; [|discriminate].
+    inversion H. exists t. split; [reflexivity|]. symmetry. apply (proj1 (proj2 (K t))).
+  - intros n t H. exists (g t). rewrite (find_map_shape ts g n K), H. split; [reflexivity|apply (proj1 (proj2 (K t)))].
+Qed.
+
+(* ---- the C10 query specifications under the skeleton invariant ---- *)
+Lemma HI_find ts n t : find_ty ts n = Some t -> find_ty (strip ts) n = Some (strip_ty t).
+Proof. intros H. unfold strip. rewrite (find_map_shape ts strip_ty n strip_shape), H. reflexivity. Qed.
+Lemma HI_nodup ts : HI ts -> NoDup (map t_name ts).
+Proof.
+  intros W. pose proof (wf_nodup _ W) as H. unfold strip in H. rewrite map_map in H.
+  erewrite map_ext in H; [exact H|]. reflexivity.
+Qed.
+Lemma HI_subsumes ts a b ta tb : HI ts -> find_ty ts a = Some ta -> find_ty ts b = Some tb ->
+  exists r, ts_subsumes ts a b = Ok r /\ (r = true <-> below ts a b).
+Proof.
+  intros W Ha Hb. destruct (ts_subsumes_spec (strip ts) a b _ _ W (HI_find _ _ _ Ha) (HI_find _ _ _ Hb)) as (r & Hr & Hiff).
+  unfold strip in Hr. rewrite (ts_subsumes_map strip_ty ts a b strip_shape) in Hr. exists r. split; [exact Hr|].
+  rewrite Hiff. apply below_map. exact strip_shape.
+Qed.
+Lemma HI_is_below ts a d td : HI ts -> find_ty ts d = Some td -> (is_below ts a d = true <-> below ts a d).
+Proof.
+  intros W Hd. rewrite <- (is_below_map strip_ty ts a d strip_shape), <- (below_map strip_ty ts a d strip_shape).
+  fold (strip ts). pose proof (HI_find _ _ _ Hd) as Hd'. destruct (find_ty_In _ _ _ Hd') as [Hin Hn].
+  unfold is_below. rewrite Hd'.
+  destruct (walks_up_spec (strip ts) a W (S (t_rank (strip_ty td))) (strip_ty td) Hin (Nat.lt_succ_diag_r _)) as (r & Hr & Hiff).
+  rewrite Hn in Hr, Hiff. rewrite Hr. rewrite <- Hiff. destruct r; split; congruence.
+Qed.
+Lemma is_below_sound ts a d : HI ts -> is_below ts a d = true -> below ts a d.
+Proof.
+  intros W H. unfold is_below in H. destruct (find_ty ts d) as [td|] eqn:E; [|discriminate].
+  apply (HI_is_below ts a d td W E). unfold is_below. rewrite E. exact H.
+Qed.
+
+(* ---- create_type on the skeleton ---- *)
+Lemma strip_add_child sup name t : strip_ty (add_child sup name t) = add_child sup name (strip_ty t).
+Proof.
+  unfold add_child. cbn [strip_ty t_name t_children]. destruct (String.eqb (t_name t) sup); [|reflexivity].
+  destruct (memb name (t_children t)); reflexivity.
+Qed.
+Lemma create_type_strip ts name supn desc ts' : create_type ts name supn desc = Ok ts' ->
+  create_type (strip ts) name supn None = Ok (strip ts').
+Proof.
+  unfold create_type. unfold strip at 1 2. rewrite (registered_map_shape ts strip_ty name strip_shape).
+  destruct (registered ts name); [discriminate|]. rewrite (get_type_map strip_ty ts supn strip_shape).
+  destruct (get_type ts supn) as [p| |]; cbn [bind res_map]; try discriminate.
+  cbn [strip_ty t_name]. destruct (memb (t_name p) final_types); [discriminate|].
+  destruct (String.eqb name TOP).
+  - intros H. inversion H. unfold strip. rewrite map_app. reflexivity.
+  - destruct (inherit_all [] (all_features p)) as [inh| |]; cbn [bind]; try discriminate.
+    intros H. inversion H. unfold strip. rewrite map_app, !map_map. cbn [map].
+    change (all_features (strip_ty p)) with (@nil feat). cbn [inherit_all bind]. f_equal. f_equal.
+    apply map_ext. intros t. symmetry. apply strip_add_child.
+Qed.
+Lemma create_type_HI ts name supn desc ts' : HI ts -> create_type ts name supn desc = Ok ts' -> HI ts'.
+Proof. intros W H. eapply create_type_WFh; [exact W|eapply create_type_strip; exact H]. Qed.
+
+Lemma find_map_name (g : ty -> ty) ts n : (forall t, t_name (g t) = t_name t) -> find_ty (map g ts) n = option_map g (find_ty ts n).
+Proof.
+  intros K. unfold find_ty. induction ts as [|y r IH]; cbn [map find option_map]; [reflexivity|].
+  rewrite K. destruct (String.eqb (t_name y) n); [reflexivity|exact IH].
+Qed.
+Lemma WFh_is_below ts a d td : WFh ts -> find_ty ts d = Some td -> (is_below ts a d = true <-> below ts a d).
+Proof.
+  intros W Hd. destruct (find_ty_In _ _ _ Hd) as [Hin Hn]. unfold is_below. rewrite Hd.
+  destruct (walks_up_spec ts a W (S (t_rank td)) td Hin (Nat.lt_succ_diag_r _)) as (r & Hr & Hiff).
+  rewrite Hn in Hr, Hiff. rewrite Hr, <- Hiff. destruct r; split; congruence.
+Qed.
+
+(* ---- what the re-parenting assignments do to one type ---- *)
+Lemma relink_name ts x oldp newp k t : t_name (relink_ty ts x oldp newp k t) = t_name t.
+Proof.
+  unfold relink_ty. cbv zeta.
+  assert (E : t_name (add_child newp x (remove_child oldp x t)) = t_name t).
+  { rewrite add_child_name. unfold remove_child. destruct (String.eqb (t_name t) oldp); reflexivity. }
+  destruct (String.eqb (t_name t) x); destruct (is_below ts x (t_name t)); cbn [set_super shift_rank t_name]; exact E.
+Qed.
+Lemma remove_child_fields p x t :
+  t_name (remove_child p x t) = t_name t /\ t_super (remove_child p x t) = t_super t /\ t_own (remove_child p x t) = t_own t
+  /\ t_inh (remove_child p x t) = t_inh t /\ t_rank (remove_child p x t) = t_rank t.
+Proof. unfold remove_child. destruct (String.eqb (t_name t) p); repeat split. Qed.
+Lemma relink_own ts x oldp newp k t : t_own (relink_ty ts x oldp newp k t) = t_own t.
+Proof.
+  unfold relink_ty. cbv zeta. destruct (remove_child_fields oldp x t) as (E1 & _ & E3 & _).
+  destruct (String.eqb (t_name t) x); destruct (is_below ts x (t_name t)); cbn [set_super shift_rank t_own]; rewrite add_child_own; exact E3.
+Qed.
+Lemma relink_inh ts x oldp newp k t : t_inh (relink_ty ts x oldp newp k t) = t_inh t.
+Proof.
+  unfold relink_ty. cbv zeta. destruct (remove_child_fields oldp x t) as (E1 & _ & _ & E4 & _).
+  destruct (String.eqb (t_name t) x); destruct (is_below ts x (t_name t)); cbn [set_super shift_rank t_inh]; rewrite add_child_inh; exact E4.
+Qed.
+Lemma relink_super ts x oldp newp k t :
+  t_super (relink_ty ts x oldp newp k t) = if String.eqb (t_name t) x then Some newp else t_super t.
+Proof.
+  unfold relink_ty. cbv zeta. destruct (remove_child_fields oldp x t) as (E1 & E2 & _).
+  destruct (String.eqb (t_name t) x); destruct (is_below ts x (t_name t)); cbn [set_super shift_rank t_super]; rewrite ?add_child_super; try reflexivity; exact E2.
+Qed.
+Lemma relink_rank ts x oldp newp k t :
+  t_rank (relink_ty ts x oldp newp k t) = if is_below ts x (t_name t) then t_rank t + k else t_rank t.
+Proof.
+  unfold relink_ty. cbv zeta. destruct (remove_child_fields oldp x t) as (E1 & _ & _ & _ & E5).
+  destruct (String.eqb (t_name t) x); destruct (is_below ts x (t_name t)); cbn [set_super shift_rank t_rank]; rewrite add_child_rank, E5; reflexivity.
+Qed.
+Lemma relink_children_eq ts x oldp newp k t :
+  t_children (relink_ty ts x oldp newp k t) = t_children (add_child newp x (remove_child oldp x t)).
+Proof.
+  unfold relink_ty. cbv zeta.
+  destruct (String.eqb (t_name t) x); destruct (is_below ts x (t_name t)); reflexivity.
+Qed.
+Lemma filter_neq_In x c l : In c (filter (fun y => negb (String.eqb y x)) l) <-> c <> x /\ In c l.
+Proof.
+  rewrite filter_In. split.
+  - intros [H1 H2]. split; [|exact H1]. intros ->. rewrite String.eqb_refl in H2. discriminate.
+  - intros [H1 H2]. split; [exact H2|]. apply String.eqb_neq in H1. rewrite H1. reflexivity.
+Qed.
+Lemma relink_children ts x oldp newp k p c :
+  In c (t_children (relink_ty ts x oldp newp k p)) <->
+  (c <> x /\ In c (t_children p)) \/ (c = x /\ t_name p <> oldp /\ In x (t_children p)) \/ (c = x /\ t_name p = newp).
+Proof.
+  rewrite relink_children_eq. unfold add_child, remove_child.
+  destruct (String.eqb (t_name p) oldp) eqn:Eo; cbn [set_children t_name t_children].
+  - apply String.eqb_eq in Eo. destruct (String.eqb (t_name p) newp) eqn:En.
+    + apply String.eqb_eq in En.
+      destruct (memb x (filter (fun y => negb (String.eqb y x)) (t_children p))) eqn:Em.
+      * apply memb_In in Em. apply filter_neq_In in Em. destruct Em as [Em _]. exfalso. apply Em. reflexivity.
+      * cbn [set_children t_children]. rewrite in_app_iff, (filter_neq_In x c (t_children p)). cbn [In]. split.
+        -- intros [H|[H|[]]]; [left; exact H|right; right; split; [symmetry; exact H|exact En]].
+        -- intros [H|[(_ & H & _)|(H & _)]]; [left; exact H|contradiction|right; left; symmetry; exact H].
+    + apply String.eqb_neq in En. rewrite (filter_neq_In x c (t_children p)). split.
+      * intros H. left. exact H.
+      * intros [H|[(_ & H & _)|(_ & H)]]; [exact H|contradiction|contradiction].
+  - apply String.eqb_neq in Eo. destruct (String.eqb (t_name p) newp) eqn:En.
+    + apply String.eqb_eq in En. destruct (memb x (t_children p)) eqn:Em.
+      * apply memb_In in Em. split.
+        -- intros H. destruct (String.eqb c x) eqn:E; [apply String.eqb_eq in E; right; right; auto|apply String.eqb_neq in E; left; auto].
+        -- intros [[_ H]|[(-> & _ & H)|(-> & _)]]; assumption.
+      * cbn [set_children t_children]. rewrite in_app_iff. cbn [In]. split.
+        -- intros [H|[H|[]]].
+           ++ left. split; [|exact H]. intros ->. apply memb_In in H. congruence.
+           ++ right. right. auto.
+        -- intros [[_ H]|[(-> & _ & H)|(-> & _)]]; auto.
+    + apply String.eqb_neq in En. split.
+      * intros H. destruct (String.eqb c x) eqn:E; [apply String.eqb_eq in E; subst c; right; left; auto|apply String.eqb_neq in E; left; auto].
+      * intros [[_ H]|[(-> & _ & H)|(_ & H)]]; [exact H|exact H|contradiction].
+Qed.
+Lemma relink_children_nodup ts x oldp newp k p : NoDup (t_children p) -> NoDup (t_children (relink_ty ts x oldp newp k p)).
+Proof.
+  intros Hnd. rewrite relink_children_eq.
+  assert (H1 : NoDup (t_children (remove_child oldp x p))).
+  { unfold remove_child. destruct (String.eqb (t_name p) oldp); [|exact Hnd]. cbn [set_children t_children]. apply NoDup_filter. exact Hnd. }
+  unfold add_child. destruct (String.eqb (t_name (remove_child oldp x p)) newp); [|exact H1].
+  destruct (memb x (t_children (remove_child oldp x p))) eqn:Em; [exact H1|].
+  cbn [set_children t_children]. apply NoDup_app_one; [exact H1|]. intros H. apply memb_In in H. congruence.
+Qed.
+
+Section Relink.
+  Variables (ts : tsys) (x oldp newp : tname) (k : nat) (tx tn : ty).
+  Hypothesis W : WFh ts.
+  Hypothesis Hx : find_ty ts x = Some tx.
+  Hypothesis Hsx : t_super tx = Some oldp.
+  Hypothesis Hn : find_ty ts newp = Some tn.
+  Hypothesis Hnb : ~ below ts x newp.
+  Hypothesis Hk : t_rank tn < k.
+
+  Let g := relink_ty ts x oldp newp k.
+  Lemma relink_find n : find_ty (relink ts x oldp newp k) n = option_map g (find_ty ts n).
+  Proof. apply find_map_name. intros t. apply relink_name. Qed.
+  Lemma relink_registered n : registered (relink ts x oldp newp k) n = registered ts n.
+  Proof. unfold registered. rewrite relink_find. destruct (find_ty ts n); reflexivity. Qed.
+
+  Lemma relink_WFh : WFh (relink ts x oldp newp k).
+  Proof.
+    assert (Hnames : map t_name (relink ts x oldp newp k) = map t_name ts).
+    { unfold relink. rewrite map_map. apply map_ext. intros t. apply relink_name. }
+    destruct (find_ty_In _ _ _ Hx) as [Hxin Hxn]. destruct (find_ty_In _ _ _ Hn) as [Hnin Hnn].
+    assert (Hb : forall t, In t ts -> (is_below ts x (t_name t) = true <-> below ts x (t_name t))).
+    { intros t Hin. apply (WFh_is_below ts x (t_name t) t W). apply (In_find_ty _ _ (wf_nodup _ W) Hin). }
+    constructor.
+    - rewrite Hnames. apply (wf_nodup _ W).
+    - destruct (wf_top _ W) as (t & Ht & Hnone). exists (g t). rewrite relink_find, Ht. split; [reflexivity|].
+      unfold g. rewrite relink_super. destruct (find_ty_In _ _ _ Ht) as [_ Htn].
+      destruct (String.eqb (t_name t) x) eqn:E; [|exact Hnone].
+      apply String.eqb_eq in E. rewrite Htn in E. pose proof Hx as Hx'. rewrite <- E, Ht in Hx'. inversion Hx' as [Hxx]. rewrite <- Hxx in Hsx. congruence.
+    - intros t' Hin Hs. apply in_map_iff in Hin. destruct Hin as (t & <- & Hin). rewrite relink_name.
+      rewrite relink_super in Hs. destruct (String.eqb (t_name t) x); [discriminate|]. apply (wf_root _ W t Hin Hs).
+    - intros t' s Hin Hs. apply in_map_iff in Hin. destruct Hin as (t & <- & Hin).
+      rewrite relink_super in Hs. rewrite relink_rank.
+      destruct (String.eqb (t_name t) x) eqn:E.
+      + apply String.eqb_eq in E. inversion Hs; subst s. exists (g tn). rewrite relink_find, Hn. split; [reflexivity|].
+        unfold g. rewrite relink_rank.
+        assert (Hbx : is_below ts x (t_name t) = true) by (apply (Hb t Hin); rewrite E; apply below_refl).
+        rewrite Hbx. destruct (is_below ts x (t_name tn)) eqn:Ebn.
+        * exfalso. apply Hnb. rewrite <- Hnn. apply (Hb tn Hnin). exact Ebn.
+        * lia.
+      + apply String.eqb_neq in E. destruct (wf_super _ W t s Hin Hs) as (p & Hp & Hlt).
+        destruct (find_ty_In _ _ _ Hp) as [Hpin Hpn]. exists (g p). rewrite relink_find, Hp. split; [reflexivity|].
+        unfold g. rewrite relink_rank. rewrite Hpn.
+        destruct (is_below ts x (t_name t)) eqn:Ebt; destruct (is_below ts x s) eqn:Ebs; try lia.
+        * (* parent below x: so is t *)
+          exfalso. rewrite <- Hpn in Ebs. apply (Hb p Hpin) in Ebs. rewrite Hpn in Ebs.
+          assert (below ts x (t_name t)) as Hbt by (eapply below_step; [apply (In_find_ty _ _ (wf_nodup _ W) Hin)|exact Hs|exact Ebs]).
+          apply (Hb t Hin) in Hbt. congruence.
+    - intros p' c Hin. apply in_map_iff in Hin. destruct Hin as (p & <- & Hin). rewrite relink_name. unfold g.
+      rewrite relink_children.
+      pose proof (wf_children _ W p c Hin) as Hold. pose proof (wf_children _ W p x Hin) as Holdx.
+      split.
+      + intros [[Hcx Hc]|[(-> & Hpo & Hc)|(-> & Hpn')]].
+        * apply Hold in Hc. destruct Hc as (tc & Hf & Hs). exists (g tc). rewrite relink_find, Hf. split; [reflexivity|].
+          unfold g. rewrite relink_super. destruct (find_ty_In _ _ _ Hf) as [_ Hcn]. rewrite Hcn.
+          apply String.eqb_neq in Hcx. rewrite Hcx. exact Hs.
+        * exfalso. apply Holdx in Hc. destruct Hc as (tc & Hf & Hs). rewrite Hx in Hf. inversion Hf; subst tc. congruence.
+        * exists (g tx). rewrite relink_find, Hx. split; [reflexivity|]. unfold g. rewrite relink_super, Hxn, String.eqb_refl, Hpn'. reflexivity.
+      + intros (tc' & Hf' & Hs'). rewrite relink_find in Hf'. destruct (find_ty ts c) as [tc|] eqn:Ec; [|discriminate].
+        cbn [option_map] in Hf'. inversion Hf'; subst tc'. unfold g in Hs'. rewrite relink_super in Hs'.
+        destruct (find_ty_In _ _ _ Ec) as [_ Hcn]. rewrite Hcn in Hs'. destruct (String.eqb c x) eqn:E.
+        * apply String.eqb_eq in E. right. right. split; [exact E|]. congruence.
+        * apply String.eqb_neq in E. left. split; [exact E|]. apply Hold. eauto.
+    - intros p' Hin. apply in_map_iff in Hin. destruct Hin as (p & <- & Hin). apply relink_children_nodup.
+      apply (wf_children_nodup _ W p Hin).
+    - intros t' f Hin Hf. apply in_map_iff in Hin. destruct Hin as (t & <- & Hin). unfold g in Hf. rewrite relink_own, relink_inh in Hf.
+      destruct (wf_refs _ W t f Hin Hf) as (H1 & H2 & H3). unfold feat_refs_ok. rewrite !relink_registered.
+      repeat split; auto. destruct (f_elem f); [rewrite relink_registered; exact H3|exact I].
+    - intros t' f Hin Hf. apply in_map_iff in Hin. destruct Hin as (t & <- & Hin). unfold g in Hf. rewrite relink_own in Hf.
+      rewrite relink_name. apply (wf_own_dom _ W t f Hin Hf).
+  Qed.
+End Relink.
+
+(* ---- re-parenting on the skeleton ---- *)
+Lemma strip_relink_ty ts x oldp newp k t :
+  strip_ty (relink_ty ts x oldp newp k t) = relink_ty (strip ts) x oldp newp k (strip_ty t).
+Proof.
+  unfold relink_ty. cbv zeta. unfold strip at 1. rewrite (is_below_map strip_ty ts x _ strip_shape).
+  unfold add_child, remove_child.
+  cbn [strip_ty set_children set_super shift_rank t_name t_children t_super t_desc t_own t_inh t_ctor t_ctor_fn t_rank].
+  destruct (String.eqb (t_name t) oldp);
+    cbn [strip_ty set_children set_super shift_rank t_name t_children t_super t_desc t_own t_inh t_ctor t_ctor_fn t_rank];
+    destruct (String.eqb (t_name t) newp);
+    cbn [strip_ty set_children set_super shift_rank t_name t_children t_super t_desc t_own t_inh t_ctor t_ctor_fn t_rank];
+    try (destruct (memb x _));
+    cbn [strip_ty set_children set_super shift_rank t_name t_children t_super t_desc t_own t_inh t_ctor t_ctor_fn t_rank];
+    destruct (String.eqb (t_name t) x); destruct (is_below ts x (t_name t)); reflexivity.
+Qed.
+Lemma strip_relink ts x oldp newp k : strip (relink ts x oldp newp k) = relink (strip ts) x oldp newp k.
+Proof. unfold relink, strip. rewrite !map_map. apply map_ext. intros t. apply strip_relink_ty. Qed.
+
+Lemma relink_HI ts x oldp newp k tx tn : HI ts -> find_ty ts x = Some tx -> t_super tx = Some oldp ->
+  find_ty ts newp = Some tn -> ~ below ts x newp -> t_rank tn < k -> HI (relink ts x oldp newp k).
+Proof.
+  intros W Hx Hs Hn Hnb Hk. unfold HI. rewrite strip_relink.
+  apply (relink_WFh (strip ts) x oldp newp k (strip_ty tx) (strip_ty tn) W (HI_find _ _ _ Hx) Hs (HI_find _ _ _ Hn)); [|exact Hk].
+  intros Hb. apply Hnb. apply (below_map strip_ty ts x newp strip_shape). exact Hb.
+Qed.
+
+(* ---- feature updates leave the skeleton alone ---- *)
+Lemma spread_inh_shape ts x f : keeps_shape (spread_inh ts x f).
+Proof. intros d. unfold spread_inh. destruct (is_below ts x (t_name d) && _); repeat split. Qed.
+Lemma add_feature_res_strip ts dom f ts' : add_feature_res ts dom f = Ok ts' -> strip ts' = strip ts.
+Proof.
+  unfold add_feature_res. destruct (add_feature ts dom f) as [ts1| | |] eqn:E; try discriminate.
+  - intros H. inversion H; subst ts'. destruct (add_feature_added_inv _ _ _ _ E) as (t & _ & _ & _ & _ & ->).
+    apply strip_map. apply spread_shape.
+  - intros H. inversion H. reflexivity.
+Qed.
+Lemma inherit_fn_strip ts x f ts' : inherit_fn ts x f = Ok ts' -> strip ts' = strip ts.
+Proof.
+  unfold inherit_fn. destruct (find_ty ts x) as [t|]; [|discriminate].
+  destruct (find_feat (f_name f) (t_inh t)) as [g|].
+  - destruct (feat_eqb g f); [|discriminate]. intros H. inversion H. reflexivity.
+  - destruct (existsb _ ts); [discriminate|]. intros H. inversion H. apply strip_map. apply spread_inh_shape.
+Qed.
+Lemma inherit_list_strip x fs : forall ts ts', inherit_list fn_form x fs ts = Ok ts' -> strip ts' = strip ts.
+Proof.
+  induction fs as [|f r IH]; intros ts ts' H; cbn [inherit_list] in H; [inversion H; reflexivity|].
+  cbn [fn_form inhf] in H. destruct (inherit_fn ts x f) as [ts1| |] eqn:E; cbn [bind] in H; try discriminate.
+  rewrite (IH _ _ H). apply (inherit_fn_strip _ _ _ _ E).
+Qed.
+Lemma merge_features_strip i x fs : forall ts tags r, merge_features fn_form i x fs ts tags = Ok r -> strip (fst r) = strip ts.
+Proof.
+  induction fs as [|f r0 IH]; intros ts tags r H; cbn [merge_features] in H; [inversion H; reflexivity|].
+  cbn [fn_form addf] in H. destruct (add_feature_res ts x f) as [ts1| |] eqn:E; cbn [bind] in H; try discriminate.
+  rewrite (IH _ _ _ H). apply (add_feature_res_strip _ _ _ _ E).
+Qed.
+
+(* ---- get_type on whatever it returned ---- *)
+Lemma get_type_again ts n t : NoDup (map t_name ts) -> get_type ts n = Ok t -> get_type ts (t_name t) = Ok t /\ find_ty ts (t_name t) = Some t.
+Proof.
+  intros Hnd H. destruct (get_type_ok_inv _ _ _ H) as [Hin _]. pose proof (In_find_ty _ _ Hnd Hin) as Hf.
+  split; [apply get_type_full; exact Hf|exact Hf].
+Qed.
+Lemma HI_subsumes_gen ts p c tp tc : HI ts -> get_type ts p = Ok tp -> get_type ts c = Ok tc ->
+  exists r, ts_subsumes ts p c = Ok r /\ (r = true <-> below ts (t_name tp) (t_name tc)).
+Proof.
+  intros W Hp Hc. unfold ts_subsumes. rewrite Hp, Hc. cbn [bind].
+  destruct (get_type_ok_inv _ _ _ Hp) as [Hpin _]. destruct (get_type_ok_inv _ _ _ Hc) as [Hcin _].
+  rewrite <- (subsumes_ty_map strip_ty ts tp tc strip_shape).
+  destruct (subsumes_ty_spec (strip ts) (strip_ty tp) (strip_ty tc) W (in_map strip_ty _ _ Hpin) (in_map strip_ty _ _ Hcin)) as (r & Hr & Hiff).
+  exists r. split; [exact Hr|]. rewrite Hiff. cbn [strip_ty t_name]. apply below_map. exact strip_shape.
+Qed.
+(* under HI a type's supertype is registered and it is listed among the children of that supertype *)
+Lemma HI_super ts t s : HI ts -> In t ts -> t_super t = Some s ->
+  exists p, find_ty ts s = Some p /\ In (t_name t) (t_children p).
+Proof.
+  intros W Hin Hs. pose proof (HI_nodup _ W) as Hnd.
+  destruct (wf_super _ W (strip_ty t) s (in_map strip_ty _ _ Hin) Hs) as (p' & Hp' & _).
+  unfold strip in Hp'. rewrite (find_map_shape ts strip_ty s strip_shape) in Hp'.
+  destruct (find_ty ts s) as [p|] eqn:Ep; [|discriminate]. exists p. split; [reflexivity|].
+  destruct (find_ty_In _ _ _ Ep) as [Hpin Hpn].
+  pose proof (wf_children _ W (strip_ty p) (t_name t) (in_map strip_ty _ _ Hpin)) as Hc. cbn [strip_ty t_children t_name] in Hc.
+  apply Hc. exists (strip_ty t). split; [apply HI_find; apply (In_find_ty _ _ Hnd Hin)|]. cbn [strip_ty t_super]. rewrite Hpn. exact Hs.
+Qed.
+
+(* ---- re-parenting and supertype comparison keep the skeleton invariant ---- *)
+Lemma reparent_HI ts x oldp newp ts' tx tn : HI ts -> find_ty ts x = Some tx -> t_super tx = Some oldp ->
+  get_type ts newp = Ok tn -> ~ below ts x (t_name tn) -> reparent fn_form ts x oldp newp = Ok ts' ->
+  HI ts' /\ strip ts' = strip (relink ts x oldp (t_name tn) (S (t_rank tn))).
+Proof.
+  intros W Hx Hs Hg Hnb H. unfold reparent in H. rewrite Hg in H. cbn [bind] in H.
+  destruct (find_ty ts oldp) as [tp|]; [|discriminate].
+  destruct (negb (memb x (t_children tp))); [discriminate|].
+  destruct (find_ty (relink ts x oldp (t_name tn) (S (t_rank tn))) (t_name tn)) as [tn1|]; [|discriminate].
+  pose proof (inherit_list_strip _ _ _ _ H) as E. split; [|exact E]. unfold HI. rewrite E.
+  destruct (get_type_again ts newp tn (HI_nodup _ W) Hg) as [_ Hfn].
+  apply (relink_HI ts x oldp (t_name tn) (S (t_rank tn)) tx tn W Hx Hs Hfn Hnb). apply Nat.lt_succ_diag_r.
+Qed.
+Lemma merge_super_HI ts name sup ts' : HI ts -> merge_super fn_form ts name sup = Ok ts' -> HI ts'.
+Proof.
+  intros W H. unfold merge_super in H. destruct (get_type ts name) as [ex| |] eqn:Eg; cbn [bind] in H; try discriminate.
+  destruct (t_super ex) as [exsup|] eqn:Es; [|discriminate].
+  destruct (String.eqb sup exsup); [inversion H; subst; exact W|].
+  destruct (get_type_again ts name ex (HI_nodup _ W) Eg) as [Hgx Hfx]. destruct (find_ty_In _ _ _ Hfx) as [Hexin _].
+  destruct (get_type ts sup) as [tn| |] eqn:Egs.
+  - destruct (HI_subsumes_gen ts (t_name ex) sup ex tn W Hgx Egs) as (b1 & Hb1 & Hiff1). rewrite Hb1 in H. cbn [bind] in H.
+    destruct b1; [discriminate|].
+    destruct (HI_super ts ex exsup W Hexin Es) as (tp & Hfp & _).
+    destruct (HI_subsumes_gen ts exsup sup tp tn W (get_type_full _ _ _ Hfp) Egs) as (b2 & Hb2 & Hiff2). rewrite Hb2 in H. cbn [bind] in H.
+    destruct b2.
+    + eapply reparent_HI; [exact W|exact Hfx|exact Es|exact Egs| |exact H].
+      intros Hb. apply Hiff1 in Hb. discriminate.
+    + destruct (ts_subsumes ts sup exsup) as [b3| |]; cbn [bind] in H; try discriminate.
+      destruct b3; [inversion H; subst; exact W|discriminate].
+  - unfold ts_subsumes in H at 1. rewrite Hgx, Egs in H. discriminate.
+  - unfold ts_subsumes in H at 1. rewrite Hgx, Egs in H. discriminate.
+Qed.
+Lemma merge_decl_HI st d st' : HI (m_ts st) -> merge_decl fn_form st d = Ok st' -> HI (m_ts st').
+Proof.
+  intros W H. unfold merge_decl in H. destruct (t_super (d_ty d)) as [sup|]; [|discriminate].
+  destruct (registered (m_ts st) (t_name (d_ty d))).
+  - destruct (merge_super fn_form (m_ts st) (t_name (d_ty d)) sup) as [ts1| |] eqn:E; cbn [bind] in H; try discriminate.
+    destruct (merge_features fn_form (d_in d) (t_name (d_ty d)) (t_own (d_ty d)) ts1 (m_tags st)) as [r| |] eqn:Ef; cbn [bind] in H; try discriminate.
+    inversion H; subst st'. cbn [m_ts]. unfold HI. rewrite (merge_features_strip _ _ _ _ _ _ Ef). eapply merge_super_HI; eassumption.
+  - destruct (create_type (m_ts st) (t_name (d_ty d)) sup (t_desc (d_ty d))) as [ts1| |] eqn:E; cbn [bind] in H; try discriminate.
+    destruct (merge_features fn_form (d_in d) (t_name (d_ty d)) (t_own (d_ty d)) ts1 (m_tags st)) as [r| |] eqn:Ef; cbn [bind] in H; try discriminate.
+    inversion H; subst st'. cbn [m_ts]. unfold HI. rewrite (merge_features_strip _ _ _ _ _ _ Ef). eapply create_type_HI; eassumption.
+Qed.
+
+(* ================================================================================================ the loop *)
+Lemma pass_shape F : forall l st st' rest, pass F l st = Ok (st', rest) -> incl rest l /\ List.length rest <= List.length l.
+Proof.
+  induction l as [|d r IH]; intros st st' rest H; cbn [pass] in H.
+  - inversion H. split; [intros x Hx; exact Hx|apply le_n].
+  - destruct (t_super (d_ty d)) as [s|]; [|discriminate].
+    destruct (is_predef s || memb s (m_done st)).
+    + destruct (merge_decl F st d) as [st1| |]; cbn [bind] in H; try discriminate.
+      destruct (IH _ _ _ H) as [Hi Hl]. split; [intros x Hx; right; apply Hi; exact Hx|cbn [List.length]; lia].
+    + destruct (pass F r st) as [[st2 rest2]| |] eqn:E; cbn [bind] in H; try discriminate.
+      cbn [fst snd] in H. inversion H; subst st' rest. destruct (IH _ _ _ E) as [Hi Hl].
+      split; [intros x [<-|Hx]; [left; reflexivity|right; apply Hi; exact Hx]|cbn [List.length]; lia].
+Qed.
+
+Section Loop.
+  Variable F : form.
+  Variable L : list decl.
+  Variable I : mst -> Prop.
+  Variable R : decl -> mst -> Prop.
+  (* a declaration is processed only when it is ready; the invariant may use that *)
+  Definition ready (st : mst) (d : decl) : Prop :=
+    exists s, t_super (d_ty d) = Some s /\ (is_predef s || memb s (m_done st)) = true.
+  Hypothesis step : forall st d st1, I st -> In d L -> ready st d -> merge_decl F st d = Ok st1 ->
+    I st1 /\ R d st1 /\ (forall d', R d' st -> R d' st1).
+  Hypothesis nofuel : forall st d, I st -> In d L -> ready st d -> merge_decl F st d <> OutOfFuel.
+
+  Lemma pass_inv : forall l st st' rest, incl l L -> I st -> pass F l st = Ok (st', rest) ->
+    I st' /\ (forall d, In d l -> In d rest \/ R d st') /\ (forall d, R d st -> R d st').
+  Proof.
+    induction l as [|d r IH]; intros st st' rest Hl HI H; cbn [pass] in H.
+    - inversion H; subst. repeat split; auto; intros d [].
+    - assert (Hd : In d L) by (apply Hl; left; reflexivity).
+      assert (Hr : incl r L) by (intros y Hy; apply Hl; right; exact Hy).
+      destruct (t_super (d_ty d)) as [s|] eqn:Es; [|discriminate].
+      destruct (is_predef s || memb s (m_done st)) eqn:Erdy.
+      + destruct (merge_decl F st d) as [st1| |] eqn:Em; cbn [bind] in H; try discriminate.
+        destruct (step st d st1 HI Hd (ex_intro _ s (conj Es Erdy)) Em) as (HI1 & HR1 & Hmono1).
+        destruct (IH _ _ _ Hr HI1 H) as (HI' & Hall & Hmono). split; [exact HI'|]. split.
+        * intros y [<-|Hy]; [right; apply Hmono; exact HR1|apply Hall; exact Hy].
+        * intros y Hy. apply Hmono, Hmono1, Hy.
+      + destruct (pass F r st) as [[st2 rest2]| |] eqn:E; cbn [bind] in H; try discriminate.
+        cbn [fst snd] in H. inversion H; subst st' rest. destruct (IH _ _ _ Hr HI E) as (HI' & Hall & Hmono).
+        split; [exact HI'|]. split; [|exact Hmono].
+        intros y [<-|Hy]; [left; left; reflexivity|]. destruct (Hall y Hy) as [H1|H1]; [left; right; exact H1|right; exact H1].
+  Qed.
+  Lemma pass_nofuel : forall l st, incl l L -> I st -> pass F l st <> OutOfFuel.
+  Proof.
+    induction l as [|d r IH]; intros st Hl HI; cbn [pass]; [discriminate|].
+    assert (Hd : In d L) by (apply Hl; left; reflexivity).
+    assert (Hr : incl r L) by (intros y Hy; apply Hl; right; exact Hy).
+    destruct (t_super (d_ty d)) as [s|] eqn:Es; [|discriminate].
+    destruct (is_predef s || memb s (m_done st)) eqn:Erdy.
+    - destruct (merge_decl F st d) as [st1| |] eqn:Em; cbn [bind]; try discriminate.
+      + destruct (step st d st1 HI Hd (ex_intro _ s (conj Es Erdy)) Em) as (HI1 & _). apply IH; assumption.
+      + exfalso. apply (nofuel st d HI Hd (ex_intro _ s (conj Es Erdy)) Em).
+    - pose proof (IH st Hr HI) as Hn. destruct (pass F r st) as [[st2 rest2]| |]; cbn [bind]; try discriminate. congruence.
+  Qed.
+
+  Lemma rounds_inv : forall fuel l st st', incl l L -> I st -> rounds F fuel l st = Ok st' ->
+    I st' /\ (forall d, In d l -> R d st') /\ (forall d, R d st -> R d st').
+  Proof.
+    induction fuel as [|k IH]; intros l st st' Hl HI H; cbn [rounds] in H; [discriminate|].
+    destruct (pass F l st) as [[st1 rest]| |] eqn:Ep; cbn [bind fst snd] in H; try discriminate.
+    destruct (pass_inv _ _ _ _ Hl HI Ep) as (HI1 & Hall & Hmono). destruct (pass_shape _ _ _ _ _ Ep) as [Hincl _].
+    destruct rest as [|d0 rest0].
+    - inversion H; subst st'. split; [exact HI1|]. split; [|exact Hmono].
+      intros d Hd. destruct (Hall d Hd) as [[]|Hr]. exact Hr.
+    - destruct (Nat.eqb (List.length l) (List.length (d0 :: rest0))); [discriminate|].
+      assert (Hrl : incl (d0 :: rest0) L) by (intros y Hy; apply Hl, Hincl, Hy).
+      destruct (IH _ _ _ Hrl HI1 H) as (HI' & Hall' & Hmono'). split; [exact HI'|]. split.
+      + intros d Hd. destruct (Hall d Hd) as [Hin|Hr]; [apply Hall'; exact Hin|apply Hmono'; exact Hr].
+      + intros d Hd. apply Hmono', Hmono, Hd.
+  Qed.
+  (* termination: every round that does not end the loop removes a declaration, so length + 1 rounds are enough *)
+  Lemma rounds_nofuel : forall fuel l st, incl l L -> I st -> List.length l < fuel -> rounds F fuel l st <> OutOfFuel.
+  Proof.
+    induction fuel as [|k IH]; intros l st Hl HI Hlt; [lia|]. cbn [rounds].
+    pose proof (pass_nofuel l st Hl HI) as Hn.
+    destruct (pass F l st) as [[st1 rest]| |] eqn:Ep; cbn [bind fst snd]; try discriminate; [|congruence].
+    destruct (pass_inv _ _ _ _ Hl HI Ep) as (HI1 & _ & _). destruct (pass_shape _ _ _ _ _ Ep) as [Hincl Hlen].
+    destruct rest as [|d0 rest0]; [discriminate|].
+    destruct (Nat.eqb (List.length l) (List.length (d0 :: rest0))) eqn:E; [discriminate|].
+    apply Nat.eqb_neq in E. apply IH; [intros y Hy; apply Hl, Hincl, Hy|exact HI1|lia].
+  Qed.
+End Loop.
+
+(* ================================================================================================ what the steps keep *)
+(* types stay registered and features are only ever added *)
+Definition grows (ts ts' : tsys) : Prop :=
+  forall n t, find_ty ts n = Some t -> exists t', find_ty ts' n = Some t' /\ incl (t_own t) (t_own t') /\ incl (t_inh t) (t_inh t').
+Lemma grows_refl ts : grows ts ts.
+Proof. intros n t H. exists t. repeat split; auto; apply incl_refl. Qed.
+Lemma grows_trans a b c : grows a b -> grows b c -> grows a c.
+Proof.
+  intros H1 H2 n t H. destruct (H1 n t H) as (t1 & Hf1 & Ho1 & Hi1). destruct (H2 n t1 Hf1) as (t2 & Hf2 & Ho2 & Hi2).
+  exists t2. repeat split; auto; eapply incl_tran; eassumption.
+Qed.
+Lemma grows_registered a b n : grows a b -> registered a n = true -> registered b n = true.
+Proof. intros G H. apply registered_iff in H. destruct H as (t & H). destruct (G n t H) as (t' & H' & _). apply registered_iff. eauto. Qed.
+Lemma grows_map (g : ty -> ty) ts : (forall t, t_name (g t) = t_name t) ->
+  (forall t, incl (t_own t) (t_own (g t)) /\ incl (t_inh t) (t_inh (g t))) -> grows ts (map g ts).
+Proof.
+  intros Kn Kf n t H. exists (g t). rewrite (find_map_name g ts n Kn), H. split; [reflexivity|apply Kf].
+Qed.
+
+(* a property of every feature stored anywhere *)
+Definition all_feats (P : feat -> Prop) (ts : tsys) : Prop := forall t f, In t ts -> In f (t_own t ++ t_inh t) -> P f.
+Definition own_dom (ts : tsys) : Prop := forall t f, In t ts -> In f (t_own t) -> f_dom f = t_name t.
+
+(* ---- create_type ---- *)
+Lemma create_type_inv' ts name supn desc ts' : registered ts TOP = true -> create_type ts name supn desc = Ok ts' ->
+  find_ty ts name = None /\
+  exists p inh, get_type ts supn = Ok p /\ In p ts /\ inherit_all [] (all_features p) = Ok inh /\
+                ts' = map (add_child (t_name p) name) ts ++ [new_type name p desc inh].
+Proof.
+  intros Htop H. unfold create_type in H. unfold registered in H, Htop.
+  destruct (find_ty ts name) eqn:En; [discriminate|]. split; [reflexivity|].
+  destruct (get_type ts supn) as [p| |] eqn:Eg; cbn [bind] in H; try discriminate.
+  destruct (memb (t_name p) final_types); [discriminate|].
+  destruct (String.eqb name TOP) eqn:Et.
+  - apply String.eqb_eq in Et. subst name. rewrite En in Htop. discriminate.
+  - destruct (inherit_all [] (all_features p)) as [inh| |] eqn:Ei; cbn [bind] in H; try discriminate.
+    inversion H. exists p, inh. repeat split; auto. apply (get_type_ok_inv _ _ _ Eg).
+Qed.
+Lemma HI_top ts : HI ts -> registered ts TOP = true.
+Proof.
+  intros W. destruct (wf_top _ W) as (t & Ht & _). unfold strip in Ht. rewrite (find_map_shape ts strip_ty TOP strip_shape) in Ht.
+  unfold registered. destruct (find_ty ts TOP); [reflexivity|discriminate].
+Qed.
+Lemma create_type_grows ts name supn desc ts' : registered ts TOP = true -> create_type ts name supn desc = Ok ts' ->
+  grows ts ts' /\ registered ts' name = true.
+Proof.
+  intros Htop H. destruct (create_type_inv' _ _ _ _ _ Htop H) as (Hnone & p & inh & _ & _ & _ & ->). split.
+  - intros n t Hf. exists (add_child (t_name p) name t). rewrite find_app_new, find_map_add_child, Hf. cbn [option_map].
+    rewrite add_child_own, add_child_inh. repeat split; apply incl_refl.
+  - unfold registered. rewrite find_app_new, find_map_add_child, Hnone. cbn [option_map new_type rebuild_ctor t_name].
+    rewrite String.eqb_refl. reflexivity.
+Qed.
+Lemma create_type_all_feats P ts name supn desc ts' : registered ts TOP = true -> all_feats P ts ->
+  create_type ts name supn desc = Ok ts' -> all_feats P ts'.
+Proof.
+  intros Htop HP H. destruct (create_type_inv' _ _ _ _ _ Htop H) as (_ & p & inh & _ & Hpin & Hinh & ->).
+  intros t f Hin Hf. apply in_app_or in Hin. destruct Hin as [Hin|[<-|[]]].
+  - apply in_map_iff in Hin. destruct Hin as (t0 & <- & Hin0). rewrite add_child_own, add_child_inh in Hf. apply (HP t0 f Hin0 Hf).
+  - cbn [new_type rebuild_ctor t_own t_inh app] in Hf. destruct (inherit_all_In _ _ _ _ Hinh Hf) as [[]|Hf'].
+    apply (HP p f Hpin). apply all_features_In. exact Hf'.
+Qed.
+Lemma create_type_own_dom ts name supn desc ts' : registered ts TOP = true -> own_dom ts ->
+  create_type ts name supn desc = Ok ts' -> own_dom ts'.
+Proof.
+  intros Htop HP H. destruct (create_type_inv' _ _ _ _ _ Htop H) as (_ & p & inh & _ & Hpin & Hinh & ->).
+  intros t f Hin Hf. apply in_app_or in Hin. destruct Hin as [Hin|[<-|[]]].
+  - apply in_map_iff in Hin. destruct Hin as (t0 & <- & Hin0). rewrite add_child_own in Hf. rewrite add_child_name. apply (HP t0 f Hin0 Hf).
+  - cbn [new_type rebuild_ctor t_own] in Hf. contradiction.
+Qed.
+
+(* ---- _add_feature, own and inherited ---- *)
+Lemma add_feature_res_inv ts dom f ts' : add_feature_res ts dom f = Ok ts' ->
+  ts' = ts \/ (ts' = map (spread ts dom f) ts /\ exists t, find_ty ts dom = Some t).
+Proof.
+  unfold add_feature_res. destruct (add_feature ts dom f) as [ts1| | |] eqn:E; try discriminate; intros H; inversion H; subst.
+  - right. destruct (add_feature_added_inv _ _ _ _ E) as (t & Ht & _ & _ & _ & ->). split; [reflexivity|eauto].
+  - left. reflexivity.
+Qed.
+Lemma spread_name ts dom f d : t_name (spread ts dom f d) = t_name d.
+Proof. apply (proj1 (spread_shape ts dom f d)). Qed.
+Lemma add_feature_res_grows ts dom f ts' : add_feature_res ts dom f = Ok ts' -> grows ts ts'.
+Proof.
+  intros H. destruct (add_feature_res_inv _ _ _ _ H) as [->|[-> _]]; [apply grows_refl|].
+  apply grows_map; [apply spread_name|]. intros t. split; intros g Hg.
+  - apply own_spread. left. exact Hg.
+  - apply inh_spread. left. exact Hg.
+Qed.
+Lemma add_feature_res_all_feats P ts dom f ts' : all_feats P ts -> P f -> add_feature_res ts dom f = Ok ts' -> all_feats P ts'.
+Proof.
+  intros HP Hf H. destruct (add_feature_res_inv _ _ _ _ H) as [->|[-> _]]; [exact HP|].
+  intros t' g Hin Hg. apply in_map_iff in Hin. destruct Hin as (t & <- & Hin). apply in_app_or in Hg. destruct Hg as [Hg|Hg].
+  - apply own_spread in Hg. destruct Hg as [Hg|[_ ->]]; [|exact Hf]. apply (HP t g Hin). apply in_or_app. left. exact Hg.
+  - apply inh_spread in Hg. destruct Hg as [Hg|(_ & _ & _ & ->)]; [|exact Hf]. apply (HP t g Hin). apply in_or_app. right. exact Hg.
+Qed.
+Lemma add_feature_res_own_dom ts dom f ts' : own_dom ts -> f_dom f = dom -> add_feature_res ts dom f = Ok ts' -> own_dom ts'.
+Proof.
+  intros HP Hf H. destruct (add_feature_res_inv _ _ _ _ H) as [->|[-> _]]; [exact HP|].
+  intros t' g Hin Hg. apply in_map_iff in Hin. destruct Hin as (t & <- & Hin). rewrite spread_name.
+  apply own_spread in Hg. destruct Hg as [Hg|[Hn ->]]; [apply (HP t g Hin Hg)|congruence].
+Qed.
+
+Lemma spread_inh_fields ts x f d :
+  t_name (spread_inh ts x f d) = t_name d /\ t_own (spread_inh ts x f d) = t_own d /\
+  (t_inh (spread_inh ts x f d) = t_inh d \/ t_inh (spread_inh ts x f d) = t_inh d ++ [f]).
+Proof. unfold spread_inh. destruct (is_below ts x (t_name d) && _); cbn [with_inh rebuild_ctor t_name t_own t_inh]; auto. Qed.
+Lemma inherit_fn_inv ts x f ts' : inherit_fn ts x f = Ok ts' -> ts' = ts \/ ts' = map (spread_inh ts x f) ts.
+Proof.
+  unfold inherit_fn. destruct (find_ty ts x) as [t|]; [|discriminate].
+  destruct (find_feat (f_name f) (t_inh t)) as [g|].
+  - destruct (feat_eqb g f); [|discriminate]. intros H. inversion H. left. reflexivity.
+  - destruct (existsb _ ts); [discriminate|]. intros H. inversion H. right. reflexivity.
+Qed.
+Lemma inherit_fn_grows ts x f ts' : inherit_fn ts x f = Ok ts' -> grows ts ts'.
+Proof.
+  intros H. destruct (inherit_fn_inv _ _ _ _ H) as [->| ->]; [apply grows_refl|].
+  apply grows_map; [intros t; apply (proj1 (spread_inh_fields ts x f t))|].
+  intros t. destruct (spread_inh_fields ts x f t) as (_ & Ho & [Hi|Hi]); rewrite Ho, Hi; split; try apply incl_refl. apply incl_appl, incl_refl.
+Qed.
+Lemma inherit_fn_all_feats P ts x f ts' : all_feats P ts -> P f -> inherit_fn ts x f = Ok ts' -> all_feats P ts'.
+Proof.
+  intros HP Hf H. destruct (inherit_fn_inv _ _ _ _ H) as [->| ->]; [exact HP|].
+  intros t' g Hin Hg. apply in_map_iff in Hin. destruct Hin as (t & <- & Hin).
+  destruct (spread_inh_fields ts x f t) as (_ & Ho & [Hi|Hi]); rewrite Ho, Hi in Hg.
+  - apply (HP t g Hin Hg).
+  - rewrite app_assoc in Hg. apply in_app_or in Hg. destruct Hg as [Hg|[<-|[]]]; [apply (HP t g Hin Hg)|exact Hf].
+Qed.
+Lemma inherit_fn_own_dom ts x f ts' : own_dom ts -> inherit_fn ts x f = Ok ts' -> own_dom ts'.
+Proof.
+  intros HP H. destruct (inherit_fn_inv _ _ _ _ H) as [->| ->]; [exact HP|].
+  intros t' g Hin Hg. apply in_map_iff in Hin. destruct Hin as (t & <- & Hin).
+  destruct (spread_inh_fields ts x f t) as (Hn & Ho & _). rewrite Ho in Hg. rewrite Hn. apply (HP t g Hin Hg).
+Qed.
+Lemma inherit_list_keeps P x fs : forall ts ts', all_feats P ts -> own_dom ts -> (forall f, In f fs -> P f) ->
+  inherit_list fn_form x fs ts = Ok ts' -> grows ts ts' /\ all_feats P ts' /\ own_dom ts'.
+Proof.
+  induction fs as [|f r IH]; intros ts ts' HP HD Hfs H; cbn [inherit_list] in H.
+  - inversion H; subst. split; [apply grows_refl|auto].
+  - cbn [fn_form inhf] in H. destruct (inherit_fn ts x f) as [ts1| |] eqn:E; cbn [bind] in H; try discriminate.
+    destruct (IH ts1 ts' (inherit_fn_all_feats P _ _ _ _ HP (Hfs f (or_introl eq_refl)) E) (inherit_fn_own_dom _ _ _ _ HD E)
+                (fun g Hg => Hfs g (or_intror Hg)) H) as (G & HP' & HD').
+    split; [eapply grows_trans; [apply (inherit_fn_grows _ _ _ _ E)|exact G]|auto].
+Qed.
+Lemma merge_features_keeps P i x fs : forall ts tags r, all_feats P ts -> own_dom ts -> (forall f, In f fs -> P f /\ f_dom f = x) ->
+  merge_features fn_form i x fs ts tags = Ok r -> grows ts (fst r) /\ all_feats P (fst r) /\ own_dom (fst r).
+Proof.
+  induction fs as [|f r0 IH]; intros ts tags r HP HD Hfs H; cbn [merge_features] in H.
+  - inversion H; subst. split; [apply grows_refl|auto].
+  - cbn [fn_form addf] in H. destruct (add_feature_res ts x f) as [ts1| |] eqn:E; cbn [bind] in H; try discriminate.
+    destruct (Hfs f (or_introl eq_refl)) as [Hpf Hdf].
+    destruct (IH ts1 _ r (add_feature_res_all_feats P _ _ _ _ HP Hpf E) (add_feature_res_own_dom _ _ _ _ HD Hdf E)
+                (fun g Hg => Hfs g (or_intror Hg)) H) as (G & HP' & HD').
+    split; [eapply grows_trans; [apply (add_feature_res_grows _ _ _ _ E)|exact G]|auto].
+Qed.
+
+(* ---- re-parenting ---- *)
+Lemma relink_grows ts x oldp newp k : grows ts (relink ts x oldp newp k).
+Proof.
+  apply grows_map; [intros t; apply relink_name|]. intros t. rewrite relink_own, relink_inh. split; apply incl_refl.
+Qed.
+Lemma relink_all_feats P ts x oldp newp k : all_feats P ts -> all_feats P (relink ts x oldp newp k).
+Proof.
+  intros HP t' g Hin Hg. apply in_map_iff in Hin. destruct Hin as (t & <- & Hin). rewrite relink_own, relink_inh in Hg. apply (HP t g Hin Hg).
+Qed.
+Lemma relink_own_dom ts x oldp newp k : own_dom ts -> own_dom (relink ts x oldp newp k).
+Proof.
+  intros HP t' g Hin Hg. apply in_map_iff in Hin. destruct Hin as (t & <- & Hin). rewrite relink_own in Hg. rewrite relink_name. apply (HP t g Hin Hg).
+Qed.
+Lemma reparent_keeps P ts x oldp newp ts' : all_feats P ts -> own_dom ts -> reparent fn_form ts x oldp newp = Ok ts' ->
+  grows ts ts' /\ all_feats P ts' /\ own_dom ts'.
+Proof.
+  intros HP HD H. unfold reparent in H. destruct (get_type ts newp) as [tn| |]; cbn [bind] in H; try discriminate.
+  destruct (find_ty ts oldp) as [tp|]; [|discriminate]. destruct (negb (memb x (t_children tp))); [discriminate|].
+  set (ts1 := relink ts x oldp (t_name tn) (S (t_rank tn))) in *.
+  destruct (find_ty ts1 (t_name tn)) as [tn1|] eqn:E1; [|discriminate].
+  destruct (find_ty_In _ _ _ E1) as [Hin1 _].
+  destruct (inherit_list_keeps P x (all_features tn1) ts1 ts' (relink_all_feats P _ _ _ _ _ HP) (relink_own_dom _ _ _ _ _ HD)
+              (fun f Hf => relink_all_feats P _ _ _ _ _ HP tn1 f Hin1 (all_features_In _ _ Hf)) H) as (G & HP' & HD').
+  split; [eapply grows_trans; [apply relink_grows|exact G]|auto].
+Qed.
+Lemma merge_super_keeps P ts name sup ts' : all_feats P ts -> own_dom ts -> merge_super fn_form ts name sup = Ok ts' ->
+  grows ts ts' /\ all_feats P ts' /\ own_dom ts'.
+Proof.
+  intros HP HD H. unfold merge_super in H. destruct (get_type ts name) as [ex| |]; cbn [bind] in H; try discriminate.
+  destruct (t_super ex) as [exsup|]; [|discriminate].
+  destruct (String.eqb sup exsup); [inversion H; subst; split; [apply grows_refl|auto]|].
+  destruct (ts_subsumes ts (t_name ex) sup) as [b1| |]; cbn [bind] in H; try discriminate. destruct b1; [discriminate|].
+  destruct (ts_subsumes ts exsup sup) as [b2| |]; cbn [bind] in H; try discriminate. destruct b2.
+  - eapply reparent_keeps; eassumption.
+  - destruct (ts_subsumes ts sup exsup) as [b3| |]; cbn [bind] in H; try discriminate.
+    destruct b3; [inversion H; subst; split; [apply grows_refl|auto]|discriminate].
+Qed.
+
+(* ================================================================================================ declarations *)
+Definition dname (d : decl) : tname := t_name (d_ty d).
+Definition dnames (L : list decl) : list tname := map dname L.
+(* a name that will be registered in the result: built in, or declared by some input *)
+Definition nm_ok (L : list decl) (n : tname) : Prop := registered init_ts n = true \/ In n (dnames L).
+Definition names_ok (L : list decl) (f : feat) : Prop :=
+  nm_ok L (f_dom f) /\ nm_ok L (f_range f) /\ match f_elem f with Some e => nm_ok L e | None => True end.
+(* what a declaration taken from a well-formed input satisfies *)
+Definition decl_ok (L : list decl) (d : decl) : Prop :=
+  is_predef (dname d) = false /\ (exists s, t_super (d_ty d) = Some s /\ nm_ok L s) /\
+  forall f, In f (t_own (d_ty d)) -> names_ok L f /\ f_dom f = dname d.
+
+Lemma predef_in_init n : is_predef n = true -> registered init_ts n = true.
+Proof.
+  assert (H : forallb (registered init_ts) predefined_types = true) by (vm_compute; reflexivity).
+  intros Hn. unfold is_predef in Hn. apply memb_In in Hn. rewrite forallb_forall in H. apply H. exact Hn.
+Qed.
+Lemma init_HI : HI init_ts.
+Proof. apply wfhb_sound. vm_compute. reflexivity. Qed.
+Lemma init_names_ok L : all_feats (names_ok L) init_ts.
+Proof.
+  intros t f Hin Hf. destruct (wf_refs _ init_WFh t f Hin Hf) as (H1 & H2 & H3).
+  unfold names_ok, nm_ok. split; [left; exact H1|]. split; [left; exact H2|]. destruct (f_elem f); [left; exact H3|exact I].
+Qed.
+Lemma init_own_dom : own_dom init_ts.
+Proof. intros t f Hin Hf. apply (wf_own_dom _ init_WFh t f Hin Hf). Qed.
+
+Lemma type_list_from_In i inputs d : In d (type_list_from i inputs) -> exists ts, In ts inputs /\ In (d_ty d) (user_types ts).
+Proof.
+  revert i. induction inputs as [|ts r IH]; intros i H; cbn [type_list_from] in H; [contradiction|].
+  apply in_app_or in H. destruct H as [H|H].
+  - apply in_map_iff in H. destruct H as (t & <- & Ht). exists ts. split; [left; reflexivity|exact Ht].
+  - destruct (IH _ H) as (ts' & H1 & H2). exists ts'. split; [right; exact H1|exact H2].
+Qed.
+Lemma type_list_from_names i inputs ts t : In ts inputs -> In t (user_types ts) -> In (t_name t) (dnames (type_list_from i inputs)).
+Proof.
+  revert i. induction inputs as [|ts0 r IH]; intros i Hin Ht; [contradiction|]. cbn [type_list_from]. unfold dnames. rewrite map_app, in_app_iff.
+  destruct Hin as [->|Hin].
+  - left. rewrite map_map. apply in_map_iff. exists t. split; [reflexivity|exact Ht].
+  - right. apply (IH (S i) Hin Ht).
+Qed.
+(* every declaration of a well-formed input is a good declaration *)
+Lemma type_list_ok inputs : (forall ts, In ts inputs -> WFh ts) -> forall d, In d (type_list inputs) -> decl_ok (type_list inputs) d.
+Proof.
+  intros HW d Hd. destruct (type_list_from_In _ _ _ Hd) as (ts & Hts & Hu). pose proof (HW ts Hts) as W.
+  unfold user_types in Hu. apply filter_In in Hu. destruct Hu as [Hin Hnp]. apply negb_true_iff in Hnp.
+  assert (Hnm : forall n, registered ts n = true -> nm_ok (type_list inputs) n).
+  { intros n Hr. destruct (is_predef n) eqn:Ep; [left; apply predef_in_init; exact Ep|]. right.
+    apply registered_iff in Hr. destruct Hr as (t & Ht). destruct (find_ty_In _ _ _ Ht) as [Htin <-].
+    apply (type_list_from_names 1 inputs ts t Hts). apply filter_In. split; [exact Htin|]. rewrite Ep. reflexivity. }
+  split; [exact Hnp|]. split.
+  - destruct (t_super (d_ty d)) as [s|] eqn:Es.
+    + exists s. split; [reflexivity|]. destruct (wf_super _ W (d_ty d) s Hin Es) as (p & Hp & _). apply Hnm. apply registered_iff. eauto.
+    + exfalso. pose proof (wf_root _ W (d_ty d) Hin Es) as Hn. unfold dname in Hnp. rewrite Hn in Hnp. vm_compute in Hnp. discriminate.
+  - intros f Hf. split; [|apply (wf_own_dom _ W (d_ty d) f Hin Hf)].
+    destruct (wf_refs _ W (d_ty d) f Hin (in_or_app _ _ _ (or_introl Hf))) as (H1 & H2 & H3).
+    unfold names_ok. split; [apply Hnm; exact H1|]. split; [apply Hnm; exact H2|]. destruct (f_elem f); [apply Hnm; exact H3|exact I].
+Qed.
+
+(* ================================================================================================ the loop invariant *)
+Record Inv (L : list decl) (st : mst) : Prop := {
+  inv_HI : HI (m_ts st);
+  inv_done : forall n, In n (m_done st) -> registered (m_ts st) n = true;
+  inv_init : forall n, registered init_ts n = true -> registered (m_ts st) n = true;
+  inv_names : all_feats (names_ok L) (m_ts st);
+  inv_dom : own_dom (m_ts st)
+}.
+Definition Rreg (d : decl) (st : mst) : Prop := registered (m_ts st) (dname d) = true.
+
+Lemma merge_decl_grows L st d st1 : Inv L st -> decl_ok L d -> merge_decl fn_form st d = Ok st1 ->
+  grows (m_ts st) (m_ts st1) /\ all_feats (names_ok L) (m_ts st1) /\ own_dom (m_ts st1) /\ registered (m_ts st1) (dname d) = true
+  /\ m_done st1 = dname d :: m_done st.
+Proof.
+  intros [W Hdone Hinit HN HD] (Hnp & _ & Hfs) H. unfold merge_decl in H. destruct (t_super (d_ty d)) as [sup|]; [|discriminate].
+  fold (dname d) in H.
+  destruct (registered (m_ts st) (dname d)) eqn:Er.
+  - destruct (merge_super fn_form (m_ts st) (dname d) sup) as [ts1| |] eqn:E; cbn [bind] in H; try discriminate.
+    destruct (merge_features fn_form (d_in d) (dname d) (t_own (d_ty d)) ts1 (m_tags st)) as [r| |] eqn:Ef; cbn [bind] in H; try discriminate.
+    inversion H; subst st1. cbn [m_ts m_done].
+    destruct (merge_super_keeps (names_ok L) _ _ _ _ HN HD E) as (G1 & HN1 & HD1).
+    destruct (merge_features_keeps (names_ok L) _ _ _ _ _ _ HN1 HD1 Hfs Ef) as (G2 & HN2 & HD2).
+    pose proof (grows_trans _ _ _ G1 G2) as G. split; [exact G|]. split; [exact HN2|]. split; [exact HD2|].
+    split; [apply (grows_registered _ _ _ G Er)|reflexivity].
+  - destruct (create_type (m_ts st) (dname d) sup (t_desc (d_ty d))) as [ts1| |] eqn:E; cbn [bind] in H; try discriminate.
+    destruct (merge_features fn_form (d_in d) (dname d) (t_own (d_ty d)) ts1 (m_tags st)) as [r| |] eqn:Ef; cbn [bind] in H; try discriminate.
+    inversion H; subst st1. cbn [m_ts m_done]. pose proof (HI_top _ W) as Htop.
+    destruct (create_type_grows _ _ _ _ _ Htop E) as (G1 & Hreg).
+    pose proof (create_type_all_feats (names_ok L) _ _ _ _ _ Htop HN E) as HN1.
+    pose proof (create_type_own_dom _ _ _ _ _ Htop HD E) as HD1.
+    destruct (merge_features_keeps (names_ok L) _ _ _ _ _ _ HN1 HD1 Hfs Ef) as (G2 & HN2 & HD2).
+    split; [eapply grows_trans; eassumption|]. split; [exact HN2|]. split; [exact HD2|].
+    split; [apply (grows_registered _ _ _ G2 Hreg)|reflexivity].
+Qed.
+Lemma merge_decl_Inv L st d st1 : Inv L st -> decl_ok L d -> merge_decl fn_form st d = Ok st1 ->
+  Inv L st1 /\ Rreg d st1 /\ (forall d', Rreg d' st -> Rreg d' st1).
+Proof.
+  intros HI0 Hok H. destruct (merge_decl_grows L st d st1 HI0 Hok H) as (G & HN & HD & Hreg & Hdone).
+  split; [|split; [exact Hreg|intros d' Hd'; apply (grows_registered _ _ _ G Hd')]].
+  constructor; auto.
+  - eapply merge_decl_HI; [apply (inv_HI _ _ HI0)|exact H].
+  - rewrite Hdone. intros n [<-|Hn]; [exact Hreg|]. apply (grows_registered _ _ _ G). apply (inv_done _ _ HI0 n Hn).
+  - intros n Hn. apply (grows_registered _ _ _ G). apply (inv_init _ _ HI0 n Hn).
+Qed.
+
+(* ---- no step runs out of fuel ---- *)
+Lemma create_type_nofuel ts n s d : create_type ts n s d <> OutOfFuel.
+Proof.
+  unfold create_type. destruct (registered ts n); [discriminate|].
+  assert (Hg : get_type ts s <> OutOfFuel).
+  { unfold get_type. destruct (find_ty ts s); [discriminate|]. destruct (has_dot s); [discriminate|]. destruct (short_matches ts s) as [|? [|? ?]]; discriminate. }
+  destruct (get_type ts s) as [p| |]; cbn [bind]; try discriminate; [|congruence].
+  destruct (memb (t_name p) final_types); [discriminate|]. destruct (String.eqb n TOP); [discriminate|].
+  assert (Hi : forall l acc, inherit_all acc l <> OutOfFuel).
+  { induction l as [|f r IH]; intros acc; cbn [inherit_all]; [discriminate|]. destruct (find_feat (f_name f) acc); [destruct (feat_eqb _ f); [apply IH|discriminate]|apply IH]. }
+  specialize (Hi (all_features p) []). destruct (inherit_all [] (all_features p)); cbn [bind]; try discriminate. congruence.
+Qed.
+Lemma get_type_nofuel ts s : get_type ts s <> OutOfFuel.
+Proof. unfold get_type. destruct (find_ty ts s); [discriminate|]. destruct (has_dot s); [discriminate|]. destruct (short_matches ts s) as [|? [|? ?]]; discriminate. Qed.
+Lemma add_feature_res_nofuel ts x f : add_feature_res ts x f <> OutOfFuel.
+Proof.
+  unfold add_feature_res, add_feature. destruct (find_ty ts x); [|discriminate].
+  destruct (find_feat (f_name f) (t_own t)); [destruct (feat_eqb _ f); discriminate|].
+  destruct (find_feat (f_name f) (t_inh t)); [destruct (feat_eqb _ f); discriminate|].
+  destruct (existsb _ ts); discriminate.
+Qed.
+Lemma merge_features_nofuel i x fs : forall ts tags, merge_features fn_form i x fs ts tags <> OutOfFuel.
+Proof.
+  induction fs as [|f r IH]; intros ts tags; cbn [merge_features]; [discriminate|]. cbn [fn_form addf].
+  pose proof (add_feature_res_nofuel ts x f). destruct (add_feature_res ts x f); cbn [bind]; try discriminate; [apply IH|congruence].
+Qed.
+Lemma inherit_fn_nofuel ts x f : inherit_fn ts x f <> OutOfFuel.
+Proof.
+  unfold inherit_fn. destruct (find_ty ts x); [|discriminate].
+  destruct (find_feat (f_name f) (t_inh t)); [destruct (feat_eqb _ f); discriminate|]. destruct (existsb _ ts); discriminate.
+Qed.
+Lemma inherit_list_nofuel x fs : forall ts, inherit_list fn_form x fs ts <> OutOfFuel.
+Proof.
+  induction fs as [|f r IH]; intros ts; cbn [inherit_list]; [discriminate|]. cbn [fn_form inhf].
+  pose proof (inherit_fn_nofuel ts x f). destruct (inherit_fn ts x f); cbn [bind]; try discriminate; [apply IH|congruence].
+Qed.
+Lemma reparent_nofuel ts x o n : reparent fn_form ts x o n <> OutOfFuel.
+Proof.
+  unfold reparent. pose proof (get_type_nofuel ts n). destruct (get_type ts n) as [tn| |]; cbn [bind]; try discriminate; [|congruence].
+  destruct (find_ty ts o); [|discriminate]. destruct (negb _); [discriminate|].
+  destruct (find_ty _ (t_name tn)); [apply inherit_list_nofuel|discriminate].
+Qed.
+Lemma ts_subsumes_nofuel ts p c : HI ts -> ts_subsumes ts p c <> OutOfFuel.
+Proof.
+  intros W. destruct (get_type ts p) as [tp| |] eqn:Ep.
+  - destruct (get_type ts c) as [tc| |] eqn:Ec.
+    + destruct (HI_subsumes_gen ts p c tp tc W Ep Ec) as (r & Hr & _). rewrite Hr. discriminate.
+    + unfold ts_subsumes. rewrite Ep, Ec. discriminate.
+    + exfalso. apply (get_type_nofuel ts c Ec).
+  - unfold ts_subsumes. rewrite Ep. discriminate.
+  - exfalso. apply (get_type_nofuel ts p Ep).
+Qed.
+Lemma merge_super_nofuel ts name sup : HI ts -> merge_super fn_form ts name sup <> OutOfFuel.
+Proof.
+  intros W. unfold merge_super. pose proof (get_type_nofuel ts name). destruct (get_type ts name) as [ex| |]; cbn [bind]; try discriminate; [|congruence].
+  destruct (t_super ex) as [exsup|]; [|discriminate]. destruct (String.eqb sup exsup); [discriminate|].
+  pose proof (ts_subsumes_nofuel ts (t_name ex) sup W). destruct (ts_subsumes ts (t_name ex) sup) as [b1| |]; cbn [bind]; try discriminate; [|congruence].
+  destruct b1; [discriminate|].
+  pose proof (ts_subsumes_nofuel ts exsup sup W). destruct (ts_subsumes ts exsup sup) as [b2| |]; cbn [bind]; try discriminate; [|congruence].
+  destruct b2; [apply reparent_nofuel|].
+  pose proof (ts_subsumes_nofuel ts sup exsup W). destruct (ts_subsumes ts sup exsup) as [b3| |]; cbn [bind]; try discriminate; [|congruence].
+  destruct b3; discriminate.
+Qed.
+Lemma merge_decl_nofuel st d : HI (m_ts st) -> merge_decl fn_form st d <> OutOfFuel.
+Proof.
+  intros W. unfold merge_decl. destruct (t_super (d_ty d)) as [sup|]; [|discriminate].
+  destruct (registered (m_ts st) (t_name (d_ty d))).
+  - pose proof (merge_super_nofuel (m_ts st) (t_name (d_ty d)) sup W).
+    destruct (merge_super fn_form (m_ts st) (t_name (d_ty d)) sup) as [ts1| |]; cbn [bind]; try discriminate; [|congruence].
+    pose proof (merge_features_nofuel (d_in d) (t_name (d_ty d)) (t_own (d_ty d)) ts1 (m_tags st)).
+    destruct (merge_features _ _ _ _ ts1 _); cbn [bind]; try discriminate. congruence.
+  - pose proof (create_type_nofuel (m_ts st) (t_name (d_ty d)) sup (t_desc (d_ty d))).
+    destruct (create_type _ _ sup _) as [ts1| |]; cbn [bind]; try discriminate; [|congruence].
+    pose proof (merge_features_nofuel (d_in d) (t_name (d_ty d)) (t_own (d_ty d)) ts1 (m_tags st)).
+    destruct (merge_features _ _ _ _ ts1 _); cbn [bind]; try discriminate. congruence.
+Qed.
+
+(* ================================================================================================ the fix-up is the identity *)
+Lemma resolve_id ts n : registered ts n = true -> resolve ts n = Ok n.
+Proof.
+  intros H. apply registered_iff in H. destruct H as (t & Ht). unfold resolve. rewrite (get_type_full _ _ _ Ht). cbn [bind].
+  destruct (find_ty_In _ _ _ Ht) as [_ ->]. reflexivity.
+Qed.
+Lemma fix_feat_id ts f : feat_refs_ok ts f -> fix_feat ts f = Ok f.
+Proof.
+  intros (H1 & H2 & H3). unfold fix_feat. rewrite (resolve_id _ _ H1), (resolve_id _ _ H2). cbn [bind].
+  destruct f as [n r d rg e m ds]. cbn [f_elem f_dom f_range f_name f_reserved f_multi f_desc] in *. destruct e as [e|]; cbn [opt_get_type bind].
+  - apply registered_iff in H3. destruct H3 as (t & Ht). rewrite (get_type_full _ _ _ Ht). cbn [bind]. destruct (find_ty_In _ _ _ Ht) as [_ ->]. reflexivity.
+  - reflexivity.
+Qed.
+Lemma fix_feats_id ts l : (forall f, In f l -> feat_refs_ok ts f) -> fix_feats ts l = Ok l.
+Proof.
+  induction l as [|f r IH]; intros H; cbn [fix_feats]; [reflexivity|].
+  rewrite (fix_feat_id ts f (H f (or_introl eq_refl))). cbn [bind]. rewrite IH; [reflexivity|]. intros g Hg. apply H. right. exact Hg.
+Qed.
+Lemma fix_ty_id ts t : (forall s, t_super t = Some s -> registered ts s = true) -> (forall f, In f (t_own t) -> feat_refs_ok ts f) ->
+  fix_ty ts t = Ok t.
+Proof.
+  intros Hs Hf. unfold fix_ty. destruct (is_predef (t_name t)); [reflexivity|].
+  destruct t as [n s d c o i ct cf rk]. cbn [t_super t_own t_name t_desc t_children t_inh t_ctor t_ctor_fn t_rank] in *.
+  rewrite (fix_feats_id ts o Hf). destruct s as [s|]; cbn [bind]; [rewrite (resolve_id ts s (Hs s eq_refl)); reflexivity|reflexivity].
+Qed.
+Lemma fix_tys_id ts l : (forall t, In t l -> fix_ty ts t = Ok t) -> fix_tys ts l = Ok l.
+Proof.
+  induction l as [|t r IH]; intros H; cbn [fix_tys]; [reflexivity|]. rewrite (H t (or_introl eq_refl)). cbn [bind].
+  rewrite IH; [reflexivity|]. intros u Hu. apply H. right. exact Hu.
+Qed.
+
+(* ================================================================================================ from the skeleton back to WFh *)
+Lemma WFh_of_HI ts : HI ts -> all_feats (feat_refs_ok ts) ts -> own_dom ts -> WFh ts.
+Proof.
+  intros W HR HD. pose proof (HI_nodup _ W) as Hnd.
+  assert (Hfind : forall n, find_ty (strip ts) n = option_map strip_ty (find_ty ts n)) by (intros n; apply (find_map_shape ts strip_ty n strip_shape)).
+  constructor.
+  - exact Hnd.
+  - destruct (wf_top _ W) as (t' & Ht' & Hs'). rewrite Hfind in Ht'. destruct (find_ty ts TOP) as [t|]; [|discriminate].
+    inversion Ht'; subst t'. exists t. split; [reflexivity|exact Hs'].
+  - intros t Hin Hs. apply (wf_root _ W (strip_ty t) (in_map strip_ty _ _ Hin) Hs).
+  - intros t s Hin Hs. destruct (wf_super _ W (strip_ty t) s (in_map strip_ty _ _ Hin) Hs) as (p' & Hp' & Hlt).
+    rewrite Hfind in Hp'. destruct (find_ty ts s) as [p|]; [|discriminate]. inversion Hp'; subst p'. exists p. split; [reflexivity|exact Hlt].
+  - intros p c Hin. pose proof (wf_children _ W (strip_ty p) c (in_map strip_ty _ _ Hin)) as Hc. cbn [strip_ty t_children t_name] in Hc.
+    rewrite Hc. split.
+    + intros (tc' & Hf' & Hs'). rewrite Hfind in Hf'. destruct (find_ty ts c) as [tc|]; [|discriminate]. inversion Hf'; subst tc'. exists tc. auto.
+    + intros (tc & Hf & Hs). exists (strip_ty tc). rewrite Hfind, Hf. auto.
+  - intros p Hin. apply (wf_children_nodup _ W (strip_ty p) (in_map strip_ty _ _ Hin)).
+  - exact HR.
+  - exact HD.
+Qed.
+
+Definition all_WFh (inputs : list tsys) : Prop := forall ts, In ts inputs -> WFh ts.
+Definition st0 : mst := mkSt init_ts [] [].
+
+Lemma Inv_st0 L : Inv L st0.
+Proof.
+  constructor; cbn [st0 m_ts m_done].
+  - exact init_HI.
+  - intros n [].
+  - intros n H. exact H.
+  - apply init_names_ok.
+  - exact init_own_dom.
+Qed.
+
+(* what holds when the readiness loop has ended normally *)
+Lemma rounds_end inputs fuel st : all_WFh inputs -> rounds fn_form fuel (type_list inputs) st0 = Ok st ->
+  Inv (type_list inputs) st /\ forall d, In d (type_list inputs) -> Rreg d st.
+Proof.
+  intros HW H. set (L := type_list inputs) in *.
+  destruct (rounds_inv fn_form L (Inv L) Rreg) with (fuel := fuel) (l := L) (st := st0) (st' := st) as (HI & HR & _).
+  - intros s d s1 HI0 Hd _ Hm. apply (merge_decl_Inv L s d s1 HI0 (type_list_ok inputs HW d Hd) Hm).
+  - apply incl_refl.
+  - apply Inv_st0.
+  - exact H.
+  - split; assumption.
+Qed.
+Lemma end_refs L st : Inv L st -> (forall d, In d L -> Rreg d st) -> all_feats (feat_refs_ok (m_ts st)) (m_ts st).
+Proof.
+  intros HI HR t f Hin Hf. destruct (inv_names _ _ HI t f Hin Hf) as (H1 & H2 & H3).
+  assert (Hn : forall n, nm_ok L n -> registered (m_ts st) n = true).
+  { intros n [Hn|Hn]; [apply (inv_init _ _ HI n Hn)|]. unfold dnames in Hn. apply in_map_iff in Hn. destruct Hn as (d & <- & Hd). apply (HR d Hd). }
+  unfold feat_refs_ok. split; [apply Hn; exact H1|]. split; [apply Hn; exact H2|]. destruct (f_elem f); [apply Hn; exact H3|exact I].
+Qed.
+Lemma end_WFh L st : Inv L st -> (forall d, In d L -> Rreg d st) -> WFh (m_ts st).
+Proof. intros HI HR. apply WFh_of_HI; [apply (inv_HI _ _ HI)|apply (end_refs L st HI HR)|apply (inv_dom _ _ HI)]. Qed.
+Lemma fixup_id ts : WFh ts -> fixup ts = Ok ts.
+Proof.
+  intros W. unfold fixup. apply fix_tys_id. intros t Hin. apply fix_ty_id.
+  - intros s Hs. destruct (wf_super _ W t s Hin Hs) as (p & Hp & _). apply registered_iff. eauto.
+  - intros f Hf. apply (wf_refs _ W t f Hin). apply in_or_app. left. exact Hf.
+Qed.
+
+(* ---- merge_typesystems of well-formed inputs: the result, when there is one, is the state the loop ended in ---- *)
+Lemma merge_inv inputs ts : all_WFh inputs -> merge inputs = Ok ts ->
+  exists st, rounds fn_form (S (List.length (type_list inputs))) (type_list inputs) st0 = Ok st /\ m_ts st = ts /\
+             Inv (type_list inputs) st /\ (forall d, In d (type_list inputs) -> Rreg d st) /\ WFh ts.
+Proof.
+  intros HW H. unfold merge, merge_with in H. fold st0 in H.
+  destruct (rounds fn_form (S (List.length (type_list inputs))) (type_list inputs) st0) as [st| |] eqn:Er; cbn [bind] in H; try discriminate.
+  destruct (rounds_end inputs _ st HW Er) as (HI & HR). pose proof (end_WFh _ st HI HR) as W.
+  rewrite (fixup_id _ W) in H. cbn [bind m_ts] in H. inversion H; subst ts. exists st.
+  split; [reflexivity|]. split; [reflexivity|]. split; [exact HI|]. split; [exact HR|exact W].
+Qed.
+
+(* the result of merging well-formed type systems satisfies the hierarchy invariant of C10 *)
+Theorem merge_WFh inputs ts : all_WFh inputs -> merge inputs = Ok ts -> WFh ts.
+Proof. intros HW H. destruct (merge_inv inputs ts HW H) as (st & _ & _ & _ & _ & W). exact W. Qed.
+
+(* termination: the round bound `number of declarations + 1` is never exhausted, and no query inside runs out of fuel *)
+Theorem merge_terminates inputs : all_WFh inputs -> merge inputs <> OutOfFuel.
+Proof.
+  intros HW. unfold merge, merge_with. fold st0. set (L := type_list inputs).
+  assert (Hr : rounds fn_form (S (List.length L)) L st0 <> OutOfFuel).
+  { apply (rounds_nofuel fn_form L (Inv L) Rreg).
+    - intros s d s1 HI0 Hd _ Hm. apply (merge_decl_Inv L s d s1 HI0 (type_list_ok inputs HW d Hd) Hm).
+    - intros s d HI0 _ _. apply merge_decl_nofuel. apply (inv_HI _ _ HI0).
+    - apply incl_refl.
+    - apply Inv_st0.
+    - apply Nat.lt_succ_diag_r. }
+  destruct (rounds fn_form (S (List.length L)) L st0) as [st| |] eqn:Er; cbn [bind]; try discriminate; [|congruence].
+  destruct (rounds_end inputs _ st HW Er) as (HI & HR). rewrite (fixup_id _ (end_WFh _ st HI HR)). cbn [bind]. discriminate.
+Qed.
+
+(* every type of every input is registered in the result *)
+Theorem merge_contains_all_types inputs ts : all_WFh inputs -> merge inputs = Ok ts ->
+  forall ti t, In ti inputs -> In t ti -> registered ts (t_name t) = true.
+Proof.
+  intros HW H ti t Hti Ht. destruct (merge_inv inputs ts HW H) as (st & _ & <- & HI & HR & _).
+  destruct (is_predef (t_name t)) eqn:Ep.
+  - apply (inv_init _ _ HI). apply predef_in_init. exact Ep.
+  - assert (Hu : In t (user_types ti)) by (apply filter_In; split; [exact Ht|rewrite Ep; reflexivity]).
+    pose proof (type_list_from_names 1 inputs ti t Hti Hu) as Hn. unfold dnames in Hn. apply in_map_iff in Hn.
+    destruct Hn as (d & Hdn & Hd). rewrite <- Hdn. apply (HR d Hd).
+Qed.
+
+(* ================================================================================================ the hierarchy only deepens *)
+(* ancestors are never lost, and a type's supertype only moves to something the old supertype subsumes *)
+Definition bgrows (ts ts' : tsys) : Prop := forall a d, below ts a d -> below ts' a d.
+Definition sdown (ts ts' : tsys) : Prop :=
+  forall n t, find_ty ts n = Some t -> exists t', find_ty ts' n = Some t' /\
+    match t_super t, t_super t' with Some s, Some s' => below ts' s s' | None, None => True | _, _ => False end.
+Definition hgrows (ts ts' : tsys) : Prop := bgrows ts ts' /\ sdown ts ts'.
+
+Lemma hgrows_refl ts : hgrows ts ts.
+Proof.
+  split; [intros a d H; exact H|]. intros n t H. exists t. split; [exact H|]. destruct (t_super t); [apply below_refl|exact I].
+Qed.
+Lemma hgrows_trans a b c : hgrows a b -> hgrows b c -> hgrows a c.
+Proof.
+  intros [B1 S1] [B2 S2]. split; [intros x y H; apply B2, B1, H|].
+  intros n t H. destruct (S1 n t H) as (t1 & H1 & M1). destruct (S2 n t1 H1) as (t2 & H2 & M2). exists t2. split; [exact H2|].
+  destruct (t_super t) as [s|], (t_super t1) as [s1|], (t_super t2) as [s2|]; try contradiction; auto.
+  eapply below_trans; [apply B2; exact M1|exact M2].
+Qed.
+
+(* updates that leave the skeleton alone *)
+Lemma strip_eq_find ts ts' n t : strip ts' = strip ts -> find_ty ts n = Some t ->
+  exists t', find_ty ts' n = Some t' /\ t_super t' = t_super t.
+Proof.
+  intros E H. pose proof (HI_find _ _ _ H) as H1. rewrite <- E in H1. unfold strip in H1.
+  rewrite (find_map_shape ts' strip_ty n strip_shape) in H1. destruct (find_ty ts' n) as [t'|]; [|discriminate].
+  exists t'. split; [reflexivity|]. inversion H1. reflexivity.
+Qed.
+Lemma strip_eq_below ts ts' a d : strip ts' = strip ts -> (below ts a d <-> below ts' a d).
+Proof.
+  intros E. rewrite <- (below_map strip_ty ts a d strip_shape), <- (below_map strip_ty ts' a d strip_shape). fold (strip ts) (strip ts').
+  rewrite E. reflexivity.
+Qed.
+Lemma strip_eq_hgrows ts ts' : strip ts' = strip ts -> hgrows ts ts'.
+Proof.
+  intros E. split; [intros a d H; apply (strip_eq_below ts ts' a d E); exact H|].
+  intros n t H. destruct (strip_eq_find ts ts' n t E H) as (t' & H' & Hs). exists t'. split; [exact H'|]. rewrite Hs.
+  destruct (t_super t); [apply below_refl|exact I].
+Qed.
+
+Lemma create_type_hgrows ts name supn desc ts' : registered ts TOP = true -> create_type ts name supn desc = Ok ts' -> hgrows ts ts'.
+Proof.
+  intros Htop H. destruct (create_type_inv' _ _ _ _ _ Htop H) as (Hnone & p & inh & _ & _ & _ & ->).
+  assert (Hf : forall n t, find_ty ts n = Some t -> find_ty (map (add_child (t_name p) name) ts ++ [new_type name p desc inh]) n = Some (add_child (t_name p) name t)).
+  { intros n t Hn. rewrite find_app_new, find_map_add_child, Hn. reflexivity. }
+  split.
+  - unfold bgrows. apply below_transfer. intros n t Hn. exists (add_child (t_name p) name t). split; [apply Hf; exact Hn|apply add_child_super].
+  - intros n t Hn. exists (add_child (t_name p) name t). split; [apply Hf; exact Hn|]. rewrite add_child_super.
+    destruct (t_super t); [apply below_refl|exact I].
+Qed.
+
+(* ---- re-parenting ---- *)
+Section RelinkBelow.
+  Variables (ts : tsys) (x oldp newp : tname) (k : nat) (tx tn : ty).
+  Hypothesis W : WFh ts.
+  Hypothesis Hx : find_ty ts x = Some tx.
+  Hypothesis Hsx : t_super tx = Some oldp.
+  Hypothesis Hn : find_ty ts newp = Some tn.
+  Hypothesis Hnb : ~ below ts x newp.
+  Hypothesis Hon : below ts oldp newp.
+  Let ts' := relink ts x oldp newp k.
+
+  Lemma relink_find' n : find_ty ts' n = option_map (relink_ty ts x oldp newp k) (find_ty ts n).
+  Proof. apply find_map_name. intros t. apply relink_name. Qed.
+  Lemma relink_below_avoid a d : below ts a d -> ~ below ts x d -> below ts' a d.
+  Proof.
+    intros H. induction H as [|d td s Hf Hs Hb IH]; intros Hnx; [apply below_refl|].
+    destruct (find_ty_In _ _ _ Hf) as [_ Hdn].
+    assert (Hdx : d <> x) by (intros ->; apply Hnx; apply below_refl).
+    eapply below_step; [rewrite relink_find', Hf; reflexivity| |apply IH; intros Hxs; apply Hnx; eapply below_step; eassumption].
+    rewrite relink_super, Hdn. apply String.eqb_neq in Hdx. rewrite Hdx. exact Hs.
+  Qed.
+  Lemma relink_below a d : below ts a d -> below ts' a d.
+  Proof.
+    intros H. induction H as [|d td s Hf Hs Hb IH]; [apply below_refl|].
+    destruct (find_ty_In _ _ _ Hf) as [_ Hdn]. destruct (String.eqb d x) eqn:E.
+    - apply String.eqb_eq in E. rewrite E in *. rewrite Hx in Hf. inversion Hf; subst td. rewrite Hsx in Hs. inversion Hs; subst s.
+      eapply below_step; [rewrite relink_find', Hx; reflexivity|rewrite relink_super, Hdn, String.eqb_refl; reflexivity|].
+      apply relink_below_avoid; [eapply below_trans; eassumption|exact Hnb].
+    - eapply below_step; [rewrite relink_find', Hf; reflexivity| |exact IH]. rewrite relink_super, Hdn, E. exact Hs.
+  Qed.
+  Lemma relink_hgrows : hgrows ts ts'.
+  Proof.
+    split; [intros a d; apply relink_below|]. intros n t Hf. exists (relink_ty ts x oldp newp k t). rewrite relink_find', Hf. split; [reflexivity|].
+    rewrite relink_super. destruct (find_ty_In _ _ _ Hf) as [_ Hnn]. rewrite Hnn. destruct (String.eqb n x) eqn:E.
+    - apply String.eqb_eq in E. rewrite E in *. rewrite Hx in Hf. inversion Hf; subst t. rewrite Hsx. apply relink_below. exact Hon.
+    - destruct (t_super t); [apply below_refl|exact I].
+  Qed.
+End RelinkBelow.
+
+(* the same through the skeleton *)
+Lemma hgrows_of_strip ts ts' : hgrows (strip ts) (strip ts') -> hgrows ts ts'.
+Proof.
+  intros [B S]. split.
+  - intros a d H. apply (below_map strip_ty ts' a d strip_shape). apply B. apply (below_map strip_ty ts a d strip_shape). exact H.
+  - intros n t H. destruct (S n (strip_ty t) (HI_find _ _ _ H)) as (t1 & H1 & M). unfold strip in H1.
+    rewrite (find_map_shape ts' strip_ty n strip_shape) in H1. destruct (find_ty ts' n) as [t'|]; [|discriminate]. inversion H1; subst t1.
+    exists t'. split; [reflexivity|]. cbn [strip_ty t_super] in M. destruct (t_super t), (t_super t'); auto.
+    apply (below_map strip_ty ts' _ _ strip_shape). exact M.
+Qed.
+Lemma relink_hgrows_HI ts x oldp newp k tx tn : HI ts -> find_ty ts x = Some tx -> t_super tx = Some oldp ->
+  find_ty ts newp = Some tn -> ~ below ts x newp -> below ts oldp newp -> hgrows ts (relink ts x oldp newp k).
+Proof.
+  intros W Hx Hs Hn Hnb Hon. apply hgrows_of_strip. rewrite strip_relink.
+  apply (relink_hgrows (strip ts) x oldp newp k (strip_ty tx) (HI_find _ _ _ Hx) Hs).
+  - intros Hb. apply Hnb. apply (below_map strip_ty ts x newp strip_shape). exact Hb.
+  - apply (below_map strip_ty ts oldp newp strip_shape). exact Hon.
+Qed.
+
+(* after a step every supertype is what it was, except that the type just declared has the declared supertype *)
+Definition step_supers (ts ts' : tsys) (x sup : tname) : Prop :=
+  forall n t', find_ty ts' n = Some t' ->
+    (n = x /\ t_super t' = Some sup) \/ (exists t, find_ty ts n = Some t /\ t_super t' = t_super t).
+Lemma step_supers_refl ts x sup : step_supers ts ts x sup.
+Proof. intros n t' H. right. exists t'. auto. Qed.
+Lemma step_supers_strip a b c x sup : step_supers a b x sup -> strip c = strip b -> step_supers a c x sup.
+Proof.
+  intros S E n t' H. destruct (strip_eq_find c b n t' (eq_sym E) H) as (t1 & H1 & Hs1). rewrite <- Hs1.
+  apply (S n t1 H1).
+Qed.
+
+Lemma ready_registered L st d s : Inv L st -> t_super (d_ty d) = Some s -> (is_predef s || memb s (m_done st)) = true ->
+  exists tsup, find_ty (m_ts st) s = Some tsup /\ get_type (m_ts st) s = Ok tsup /\ t_name tsup = s.
+Proof.
+  intros HI _ Hr. assert (Hreg : registered (m_ts st) s = true).
+  { apply orb_true_iff in Hr. destruct Hr as [Hr|Hr]; [apply (inv_init _ _ HI), predef_in_init, Hr|apply (inv_done _ _ HI), memb_In, Hr]. }
+  apply registered_iff in Hreg. destruct Hreg as (tsup & Hf). exists tsup. split; [exact Hf|]. split; [apply get_type_full; exact Hf|apply (find_ty_In _ _ _ Hf)].
+Qed.
+
+(* ---- the supertype comparison, case by case ---- *)
+Lemma merge_super_spec ts x sup tsup ts' : HI ts -> registered ts x = true -> find_ty ts sup = Some tsup ->
+  merge_super fn_form ts x sup = Ok ts' ->
+  hgrows ts ts' /\ step_supers ts ts' x sup /\
+  exists t s, find_ty ts' x = Some t /\ t_super t = Some s /\ below ts' sup s.
+Proof.
+  intros W Hreg Hsup H. apply registered_iff in Hreg. destruct Hreg as (ex & Hfx). destruct (find_ty_In _ _ _ Hfx) as [Hexin Hexn].
+  unfold merge_super in H. rewrite (get_type_full _ _ _ Hfx) in H. cbn [bind] in H.
+  destruct (t_super ex) as [exsup|] eqn:Es; [|discriminate]. destruct (find_ty_In _ _ _ Hsup) as [_ Hsn].
+  destruct (String.eqb sup exsup) eqn:Ee.
+  - apply String.eqb_eq in Ee. subst exsup. inversion H; subst ts'. split; [apply hgrows_refl|]. split; [apply step_supers_refl|].
+    exists ex, sup. repeat split; auto. apply below_refl.
+  - destruct (HI_subsumes_gen ts (t_name ex) sup ex tsup W (get_type_full _ _ _ (eq_ind_r (fun n => find_ty ts n = Some ex) Hfx Hexn)) (get_type_full _ _ _ Hsup))
+      as (b1 & Hb1 & Hiff1). rewrite Hb1 in H. cbn [bind] in H. destruct b1; [discriminate|].
+    destruct (HI_super ts ex exsup W Hexin Es) as (tp & Hfp & _). destruct (find_ty_In _ _ _ Hfp) as [_ Hpn].
+    destruct (HI_subsumes_gen ts exsup sup tp tsup W (get_type_full _ _ _ Hfp) (get_type_full _ _ _ Hsup)) as (b2 & Hb2 & Hiff2).
+    rewrite Hb2 in H. cbn [bind] in H. rewrite Hexn, Hsn in Hiff1. rewrite Hpn, Hsn in Hiff2. rewrite Hexn in H. destruct b2.
+    + assert (Hnb : ~ below ts x sup) by (intros Hb; apply Hiff1 in Hb; discriminate).
+      assert (Hon : below ts exsup sup) by (apply Hiff2; reflexivity).
+      assert (Hnb' : ~ below ts x (t_name tsup)) by (rewrite Hsn; exact Hnb).
+      destruct (reparent_HI ts x exsup sup ts' ex tsup W Hfx Es (get_type_full _ _ _ Hsup) Hnb' H) as (W' & E). rewrite Hsn in E.
+      set (ts1 := relink ts x exsup sup (S (t_rank tsup))) in *.
+      pose proof (relink_hgrows_HI ts x exsup sup (S (t_rank tsup)) ex tsup W Hfx Es Hsup Hnb Hon) as G1. fold ts1 in G1.
+      pose proof (strip_eq_hgrows ts1 ts' E) as G2. pose proof (hgrows_trans _ _ _ G1 G2) as G.
+      assert (S1 : step_supers ts ts1 x sup).
+      { intros n t1 H1. unfold ts1, relink in H1. rewrite (find_map_name _ ts n (fun t => relink_name ts x exsup sup _ t)) in H1.
+        destruct (find_ty ts n) as [t|] eqn:En; [|discriminate]. cbn [option_map] in H1. inversion H1; subst t1. rewrite relink_super.
+        destruct (find_ty_In _ _ _ En) as [_ Hnn]. rewrite Hnn. destruct (String.eqb n x) eqn:Enx.
+        - left. apply String.eqb_eq in Enx. auto.
+        - right. exists t. auto. }
+      split; [exact G|]. split; [apply (step_supers_strip ts ts1 ts' x sup S1 E)|].
+      assert (H1 : find_ty ts1 x = Some (relink_ty ts x exsup sup (S (t_rank tsup)) ex)).
+      { unfold ts1, relink. rewrite (find_map_name _ ts x (fun t => relink_name ts x exsup sup _ t)), Hfx. reflexivity. }
+      destruct (strip_eq_find ts1 ts' x _ E H1) as (t' & Ht' & Hs'). exists t', sup. split; [exact Ht'|]. split; [|apply below_refl].
+      rewrite Hs', relink_super, Hexn, String.eqb_refl. reflexivity.
+    + destruct (HI_subsumes_gen ts sup exsup tsup tp W (get_type_full _ _ _ Hsup) (get_type_full _ _ _ Hfp)) as (b3 & Hb3 & Hiff3).
+      rewrite Hb3 in H. cbn [bind] in H. rewrite Hpn, Hsn in Hiff3. destruct b3; [|discriminate]. inversion H; subst ts'.
+      split; [apply hgrows_refl|]. split; [apply step_supers_refl|]. exists ex, exsup. repeat split; auto. apply Hiff3. reflexivity.
+Qed.
+
+Lemma create_type_spec ts x sup tsup desc ts' : HI ts -> find_ty ts sup = Some tsup -> create_type ts x sup desc = Ok ts' ->
+  hgrows ts ts' /\ step_supers ts ts' x sup /\ exists t, find_ty ts' x = Some t /\ t_super t = Some sup.
+Proof.
+  intros W Hsup H. pose proof (HI_top _ W) as Htop. split; [apply (create_type_hgrows _ _ _ _ _ Htop H)|].
+  destruct (create_type_inv' _ _ _ _ _ Htop H) as (Hnone & p & inh & Hg & _ & _ & ->). rewrite (get_type_full _ _ _ Hsup) in Hg.
+  inversion Hg; subst p. destruct (find_ty_In _ _ _ Hsup) as [_ Hsn].
+  assert (Hnew : t_super (new_type x tsup desc inh) = Some sup) by (cbn [new_type rebuild_ctor t_super]; rewrite Hsn; reflexivity).
+  split.
+  - intros n t' Hf. rewrite find_app_new, find_map_add_child in Hf. destruct (find_ty ts n) as [t|] eqn:En; cbn [option_map] in Hf.
+    + inversion Hf; subst t'. right. exists t. split; [reflexivity|apply add_child_super].
+    + cbn [new_type rebuild_ctor t_name] in Hf. destruct (String.eqb x n) eqn:Exn; [|discriminate]. apply String.eqb_eq in Exn.
+      inversion Hf; subst t'. left. split; [symmetry; exact Exn|exact Hnew].
+  - exists (new_type x tsup desc inh). split; [|exact Hnew]. rewrite find_app_new, find_map_add_child, Hnone. cbn [option_map new_type rebuild_ctor t_name].
+    rewrite String.eqb_refl. reflexivity.
+Qed.
+
+Lemma merge_decl_spec L st d st1 sup : Inv L st -> t_super (d_ty d) = Some sup -> (is_predef sup || memb sup (m_done st)) = true ->
+  merge_decl fn_form st d = Ok st1 ->
+  hgrows (m_ts st) (m_ts st1) /\ step_supers (m_ts st) (m_ts st1) (dname d) sup /\
+  exists t s, find_ty (m_ts st1) (dname d) = Some t /\ t_super t = Some s /\ below (m_ts st1) sup s.
+Proof.
+  intros HI Hs Hr H. destruct (ready_registered L st d sup HI Hs Hr) as (tsup & Hfsup & _ & _).
+  pose proof (inv_HI _ _ HI) as W. unfold merge_decl in H. rewrite Hs in H. fold (dname d) in H.
+  destruct (registered (m_ts st) (dname d)) eqn:Er.
+  - destruct (merge_super fn_form (m_ts st) (dname d) sup) as [ts1| |] eqn:E; cbn [bind] in H; try discriminate.
+    destruct (merge_features fn_form (d_in d) (dname d) (t_own (d_ty d)) ts1 (m_tags st)) as [r| |] eqn:Ef; cbn [bind] in H; try discriminate.
+    inversion H; subst st1. cbn [m_ts]. pose proof (merge_features_strip _ _ _ _ _ _ Ef) as Es.
+    destruct (merge_super_spec _ _ _ _ _ W Er Hfsup E) as (G1 & S1 & t & s & Ht & Hts & Hb).
+    pose proof (strip_eq_hgrows ts1 (fst r) Es) as G2. split; [eapply hgrows_trans; eassumption|].
+    split; [apply (step_supers_strip _ ts1 _ _ _ S1 Es)|].
+    destruct (strip_eq_find ts1 (fst r) _ t Es Ht) as (t' & Ht' & Hs'). exists t', s. split; [exact Ht'|]. split; [congruence|].
+    apply (proj1 G2). exact Hb.
+  - destruct (create_type (m_ts st) (dname d) sup (t_desc (d_ty d))) as [ts1| |] eqn:E; cbn [bind] in H; try discriminate.
+    destruct (merge_features fn_form (d_in d) (dname d) (t_own (d_ty d)) ts1 (m_tags st)) as [r| |] eqn:Ef; cbn [bind] in H; try discriminate.
+    inversion H; subst st1. cbn [m_ts]. pose proof (merge_features_strip _ _ _ _ _ _ Ef) as Es.
+    destruct (create_type_spec _ _ _ _ _ _ W Hfsup E) as (G1 & S1 & t & Ht & Hts).
+    pose proof (strip_eq_hgrows ts1 (fst r) Es) as G2. split; [eapply hgrows_trans; eassumption|].
+    split; [apply (step_supers_strip _ ts1 _ _ _ S1 Es)|].
+    destruct (strip_eq_find ts1 (fst r) _ t Es Ht) as (t' & Ht' & Hs'). exists t', sup. split; [exact Ht'|]. split; [congruence|apply below_refl].
+Qed.
+
+(* ================================================================================================ most specific supertype *)
+(* every supertype in the merged type system is the built-in one or one that some input declares for that type *)
+Definition sup_sound (L : list decl) (ts : tsys) : Prop :=
+  forall n t s, find_ty ts n = Some t -> t_super t = Some s ->
+    (exists t0, find_ty init_ts n = Some t0 /\ t_super t0 = Some s) \/ (exists d, In d L /\ dname d = n /\ t_super (d_ty d) = Some s).
+(* the declared supertype of a processed declaration subsumes the supertype the type has now *)
+Definition Rsup (d : decl) (st : mst) : Prop :=
+  exists t s sup, find_ty (m_ts st) (dname d) = Some t /\ t_super t = Some s /\ t_super (d_ty d) = Some sup /\ below (m_ts st) sup s.
+
+Definition Inv2 (L : list decl) (st : mst) : Prop := Inv L st /\ sup_sound L (m_ts st).
+Lemma merge_decl_Inv2 L st d st1 : Inv2 L st -> In d L -> decl_ok L d -> ready st d -> merge_decl fn_form st d = Ok st1 ->
+  Inv2 L st1 /\ (Rreg d st1 /\ Rsup d st1) /\ (forall d', Rreg d' st /\ Rsup d' st -> Rreg d' st1 /\ Rsup d' st1).
+Proof.
+  intros [HI HS] Hd Hok (sup & Hs & Hr) H. destruct (merge_decl_Inv L st d st1 HI Hok H) as (HI1 & HR1 & Hmono).
+  destruct (merge_decl_spec L st d st1 sup HI Hs Hr H) as ([B S] & SS & t & s & Ht & Hts & Hb).
+  split; [split; [exact HI1|]|split].
+  - intros n t1 s1 Hf1 Hs1. destruct (SS n t1 Hf1) as [[-> Hs1']|(t0 & Hf0 & Hs0)].
+    + right. exists d. rewrite Hs1 in Hs1'. inversion Hs1'; subst s1. auto.
+    + rewrite Hs0 in Hs1. apply (HS n t0 s1 Hf0 Hs1).
+  - split; [exact HR1|]. exists t, s, sup. auto.
+  - intros d' [Hr' (t' & s' & sup' & Ht' & Hts' & Hd' & Hb')]. split; [apply Hmono; exact Hr'|].
+    destruct (S _ t' Ht') as (t1 & Ht1 & M). rewrite Hts' in M. destruct (t_super t1) as [s1|] eqn:Es1; [|contradiction].
+    exists t1, s1, sup'. repeat split; auto. eapply below_trans; [apply B; exact Hb'|exact M].
+Qed.
+Lemma init_sup_sound L : sup_sound L init_ts.
+Proof. intros n t s Hf Hs. left. exists t. auto. Qed.
+
+Lemma merge_inv2 inputs ts : all_WFh inputs -> merge inputs = Ok ts ->
+  sup_sound (type_list inputs) ts /\ forall d, In d (type_list inputs) ->
+    exists t s sup, find_ty ts (dname d) = Some t /\ t_super t = Some s /\ t_super (d_ty d) = Some sup /\ below ts sup s.
+Proof.
+  intros HW H. destruct (merge_inv inputs ts HW H) as (st & Er & <- & _ & _ & _). set (L := type_list inputs) in *.
+  destruct (rounds_inv fn_form L (Inv2 L) (fun d s => Rreg d s /\ Rsup d s)) with (fuel := S (List.length L)) (l := L) (st := st0) (st' := st)
+    as ((_ & HS) & HR & _).
+  - intros s d s1 HI0 Hd Hrdy Hm. apply (merge_decl_Inv2 L s d s1 HI0 Hd (type_list_ok inputs HW d Hd) Hrdy Hm).
+  - apply incl_refl.
+  - split; [apply Inv_st0|apply init_sup_sound].
+  - exact Er.
+  - split; [exact HS|]. intros d Hd. apply (HR d Hd).
+Qed.
+
+(* a type declared with different supertypes gets one of the declared ones, and every declared one subsumes it *)
+Theorem merge_supertype_most_specific inputs ts : all_WFh inputs -> merge inputs = Ok ts ->
+  forall d, In d (type_list inputs) ->
+  exists t s, find_ty ts (dname d) = Some t /\ t_super t = Some s /\
+    (forall d' sup', In d' (type_list inputs) -> dname d' = dname d -> t_super (d_ty d') = Some sup' -> below ts sup' s) /\
+    ((exists d', In d' (type_list inputs) /\ dname d' = dname d /\ t_super (d_ty d') = Some s) \/
+     (exists t0, find_ty init_ts (dname d) = Some t0 /\ t_super t0 = Some s)).
+Proof.
+  intros HW H d Hd. destruct (merge_inv2 inputs ts HW H) as (HS & HR).
+  destruct (HR d Hd) as (t & s & sup & Ht & Hts & _ & _). exists t, s. split; [exact Ht|]. split; [exact Hts|]. split.
+  - intros d' sup' Hd' Hn Hs'. destruct (HR d' Hd') as (t' & s' & sup'' & Ht' & Hts' & Hs'' & Hb). rewrite Hn, Ht in Ht'. inversion Ht'; subst t'.
+    rewrite Hts in Hts'. inversion Hts'; subst s'. rewrite Hs' in Hs''. inversion Hs''; subst sup''. exact Hb.
+  - destruct (HS _ t s Ht Hts) as [H0|(d' & H1 & H2 & H3)]; [right; exact H0|left; exists d'; auto].
+Qed.
+(* hence two supertypes declared for one type are comparable in the result ... *)
+Theorem merge_ok_supertypes_comparable inputs ts d1 d2 s1 s2 : all_WFh inputs -> merge inputs = Ok ts ->
+  In d1 (type_list inputs) -> In d2 (type_list inputs) -> dname d1 = dname d2 ->
+  t_super (d_ty d1) = Some s1 -> t_super (d_ty d2) = Some s2 -> below ts s1 s2 \/ below ts s2 s1.
+Proof.
+  intros HW H H1 H2 Hn Hs1 Hs2. destruct (merge_supertype_most_specific inputs ts HW H d1 H1) as (t & s & _ & _ & Hall & _).
+  apply (chain_linear ts s1 s2 s); [apply (Hall d1 s1 H1 eq_refl Hs1)|apply (Hall d2 s2 H2 (eq_sym Hn) Hs2)].
+Qed.
+(* ... and declarations that put two types below each other cannot be merged *)
+Theorem merge_contradictory_fails inputs d1 d2 : all_WFh inputs ->
+  In d1 (type_list inputs) -> In d2 (type_list inputs) ->
+  t_super (d_ty d1) = Some (dname d2) -> t_super (d_ty d2) = Some (dname d1) -> forall ts, merge inputs <> Ok ts.
+Proof.
+  intros HW H1 H2 Hs1 Hs2 ts H. pose proof (merge_WFh inputs ts HW H) as W.
+  destruct (merge_supertype_most_specific inputs ts HW H d1 H1) as (t1 & s1 & Ht1 & Hts1 & Hall1 & _).
+  destruct (merge_supertype_most_specific inputs ts HW H d2 H2) as (t2 & s2 & Ht2 & Hts2 & Hall2 & _).
+  pose proof (Hall1 d1 _ H1 eq_refl Hs1) as B1. pose proof (Hall2 d2 _ H2 eq_refl Hs2) as B2.
+  assert (S1 : sbelow ts (dname d2) (dname d1)) by (exists t1, s1; auto).
+  assert (S2 : sbelow ts (dname d1) (dname d2)) by (exists t2, s2; auto).
+  apply (sbelow_neq ts (dname d1) (dname d1) W); [|reflexivity].
+  destruct S2 as (td & s & Hf & Hs & Hb). exists t1, s1. repeat split; auto.
+  eapply below_trans; [|exact B1]. eapply below_step; eassumption.
+Qed.
+
+(* ================================================================================================ the only error is ValueError *)
+Lemma add_feature_res_err ts x f e : registered ts x = true -> add_feature_res ts x f = Err e -> e = EValue.
+Proof.
+  intros Hr. unfold add_feature_res, add_feature. unfold registered in Hr. destruct (find_ty ts x) as [t|]; [|discriminate].
+  destruct (find_feat (f_name f) (t_own t)); [destruct (feat_eqb _ f); [discriminate|intros H; inversion H; reflexivity]|].
+  destruct (find_feat (f_name f) (t_inh t)); [destruct (feat_eqb _ f); [discriminate|intros H; inversion H; reflexivity]|].
+  destruct (existsb _ ts); [intros H; inversion H; reflexivity|discriminate].
+Qed.
+Lemma merge_features_err i x fs : forall ts tags e, registered ts x = true -> merge_features fn_form i x fs ts tags = Err e -> e = EValue.
+Proof.
+  induction fs as [|f r IH]; intros ts tags e Hr H; cbn [merge_features] in H; [discriminate|]. cbn [fn_form addf] in H.
+  destruct (add_feature_res ts x f) as [ts1|e1|] eqn:E; cbn [bind] in H; try discriminate.
+  - apply (IH _ _ _ (grows_registered _ _ _ (add_feature_res_grows _ _ _ _ E) Hr) H).
+  - inversion H; subst e1. apply (add_feature_res_err _ _ _ _ Hr E).
+Qed.
+Lemma inherit_fn_err ts x f e : registered ts x = true -> inherit_fn ts x f = Err e -> e = EValue.
+Proof.
+  intros Hr. unfold inherit_fn. unfold registered in Hr. destruct (find_ty ts x) as [t|]; [|discriminate].
+  destruct (find_feat (f_name f) (t_inh t)); [destruct (feat_eqb _ f); [discriminate|intros H; inversion H; reflexivity]|].
+  destruct (existsb _ ts); [intros H; inversion H; reflexivity|discriminate].
+Qed.
+Lemma inherit_list_err x fs : forall ts e, registered ts x = true -> inherit_list fn_form x fs ts = Err e -> e = EValue.
+Proof.
+  induction fs as [|f r IH]; intros ts e Hr H; cbn [inherit_list] in H; [discriminate|]. cbn [fn_form inhf] in H.
+  destruct (inherit_fn ts x f) as [ts1|e1|] eqn:E; cbn [bind] in H; try discriminate.
+  - apply (IH _ _ (grows_registered _ _ _ (inherit_fn_grows _ _ _ _ E) Hr) H).
+  - inversion H; subst e1. apply (inherit_fn_err _ _ _ _ Hr E).
+Qed.
+Lemma create_type_err ts x sup tsup desc e : find_ty ts sup = Some tsup -> create_type ts x sup desc = Err e -> e = EValue.
+Proof.
+  intros Hs. unfold create_type. destruct (registered ts x); [intros H; inversion H; reflexivity|].
+  rewrite (get_type_full _ _ _ Hs). cbn [bind]. destruct (memb (t_name tsup) final_types); [intros H; inversion H; reflexivity|].
+  destruct (String.eqb x TOP); [discriminate|].
+  assert (Hi : forall l acc e', inherit_all acc l = Err e' -> e' = EValue).
+  { induction l as [|f r IH]; intros acc e' H; cbn [inherit_all] in H; [discriminate|].
+    destruct (find_feat (f_name f) acc); [destruct (feat_eqb _ f); [apply (IH _ _ H)|inversion H; reflexivity]|apply (IH _ _ H)]. }
+  destruct (inherit_all [] (all_features tsup)) as [inh|e1|] eqn:E; cbn [bind]; try discriminate.
+  intros H. inversion H; subst e1. apply (Hi _ _ _ E).
+Qed.
+Lemma merge_super_err ts x sup tsup e : HI ts -> registered ts x = true -> is_predef x = false -> find_ty ts sup = Some tsup ->
+  merge_super fn_form ts x sup = Err e -> e = EValue.
+Proof.
+  intros W Hreg Hnp Hsup H. pose proof Hreg as Hreg'. apply registered_iff in Hreg. destruct Hreg as (ex & Hfx). destruct (find_ty_In _ _ _ Hfx) as [Hexin Hexn].
+  unfold merge_super in H. rewrite (get_type_full _ _ _ Hfx) in H. cbn [bind] in H.
+  destruct (t_super ex) as [exsup|] eqn:Es.
+  2:{ exfalso. pose proof (wf_root _ W (strip_ty ex) (in_map strip_ty _ _ Hexin) Es) as Hn. cbn [strip_ty t_name] in Hn.
+      rewrite Hexn in Hn. rewrite Hn in Hnp. vm_compute in Hnp. discriminate. }
+  destruct (String.eqb sup exsup); [discriminate|].
+  destruct (HI_subsumes_gen ts (t_name ex) sup ex tsup W (get_type_full _ _ _ (eq_ind_r (fun n => find_ty ts n = Some ex) Hfx Hexn)) (get_type_full _ _ _ Hsup))
+    as (b1 & Hb1 & Hiff1). rewrite Hb1 in H. cbn [bind] in H. destruct b1; [inversion H; reflexivity|].
+  destruct (HI_super ts ex exsup W Hexin Es) as (tp & Hfp & Hchild).
+  destruct (HI_subsumes_gen ts exsup sup tp tsup W (get_type_full _ _ _ Hfp) (get_type_full _ _ _ Hsup)) as (b2 & Hb2 & Hiff2).
+  rewrite Hb2 in H. cbn [bind] in H. destruct b2.
+  - unfold reparent in H. rewrite (get_type_full _ _ _ Hsup), Hfp in H. cbn [bind] in H.
+    apply memb_In in Hchild. rewrite Hchild in H. cbn [negb] in H.
+    set (ts1 := relink ts (t_name ex) exsup (t_name tsup) (S (t_rank tsup))) in *.
+    assert (Hf1 : forall n, find_ty ts1 n = option_map (relink_ty ts (t_name ex) exsup (t_name tsup) (S (t_rank tsup))) (find_ty ts n)).
+    { intros n. apply find_map_name. intros t. apply relink_name. }
+    destruct (find_ty_In _ _ _ Hsup) as [_ Hsn]. rewrite Hf1, Hsn, Hsup in H. cbn [option_map] in H.
+    eapply inherit_list_err; [|exact H]. unfold registered. rewrite Hf1, Hexn, Hfx. reflexivity.
+  - destruct (HI_subsumes_gen ts sup exsup tsup tp W (get_type_full _ _ _ Hsup) (get_type_full _ _ _ Hfp)) as (b3 & Hb3 & _).
+    rewrite Hb3 in H. cbn [bind] in H. destruct b3; [discriminate|inversion H; reflexivity].
+Qed.
+Lemma merge_decl_err L st d e : Inv L st -> decl_ok L d -> ready st d -> merge_decl fn_form st d = Err e -> e = EValue.
+Proof.
+  intros HI (Hnp & _ & _) (sup & Hs & Hr) H. destruct (ready_registered L st d sup HI Hs Hr) as (tsup & Hfsup & _ & _).
+  pose proof (inv_HI _ _ HI) as W. unfold merge_decl in H. rewrite Hs in H. fold (dname d) in H.
+  destruct (registered (m_ts st) (dname d)) eqn:Er.
+  - destruct (merge_super fn_form (m_ts st) (dname d) sup) as [ts1|e1|] eqn:E; cbn [bind] in H; try discriminate.
+    + destruct (merge_features fn_form (d_in d) (dname d) (t_own (d_ty d)) ts1 (m_tags st)) as [r|e2|] eqn:Ef; cbn [bind] in H; try discriminate.
+      inversion H; subst e2. eapply merge_features_err; [|exact Ef].
+      destruct (merge_super_keeps (fun _ => True) _ _ _ _ (fun _ _ _ _ => I) (inv_dom _ _ HI) E) as (G & _). apply (grows_registered _ _ _ G Er).
+    + inversion H; subst e1. apply (merge_super_err _ _ _ _ _ W Er Hnp Hfsup E).
+  - destruct (create_type (m_ts st) (dname d) sup (t_desc (d_ty d))) as [ts1|e1|] eqn:E; cbn [bind] in H; try discriminate.
+    + destruct (merge_features fn_form (d_in d) (dname d) (t_own (d_ty d)) ts1 (m_tags st)) as [r|e2|] eqn:Ef; cbn [bind] in H; try discriminate.
+      inversion H; subst e2. eapply merge_features_err; [|exact Ef]. apply (create_type_grows _ _ _ _ _ (HI_top _ W) E).
+    + inversion H; subst e1. apply (create_type_err _ _ _ _ _ _ Hfsup E).
+Qed.
+
+Section LoopErr.
+  Variable L : list decl.
+  Variable I : mst -> Prop.
+  Hypothesis step : forall st d st1, I st -> In d L -> ready st d -> merge_decl fn_form st d = Ok st1 -> I st1.
+  Hypothesis errs : forall st d e, I st -> In d L -> ready st d -> merge_decl fn_form st d = Err e -> e = EValue.
+  Hypothesis sups : forall d, In d L -> t_super (d_ty d) <> None.
+  Lemma pass_err : forall l st e, incl l L -> I st -> pass fn_form l st = Err e -> e = EValue.
+  Proof.
+    induction l as [|d r IH]; intros st e Hl HI H; cbn [pass] in H; [discriminate|].
+    assert (Hd : In d L) by (apply Hl; left; reflexivity).
+    assert (Hr : incl r L) by (intros y Hy; apply Hl; right; exact Hy).
+    destruct (t_super (d_ty d)) as [s|] eqn:Es; [|exfalso; apply (sups d Hd Es)].
+    destruct (is_predef s || memb s (m_done st)) eqn:Erdy.
+    - destruct (merge_decl fn_form st d) as [st1|e1|] eqn:Em; cbn [bind] in H; try discriminate.
+      + apply (IH st1 e Hr (step st d st1 HI Hd (ex_intro _ s (conj Es Erdy)) Em) H).
+      + inversion H; subst e1. apply (errs st d e HI Hd (ex_intro _ s (conj Es Erdy)) Em).
+    - destruct (pass fn_form r st) as [[st2 rest2]|e1|] eqn:E; cbn [bind] in H; try discriminate.
+      inversion H; subst e1. apply (IH st e Hr HI E).
+  Qed.
+  Lemma pass_keeps : forall l st st' rest, incl l L -> I st -> pass fn_form l st = Ok (st', rest) -> I st'.
+  Proof.
+    induction l as [|d r IH]; intros st st' rest Hl HI H; cbn [pass] in H; [inversion H; subst; exact HI|].
+    assert (Hd : In d L) by (apply Hl; left; reflexivity).
+    assert (Hr : incl r L) by (intros y Hy; apply Hl; right; exact Hy).
+    destruct (t_super (d_ty d)) as [s|] eqn:Es; [|discriminate].
+    destruct (is_predef s || memb s (m_done st)) eqn:Erdy.
+    - destruct (merge_decl fn_form st d) as [st1| |] eqn:Em; cbn [bind] in H; try discriminate.
+      apply (IH st1 _ _ Hr (step st d st1 HI Hd (ex_intro _ s (conj Es Erdy)) Em) H).
+    - destruct (pass fn_form r st) as [[st2 rest2]| |] eqn:E; cbn [bind] in H; try discriminate.
+      cbn [fst snd] in H. inversion H; subst. apply (IH st _ _ Hr HI E).
+  Qed.
+  Lemma rounds_err : forall fuel l st e, incl l L -> I st -> rounds fn_form fuel l st = Err e -> e = EValue.
+  Proof.
+    induction fuel as [|k IH]; intros l st e Hl HI H; cbn [rounds] in H; [discriminate|].
+    destruct (pass fn_form l st) as [[st1 rest]|e1|] eqn:Ep; cbn [bind fst snd] in H; try discriminate.
+    - destruct (pass_shape _ _ _ _ _ Ep) as [Hincl _]. destruct rest as [|d0 rest0]; [discriminate|].
+      destruct (Nat.eqb (List.length l) (List.length (d0 :: rest0))); [inversion H; reflexivity|].
+      apply (IH (d0 :: rest0) st1 e); [intros y Hy; apply Hl, Hincl, Hy|apply (pass_keeps _ _ _ _ Hl HI Ep)|exact H].
+    - inversion H; subst e1. apply (pass_err _ _ _ Hl HI Ep).
+  Qed.
+End LoopErr.
+
+(* merging well-formed type systems either succeeds or raises ValueError *)
+Theorem merge_error_is_value inputs e : all_WFh inputs -> merge inputs = Err e -> e = EValue.
+Proof.
+  intros HW H. unfold merge, merge_with in H. fold st0 in H. set (L := type_list inputs) in *.
+  destruct (rounds fn_form (S (List.length L)) L st0) as [st|e1|] eqn:Er; cbn [bind] in H; try discriminate.
+  - destruct (rounds_end inputs _ st HW Er) as (HI & HR). rewrite (fixup_id _ (end_WFh _ st HI HR)) in H. discriminate.
+  - inversion H; subst e1. apply (rounds_err L (Inv L)) with (fuel := S (List.length L)) (l := L) (st := st0).
+    + intros s d s1 HI0 Hd _ Hm. apply (merge_decl_Inv L s d s1 HI0 (type_list_ok inputs HW d Hd) Hm).
+    + intros s d e' HI0 Hd Hrdy Hm. apply (merge_decl_err L s d e' HI0 (type_list_ok inputs HW d Hd) Hrdy Hm).
+    + intros d Hd Hn. destruct (type_list_ok inputs HW d Hd) as (_ & (s & Hs & _) & _). congruence.
+    + apply incl_refl.
+    + apply Inv_st0.
+    + exact Er.
+Qed.
+(* so, with termination: what is not mergeable raises ValueError *)
+Corollary merge_fails_with_value inputs : all_WFh inputs -> (forall ts, merge inputs <> Ok ts) -> merge inputs = Err EValue.
+Proof.
+  intros HW Hn. destruct (merge inputs) as [ts|e|] eqn:E.
+  - exfalso. apply (Hn ts). reflexivity.
+  - rewrite (merge_error_is_value inputs e HW E). reflexivity.
+  - exfalso. apply (merge_terminates inputs HW E).
+Qed.
+
+(* ================================================================================================ conflicting supertypes raise *)
+(* an edge "d is declared directly below s": by TypeSystem() itself or by some input *)
+Definition declared_edge (L : list decl) (d s : tname) : Prop :=
+  (exists t0, find_ty init_ts d = Some t0 /\ t_super t0 = Some s) \/ (exists dd, In dd L /\ dname dd = d /\ t_super (d_ty dd) = Some s).
+(* a is d or above d in the union of all declared edges *)
+Inductive dreach (L : list decl) (a : tname) : tname -> Prop :=
+| dr_refl : dreach L a a
+| dr_step d s : declared_edge L d s -> dreach L a s -> dreach L a d.
+Lemma below_dreach L ts a d : sup_sound L ts -> below ts a d -> dreach L a d.
+Proof.
+  intros HS H. induction H as [|d td s Hf Hs Hb IH]; [apply dr_refl|]. eapply dr_step; [|exact IH]. apply (HS d td s Hf Hs).
+Qed.
+Theorem merge_conflict_raises_incomparable inputs d1 d2 s1 s2 : all_WFh inputs ->
+  In d1 (type_list inputs) -> In d2 (type_list inputs) -> dname d1 = dname d2 ->
+  t_super (d_ty d1) = Some s1 -> t_super (d_ty d2) = Some s2 ->
+  ~ dreach (type_list inputs) s1 s2 -> ~ dreach (type_list inputs) s2 s1 -> merge inputs = Err EValue.
+Proof.
+  intros HW H1 H2 Hn Hs1 Hs2 N1 N2. apply (merge_fails_with_value inputs HW). intros ts H.
+  destruct (merge_inv2 inputs ts HW H) as (HS & _).
+  destruct (merge_ok_supertypes_comparable inputs ts d1 d2 s1 s2 HW H H1 H2 Hn Hs1 Hs2) as [B|B].
+  - apply N1. apply (below_dreach _ ts _ _ HS B).
+  - apply N2. apply (below_dreach _ ts _ _ HS B).
+Qed.
+Theorem merge_conflict_raises_contradictory inputs d1 d2 : all_WFh inputs ->
+  In d1 (type_list inputs) -> In d2 (type_list inputs) ->
+  t_super (d_ty d1) = Some (dname d2) -> t_super (d_ty d2) = Some (dname d1) -> merge inputs = Err EValue.
+Proof.
+  intros HW H1 H2 Hs1 Hs2. apply (merge_fails_with_value inputs HW). apply (merge_contradictory_fails inputs d1 d2 HW H1 H2 Hs1 Hs2).
+Qed.
+
+(* ================================================================================================ every declared feature is there *)
+(* the type named x exposes (owns or inherits) a feature that Feature.__eq__ identifies with f *)
+Definition has_feat (ts : tsys) (x : tname) (f : feat) : Prop :=
+  exists t g, find_ty ts x = Some t /\ In g (t_own t ++ t_inh t) /\ feat_eqb g f = true.
+Lemma has_feat_grows ts ts' x f : grows ts ts' -> has_feat ts x f -> has_feat ts' x f.
+Proof.
+  intros G (t & g & Ht & Hg & He). destruct (G x t Ht) as (t' & Ht' & Ho & Hi). exists t', g. split; [exact Ht'|]. split; [|exact He].
+  apply in_app_or in Hg. apply in_or_app. destruct Hg as [Hg|Hg]; [left; apply Ho; exact Hg|right; apply Hi; exact Hg].
+Qed.
+Lemma add_feature_res_has ts x f ts' : add_feature_res ts x f = Ok ts' -> has_feat ts' x f.
+Proof.
+  unfold add_feature_res. destruct (add_feature ts x f) as [ts1| | |] eqn:E; try discriminate; intros H; inversion H; subst.
+  - destruct (add_feature_added_inv _ _ _ _ E) as (t & Ht & _ & _ & _ & ->). exists (spread ts x f t), f.
+    rewrite (find_map_name _ ts x (spread_name ts x f)), Ht. split; [reflexivity|]. split; [|apply feat_eqb_refl].
+    apply in_or_app. left. apply own_spread. right. split; [apply (find_ty_In _ _ _ Ht)|reflexivity].
+  - unfold add_feature in E. destruct (find_ty ts' x) as [t|] eqn:Et; [|discriminate].
+    destruct (find_feat (f_name f) (t_own t)) as [g|] eqn:Eo.
+    + destruct (feat_eqb g f) eqn:Ee; [|discriminate]. exists t, g. split; [exact Et|]. split; [|exact Ee].
+      apply in_or_app. left. apply (proj1 (find_feat_some _ _ _ Eo)).
+    + destruct (find_feat (f_name f) (t_inh t)) as [g|] eqn:Ei.
+      * destruct (feat_eqb g f) eqn:Ee; [|discriminate]. exists t, g. split; [exact Et|]. split; [|exact Ee].
+        apply in_or_app. right. apply (proj1 (find_feat_some _ _ _ Ei)).
+      * destruct (existsb _ ts'); discriminate.
+Qed.
+Lemma merge_features_grows i x fs : forall ts tags r, merge_features fn_form i x fs ts tags = Ok r -> grows ts (fst r).
+Proof.
+  induction fs as [|f r0 IH]; intros ts tags r H; cbn [merge_features] in H; [inversion H; apply grows_refl|].
+  cbn [fn_form addf] in H. destruct (add_feature_res ts x f) as [ts1| |] eqn:E; cbn [bind] in H; try discriminate.
+  eapply grows_trans; [apply (add_feature_res_grows _ _ _ _ E)|apply (IH _ _ _ H)].
+Qed.
+Lemma merge_features_has i x fs : forall ts tags r, merge_features fn_form i x fs ts tags = Ok r ->
+  forall f, In f fs -> has_feat (fst r) x f.
+Proof.
+  induction fs as [|f0 r0 IH]; intros ts tags r H f Hf; [contradiction|]. cbn [merge_features] in H. cbn [fn_form addf] in H.
+  destruct (add_feature_res ts x f0) as [ts1| |] eqn:E; cbn [bind] in H; try discriminate.
+  destruct Hf as [<-|Hf].
+  - apply (has_feat_grows _ _ _ _ (merge_features_grows _ _ _ _ _ _ H)). apply (add_feature_res_has _ _ _ _ E).
+  - apply (IH _ _ _ H f Hf).
+Qed.
+Definition Rfeat (d : decl) (st : mst) : Prop := forall f, In f (t_own (d_ty d)) -> has_feat (m_ts st) (dname d) f.
+Lemma merge_decl_Rfeat st d st1 : merge_decl fn_form st d = Ok st1 -> Rfeat d st1.
+Proof.
+  intros H. unfold merge_decl in H. destruct (t_super (d_ty d)) as [sup|]; [|discriminate]. fold (dname d) in H.
+  destruct (if registered (m_ts st) (dname d) then merge_super fn_form (m_ts st) (dname d) sup
+            else create_type (m_ts st) (dname d) sup (t_desc (d_ty d))) as [ts1| |]; cbn [bind] in H; try discriminate.
+  destruct (merge_features fn_form (d_in d) (dname d) (t_own (d_ty d)) ts1 (m_tags st)) as [r| |] eqn:Ef; cbn [bind] in H; try discriminate.
+  inversion H; subst st1. cbn [m_ts]. intros f Hf. apply (merge_features_has _ _ _ _ _ _ Ef f Hf).
+Qed.
+
+(* every own feature declared by any input is exposed, up to Feature.__eq__, by the type of that name in the result *)
+Theorem merge_contains_all_features inputs ts : all_WFh inputs -> merge inputs = Ok ts ->
+  forall d f, In d (type_list inputs) -> In f (t_own (d_ty d)) -> has_feat ts (dname d) f.
+Proof.
+  intros HW H d f Hd Hf. destruct (merge_inv inputs ts HW H) as (st & Er & <- & _ & _ & _). set (L := type_list inputs) in *.
+  destruct (rounds_inv fn_form L (Inv L) Rfeat) with (fuel := S (List.length L)) (l := L) (st := st0) (st' := st) as (_ & HR & _).
+  - intros s d0 s1 HI0 Hd0 _ Hm. destruct (merge_decl_Inv L s d0 s1 HI0 (type_list_ok inputs HW d0 Hd0) Hm) as (HI1 & _ & _).
+    split; [exact HI1|]. split; [apply (merge_decl_Rfeat _ _ _ Hm)|].
+    intros d' Hd' g Hg. destruct (merge_decl_grows L s d0 s1 HI0 (type_list_ok inputs HW d0 Hd0) Hm) as (G & _).
+    apply (has_feat_grows _ _ _ _ G). apply (Hd' g Hg).
+  - apply incl_refl.
+  - apply Inv_st0.
+  - exact Er.
+  - apply (HR d Hd f Hf).
+Qed.
+
+(* ================================================================================================ no reference to an object of an input *)
+Definition tags_ok (st : mst) : Prop := forall g, In g (m_tags st) -> is_predef (g_type g) = false /\ registered (m_ts st) (g_type g) = true.
+Lemma merge_features_tags i x fs : forall ts tags r, merge_features fn_form i x fs ts tags = Ok r ->
+  forall g, In g (snd r) -> In g tags \/ g_type g = x.
+Proof.
+  induction fs as [|f r0 IH]; intros ts tags r H g Hg; cbn [merge_features] in H; [inversion H; subst; left; exact Hg|].
+  cbn [fn_form addf] in H. destruct (add_feature_res ts x f) as [ts1| |] eqn:E; cbn [bind] in H; try discriminate.
+  destruct (IH _ _ _ H g Hg) as [Hin|Hx]; [|right; exact Hx].
+  destruct (stores ts x f); [|left; exact Hin]. apply in_app_or in Hin. destruct Hin as [Hin|[<-|[]]]; [left; exact Hin|right; reflexivity].
+Qed.
+Lemma merge_decl_tags L st d st1 : Inv L st -> decl_ok L d -> tags_ok st -> merge_decl fn_form st d = Ok st1 -> tags_ok st1.
+Proof.
+  intros HI Hok HT H. destruct (merge_decl_grows L st d st1 HI Hok H) as (G & _ & _ & Hreg & _).
+  unfold merge_decl in H. destruct (t_super (d_ty d)) as [sup|]; [|discriminate]. fold (dname d) in H.
+  destruct (if registered (m_ts st) (dname d) then merge_super fn_form (m_ts st) (dname d) sup
+            else create_type (m_ts st) (dname d) sup (t_desc (d_ty d))) as [ts1| |]; cbn [bind] in H; try discriminate.
+  destruct (merge_features fn_form (d_in d) (dname d) (t_own (d_ty d)) ts1 (m_tags st)) as [r| |] eqn:Ef; cbn [bind] in H; try discriminate.
+  inversion H; subst st1. cbn [m_ts m_tags] in *. intros g Hg. destruct (merge_features_tags _ _ _ _ _ _ Ef g Hg) as [Hin|Hx].
+  - destruct (HT g Hin) as [H1 H2]. split; [exact H1|apply (grows_registered _ _ _ G H2)].
+  - rewrite Hx. split; [apply (proj1 Hok)|exact Hreg].
+Qed.
+(* after the fix-up loop no domain / range / element reference of the result is an object of an input *)
+Theorem merge_no_foreign_refs inputs st : all_WFh inputs -> merge_with fn_form inputs = Ok st -> foreign_refs st = 0.
+Proof.
+  intros HW H. unfold merge_with in H. fold st0 in H. set (L := type_list inputs) in *.
+  destruct (rounds fn_form (S (List.length L)) L st0) as [s| |] eqn:Er; cbn [bind] in H; try discriminate.
+  destruct (rounds_end inputs _ s HW Er) as (HI & HR). rewrite (fixup_id _ (end_WFh _ s HI HR)) in H. cbn [bind] in H. inversion H; subst st.
+  destruct (rounds_inv fn_form L (fun s => Inv L s /\ tags_ok s) (fun _ _ => True)) with (fuel := S (List.length L)) (l := L) (st := st0) (st' := s)
+    as ((_ & HT) & _ & _).
+  - intros s0 d0 s1 [HI0 HT0] Hd0 _ Hm. destruct (merge_decl_Inv L s0 d0 s1 HI0 (type_list_ok inputs HW d0 Hd0) Hm) as (HI1 & _ & _).
+    split; [split; [exact HI1|apply (merge_decl_tags L s0 d0 s1 HI0 (type_list_ok inputs HW d0 Hd0) HT0 Hm)]|]. split; [exact I|auto].
+  - apply incl_refl.
+  - split; [apply Inv_st0|intros g []].
+  - exact Er.
+  - unfold foreign_refs. cbn [m_tags]. rewrite (proj2 (List.length_zero_iff_nil _)); [reflexivity|].
+    assert (Hnone : forall l, (forall g, In g l -> is_predef (g_type g) = false /\ registered (m_ts s) (g_type g) = true) ->
+                     filter foreign_tag (map (fixup_tag (m_ts s)) l) = []).
+    { induction l as [|g r IH]; intros Hl; [reflexivity|]. cbn [map filter]. rewrite IH; [|intros g' Hg'; apply Hl; right; exact Hg'].
+      destruct (Hl g (or_introl eq_refl)) as [H1 H2]. unfold fixup_tag. rewrite H2, H1. cbn [andb negb foreign_tag g_dom g_range g_elem Nat.eqb orb].
+      destruct (g_elem g); reflexivity. }
+    apply Hnone. exact HT.
+Qed.
+
+(* ================================================================================================ the feature invariant (C11) through a merge *)
+(* TSProofs proves that create_type and _add_feature preserve WFf under WFh.  Between two steps of a merge only the
+   skeleton invariant HI holds (feature references may still be unregistered), so the two proofs are repeated here with
+   the tree facts taken from the skeleton (create_type_FI and add_feature_FI follow TSProofs.create_type_WFf and
+   TSProofs.add_feature_WFf line by line). *)
+Lemma sbelow_map g ts a d : keeps_shape g -> (sbelow (map g ts) a d <-> sbelow ts a d).
+Proof.
+  intros K. unfold sbelow. split.
+  - intros (td' & s & Hf' & Hs' & Hb). rewrite (find_map_shape ts g d K) in Hf'. destruct (find_ty ts d) as [td|]; [|discriminate].
+    inversion Hf'; subst td'. rewrite (proj1 (proj2 (K td))) in Hs'. exists td, s. repeat split; auto. apply (below_map g ts a s K). exact Hb.
+  - intros (td & s & Hf & Hs & Hb). exists (g td), s. rewrite (find_map_shape ts g d K), Hf, (proj1 (proj2 (K td))).
+    repeat split; auto. apply (below_map g ts a s K). exact Hb.
+Qed.
+Lemma HI_wf_super ts : HI ts -> forall t s, In t ts -> t_super t = Some s -> exists p, find_ty ts s = Some p /\ t_rank p < t_rank t.
+Proof.
+  intros W t s Hin Hs. destruct (wf_super _ W (strip_ty t) s (in_map strip_ty _ _ Hin) Hs) as (p' & Hp' & Hlt).
+  unfold strip in Hp'. rewrite (find_map_shape ts strip_ty s strip_shape) in Hp'. destruct (find_ty ts s) as [p|]; [|discriminate].
+  inversion Hp'; subst p'. exists p. split; [reflexivity|exact Hlt].
+Qed.
+Lemma HI_below_registered ts a d : HI ts -> below ts a d -> find_ty ts d <> None -> find_ty ts a <> None.
+Proof.
+  intros W H. induction H as [|d td s Hf Hs Hb IH]; intros Hd; [exact Hd|].
+  apply IH. destruct (find_ty_In _ _ _ Hf) as [Hin _]. destruct (HI_wf_super _ W td s Hin Hs) as (p & Hp & _). rewrite Hp. discriminate.
+Qed.
+Lemma HI_sbelow_neq ts a d : HI ts -> sbelow ts a d -> a <> d.
+Proof.
+  intros W H. apply (sbelow_neq (strip ts) a d W). apply (sbelow_map strip_ty ts a d strip_shape). exact H.
+Qed.
+Lemma HI_below_back ts ts' name : HI ts -> find_ty ts name = None ->
+  (forall n t', n <> name -> find_ty ts' n = Some t' -> exists t, find_ty ts n = Some t /\ t_super t = t_super t') ->
+  forall a d, below ts' a d -> d <> name -> below ts a d.
+Proof.
+  intros W Hfresh Hagree a d H. induction H as [|d td' s Hf' Hs' Hb IH]; intros Hd; [apply below_refl|].
+  destruct (Hagree d td' Hd Hf') as (t & Hf & Hs). rewrite Hs' in Hs.
+  eapply below_step; [exact Hf|exact Hs|]. apply IH.
+  destruct (find_ty_In _ _ _ Hf) as [Hin _]. destruct (HI_wf_super _ W t s Hin Hs) as (p & Hp & _).
+  intros ->. congruence.
+Qed.
+
+Lemma create_type_FI ts name supn desc ts' : HI ts -> WFf ts -> create_type ts name supn desc = Ok ts' -> WFf ts'.
+Proof.
+  intros W F Hc. destruct (create_type_inv' _ _ _ _ _ (HI_top _ W) Hc) as (Hnone & p & inh0 & Hgt & Hpin & Hinh & ->).
+  (* the loop over supertype.all_features simply copies them: the names are distinct *)
+  assert (Einh : inh0 = all_features p).
+  { rewrite (inherit_all_nodup (all_features p) []) in Hinh; [inversion Hinh; reflexivity| |intros g x []].
+    apply (no_two_definitions ts p F Hpin). }
+  subst inh0.
+  set (sup := t_name p). set (new := new_type name p desc (all_features p)).
+  assert (Nn : t_name new = name) by reflexivity.
+  assert (Ns : t_super new = Some sup) by reflexivity.
+  assert (No : t_own new = []) by reflexivity.
+  assert (Ni : t_inh new = all_features p) by reflexivity.
+  assert (Nc : t_ctor new = None) by reflexivity.
+  assert (Nf : t_ctor_fn new = feature_names new) by reflexivity.
+  clearbody new.
+  pose proof (proj1 (find_ty_none_iff ts name) Hnone) as Hfresh.
+  assert (Ep : find_ty ts sup = Some p) by (apply (In_find_ty _ _ (HI_nodup _ W) Hpin)).
+  assert (Hfind : forall n, find_ty (map (add_child sup name) ts ++ [new]) n =
+            match find_ty ts n with Some t => Some (add_child sup name t) | None => if String.eqb name n then Some new else None end).
+  { intros n. rewrite find_app_new, find_map_add_child, Nn. destruct (find_ty ts n); reflexivity. }
+  assert (Hsup_ne : sup <> name) by (intros E; rewrite E in Ep; congruence).
+  assert (Hfwd : forall n t, find_ty ts n = Some t ->
+            exists t', find_ty (map (add_child sup name) ts ++ [new]) n = Some t' /\ t_super t' = t_super t).
+  { intros n t Hn. exists (add_child sup name t). rewrite Hfind, Hn. split; [reflexivity|apply add_child_super]. }
+  assert (Hbwd : forall n t', n <> name -> find_ty (map (add_child sup name) ts ++ [new]) n = Some t' ->
+            exists t, find_ty ts n = Some t /\ t_super t = t_super t').
+  { intros n t' Hn Hf'. rewrite Hfind in Hf'. destruct (find_ty ts n) as [t|] eqn:En.
+    - inversion Hf'; subst t'. exists t. split; [reflexivity|symmetry; apply add_child_super].
+    - destruct (String.eqb name n) eqn:E; [apply String.eqb_eq in E; congruence|discriminate]. }
+  (* proper ancestors of an existing type are the same in both type systems *)
+  assert (Hsb : forall a d, find_ty ts d <> None ->
+            (sbelow (map (add_child sup name) ts ++ [new]) a d <-> sbelow ts a d)).
+  { intros a d Hd. destruct (find_ty ts d) as [td|] eqn:Ed; [clear Hd|congruence]. split.
+    - intros (td' & s & Hf' & Hs' & Hb'). rewrite Hfind, Ed in Hf'. inversion Hf'; subst td'. rewrite add_child_super in Hs'.
+      exists td, s. repeat split; auto.
+      eapply HI_below_back; [exact W|exact Hnone|exact Hbwd|exact Hb'|].
+      destruct (find_ty_In _ _ _ Ed) as [Hin _]. destruct (HI_wf_super _ W td s Hin Hs') as (q & Hq & _). intros ->. congruence.
+    - intros (td0 & s & Hf0 & Hs0 & Hb0). rewrite Ed in Hf0. inversion Hf0; subst td0.
+      exists (add_child sup name td), s. rewrite Hfind, Ed, add_child_super. repeat split; auto.
+      eapply below_transfer; [exact Hfwd|exact Hb0]. }
+  (* an ancestor of an existing type exists already, so its own features are unchanged *)
+  assert (Hown : forall a ta' d, find_ty ts d <> None -> sbelow ts a d ->
+            find_ty (map (add_child sup name) ts ++ [new]) a = Some ta' ->
+            exists ta, find_ty ts a = Some ta /\ t_own ta' = t_own ta).
+  { intros a ta' d Hd Hs Ha'. pose proof (HI_below_registered ts a d W (sbelow_below _ _ _ Hs) Hd) as Hreg.
+    rewrite Hfind in Ha'. destruct (find_ty ts a) as [ta|] eqn:Ea; [|congruence].
+    inversion Ha'; subst ta'. exists ta. split; [reflexivity|apply add_child_own]. }
+  assert (Hpd : find_ty ts sup <> None) by (rewrite Ep; discriminate).
+  assert (Hnew : forall a, sbelow (map (add_child sup name) ts ++ [new]) a name <-> below ts a sup).
+  { intros a. split.
+    - intros (td' & s & Hf' & Hs' & Hb'). rewrite Hfind, Hnone, String.eqb_refl in Hf'. inversion Hf'; subst td'.
+      rewrite Ns in Hs'. inversion Hs'; subst s.
+      eapply HI_below_back; [exact W|exact Hnone|exact Hbwd|exact Hb'|exact Hsup_ne].
+    - intros Hb. exists new, sup. rewrite Hfind, Hnone, String.eqb_refl. repeat split; auto.
+      eapply below_transfer; [exact Hfwd|exact Hb]. }
+  constructor.
+  - (* inherited features come from proper ancestors *)
+    intros t f Hin Hf. apply in_app_or in Hin. destruct Hin as [Hin|[<-|[]]].
+    + apply in_map_iff in Hin. destruct Hin as (t0 & <- & Hin0). rewrite add_child_inh in Hf. rewrite add_child_name.
+      assert (Hd : find_ty ts (t_name t0) <> None) by (rewrite (In_find_ty _ _ (HI_nodup _ W) Hin0); discriminate).
+      destruct (wf_inh_sound _ F t0 f Hin0 Hf) as (a & ta & Hs & Ha & Hfa).
+      exists a, (add_child sup name ta). rewrite Hfind, Ha, add_child_own. repeat split; auto. apply Hsb; assumption.
+    + rewrite Ni in Hf. rewrite Nn. apply all_features_In in Hf. apply in_app_or in Hf. destruct Hf as [Hf|Hf].
+      * exists sup, (add_child sup name p). rewrite Hfind, Ep, add_child_own. repeat split; auto. apply Hnew. apply below_refl.
+      * destruct (wf_inh_sound _ F p f Hpin Hf) as (a & ta & Hs & Ha & Hfa).
+        exists a, (add_child sup name ta). rewrite Hfind, Ha, add_child_own. repeat split; auto.
+        apply Hnew. apply sbelow_below. exact Hs.
+  - (* own features of proper ancestors are inherited *)
+    intros t a ta' g Hin Hs Ha' Hg. apply in_app_or in Hin. destruct Hin as [Hin|[<-|[]]].
+    + apply in_map_iff in Hin. destruct Hin as (t0 & <- & Hin0). rewrite add_child_name in Hs. rewrite add_child_inh.
+      assert (Hd : find_ty ts (t_name t0) <> None) by (rewrite (In_find_ty _ _ (HI_nodup _ W) Hin0); discriminate).
+      apply Hsb in Hs; [|exact Hd]. destruct (Hown a ta' _ Hd Hs Ha') as (ta & Ha & Heq). rewrite Heq in Hg.
+      apply (wf_inh_complete _ F t0 a ta g Hin0 Hs Ha Hg).
+    + rewrite Nn in Hs. rewrite Ni. apply Hnew in Hs. destruct (below_cases _ _ _ Hs) as [->|Hs'].
+      * rewrite Hfind, Ep in Ha'. inversion Ha'; subst ta'. rewrite add_child_own in Hg.
+        apply all_features_complete. apply in_or_app. left. exact Hg.
+      * destruct (Hown a ta' sup Hpd Hs' Ha') as (ta & Ha & Heq). rewrite Heq in Hg.
+        destruct (wf_inh_complete _ F p a ta g Hpin Hs' Ha Hg) as (f0 & Hf0 & He).
+        destruct (all_features_complete p f0 (in_or_app _ _ _ (or_intror Hf0))) as (y & Hy & Hey).
+        exists y. split; [exact Hy|eapply feat_eqb_trans; eassumption].
+  - (* one definition per name *)
+    intros t f g Hin Hf Hg' Hn. apply in_app_or in Hin. destruct Hin as [Hin|[<-|[]]].
+    + apply in_map_iff in Hin. destruct Hin as (t0 & <- & Hin0).
+      rewrite add_child_own, add_child_inh in Hf, Hg'. eapply (wf_one_def _ F t0); eassumption.
+    + rewrite No, Ni in Hf, Hg'. cbn [app] in Hf, Hg'. apply all_features_In in Hf. apply all_features_In in Hg'.
+      eapply (wf_one_def _ F p); eassumption.
+  - (* constructors *)
+    intros t Hin. apply in_app_or in Hin. destruct Hin as [Hin|[<-|[]]].
+    + apply in_map_iff in Hin. destruct Hin as (t0 & <- & Hin0). rewrite feature_names_add_child.
+      destruct (add_child_ctor sup name t0) as [-> ->]. apply (wf_ctor _ F t0 Hin0).
+    + rewrite Nc, Nf. auto.
+Qed.
+
+
+Lemma add_feature_FI ts dom f ts' : HI ts -> WFf ts -> add_feature ts dom f = Added ts' -> WFf ts'.
+Proof.
+  intros W F H. destruct (add_feature_added_inv _ _ _ _ H) as (t & Et & Eo & Ei & Ec & ->).
+  pose proof (spread_shape ts dom f) as K.
+  destruct (find_ty_In _ _ _ Et) as [Htin Htn].
+  pose proof (find_feat_none _ _ Eo) as Hown_free. pose proof (find_feat_none _ _ Ei) as Hinh_free.
+  (* the pre-check: no type below the domain defines the name differently *)
+  assert (Hpre : forall d, In d ts -> below ts dom (t_name d) -> forall g, In g (t_own d) -> f_name g = f_name f -> feat_eqb g f = true).
+  { intros d Hd Hb g Hg Hn.
+    assert (Hx : (is_below ts dom (t_name d) && conflicts (t_own d) f) = false).
+    { destruct (is_below ts dom (t_name d) && conflicts (t_own d) f) eqn:E; [|reflexivity].
+      assert (existsb (fun d0 => is_below ts dom (t_name d0) && conflicts (t_own d0) f) ts = true) by (apply existsb_exists; eauto).
+      congruence. }
+    apply (HI_is_below ts dom (t_name d) d W (In_find_ty _ _ (HI_nodup _ W) Hd)) in Hb. rewrite Hb in Hx. cbn [andb] in Hx.
+    eapply conflicts_false; eassumption. }
+  (* strictly below the domain  =  below it and different from it *)
+  assert (Hstrict : forall d, In d ts -> (t_name d <> dom /\ is_below ts dom (t_name d) = true) <-> sbelow ts dom (t_name d)).
+  { intros d Hd. rewrite (HI_is_below ts dom (t_name d) d W (In_find_ty _ _ (HI_nodup _ W) Hd)). split.
+    - intros [Hn Hb]. destruct (below_cases _ _ _ Hb) as [Heq|Hs]; [exfalso; apply Hn; symmetry; exact Heq|exact Hs].
+    - intros Hs. split; [intros E; apply (HI_sbelow_neq _ _ _ W Hs); symmetry; exact E|apply sbelow_below; exact Hs]. }
+  (* an old feature with the new feature's name, seen from a type below the domain, equals the new feature *)
+  assert (Hold : forall t0 x, In t0 ts -> below ts dom (t_name t0) -> In x (t_own t0 ++ t_inh t0) -> f_name x = f_name f -> feat_eqb x f = true).
+  { intros t0 x Hin0 Hb Hx Hn. apply in_app_or in Hx. destruct Hx as [Hx|Hx].
+    - eapply Hpre; eassumption.
+    - destruct (wf_inh_sound _ F t0 x Hin0 Hx) as (a & ta & Hs & Ha & Hg).
+      destruct (find_ty_In _ _ _ Ha) as [Hain Han].
+      destruct (chain_linear ts a dom (t_name t0) (sbelow_below _ _ _ Hs) Hb) as [Hadom|Hdoma].
+      + (* a is the domain or above it *)
+        destruct (below_cases _ _ _ Hadom) as [->|Hs'].
+        * rewrite Et in Ha. inversion Ha; subst ta. exfalso. apply (Hown_free x Hg). exact Hn.
+        * exfalso. rewrite <- Htn in Hs'. destruct (wf_inh_complete _ F t a ta x Htin Hs' Ha Hg) as (f1 & Hf1 & He).
+          apply (Hinh_free f1 Hf1). rewrite (feat_eqb_name _ _ He). exact Hn.
+      + (* a is below the domain: the pre-check speaks about it *)
+        rewrite <- Han in Hdoma. eapply (Hpre ta); eassumption. }
+  constructor.
+  - (* sound *)
+    intros t' g Hin Hg. apply in_map_iff in Hin. destruct Hin as (t0 & <- & Hin0). rewrite (proj1 (K t0)).
+    apply inh_spread in Hg. destruct Hg as [Hg|(Hn & Hb & _ & ->)].
+    + destruct (wf_inh_sound _ F t0 g Hin0 Hg) as (a & ta & Hs & Ha & Hga).
+      exists a, (spread ts dom f ta). rewrite (find_map_shape ts _ a K), Ha. repeat split; auto.
+      * apply (proj2 (sbelow_spread ts dom f a (t_name t0))). exact Hs.
+      * apply own_spread. left. exact Hga.
+    + exists dom, (spread ts dom f t). rewrite (find_map_shape ts _ dom K), Et. repeat split; auto.
+      * apply (proj2 (sbelow_spread ts dom f dom (t_name t0))). apply (proj1 (Hstrict t0 Hin0)). split; assumption.
+      * apply own_spread. right. auto.
+  - (* complete *)
+    intros t' a ta' g Hin Hs Ha' Hg. apply in_map_iff in Hin. destruct Hin as (t0 & <- & Hin0). rewrite (proj1 (K t0)) in Hs.
+    apply (proj1 (sbelow_spread ts dom f a (t_name t0))) in Hs.
+    rewrite (find_map_shape ts _ a K) in Ha'. destruct (find_ty ts a) as [ta|] eqn:Ea; [|discriminate]. inversion Ha'; subst ta'.
+    apply own_spread in Hg. destruct Hg as [Hg|[Hn ->]].
+    + destruct (wf_inh_complete _ F t0 a ta g Hin0 Hs Ea Hg) as (f0 & Hf0 & He).
+      exists f0. split; [apply inh_spread; left; exact Hf0|exact He].
+    + destruct (find_ty_In _ _ _ Ea) as [_ Hna]. rewrite Hn in Hna. subst a.
+      destruct (proj2 (Hstrict t0 Hin0) Hs) as [H1 H2].
+      destruct (find_feat (f_name f) (t_inh t0)) as [g0|] eqn:Eg.
+      * destruct (find_feat_some _ _ _ Eg) as [Hg0 Hn0]. exists g0. split; [apply inh_spread; left; exact Hg0|].
+        apply (Hold t0 g0 Hin0 (sbelow_below _ _ _ Hs)); [apply in_or_app; right; exact Hg0|exact Hn0].
+      * exists f. split; [apply inh_spread; right; repeat split; auto|apply feat_eqb_refl].
+  - (* one definition per name *)
+    assert (Hcases : forall t0 x, In t0 ts -> In x (t_own (spread ts dom f t0) ++ t_inh (spread ts dom f t0)) ->
+              In x (t_own t0 ++ t_inh t0) \/ (x = f /\ below ts dom (t_name t0))).
+    { intros t0 x Hin0 Hx. apply in_app_or in Hx. destruct Hx as [Hx|Hx].
+      - apply own_spread in Hx. destruct Hx as [Hx|[Hn ->]]; [left; apply in_or_app; left; exact Hx|].
+        right. split; [reflexivity|]. rewrite Hn. apply below_refl.
+      - apply inh_spread in Hx. destruct Hx as [Hx|(Hn & Hb & _ & ->)]; [left; apply in_or_app; right; exact Hx|].
+        right. split; [reflexivity|]. apply (HI_is_below ts dom (t_name t0) t0 W (In_find_ty _ _ (HI_nodup _ W) Hin0)). exact Hb. }
+    intros t' x y Hin Hx Hy Hn. apply in_map_iff in Hin. destruct Hin as (t0 & <- & Hin0).
+    destruct (Hcases t0 x Hin0 Hx) as [Hx'|[-> Hbx]]; destruct (Hcases t0 y Hin0 Hy) as [Hy'|[-> Hby]].
+    + eapply (wf_one_def _ F t0); eassumption.
+    + eapply Hold; eassumption.
+    + apply feat_eqb_sym. eapply Hold; try eassumption. symmetry. exact Hn.
+    + apply feat_eqb_refl.
+  - (* constructors *)
+    intros t' Hin. apply in_map_iff in Hin. destruct Hin as (t0 & <- & Hin0).
+    destruct (spread_untouched_or_rebuilt ts dom f t0) as [->|[-> ->]]; [apply (wf_ctor _ F t0 Hin0)|auto].
+Qed.
+
+(* ================================================================================================ re-parenting and the feature invariant *)
+Section RelinkTree.
+  Variables (ts : tsys) (x oldp newp : tname) (k : nat) (tx : ty).
+  Hypothesis Hx : find_ty ts x = Some tx.
+  Hypothesis Hsx : t_super tx = Some oldp.
+  Hypothesis Hnb : ~ below ts x newp.
+  Hypothesis Hon : below ts oldp newp.
+  Let ts1 := relink ts x oldp newp k.
+  Let fnd := relink_find' ts x oldp newp k.
+
+  (* an ancestor in the new tree is an old ancestor, or (for the moved subtree) the new parent or one of its ancestors *)
+  Lemma relink_below_inv a d : below ts1 a d -> below ts a d \/ (below ts x d /\ below ts a newp).
+  Proof.
+    intros H. induction H as [|d td' s Hf' Hs' Hb IH]; [left; apply below_refl|].
+    unfold ts1 in Hf'. rewrite fnd in Hf'. destruct (find_ty ts d) as [td|] eqn:Ed; [|discriminate]. cbn [option_map] in Hf'. inversion Hf'; subst td'.
+    rewrite relink_super in Hs'. destruct (find_ty_In _ _ _ Ed) as [_ Hdn]. rewrite Hdn in Hs'. destruct (String.eqb d x) eqn:E.
+    - apply String.eqb_eq in E. inversion Hs'; subst s. right. rewrite E. split; [apply below_refl|].
+      destruct IH as [IH|[IH _]]; [exact IH|contradiction].
+    - destruct IH as [IH|[IH1 IH2]].
+      + left. eapply below_step; eassumption.
+      + right. split; [eapply below_step; eassumption|exact IH2].
+  Qed.
+  Lemma relink_subtree d : below ts1 x d <-> below ts x d.
+  Proof.
+    split.
+    - intros H. destruct (relink_below_inv _ _ H) as [H1|[H1 _]]; exact H1.
+    - apply (relink_below ts x oldp newp k tx Hx Hsx Hnb Hon).
+  Qed.
+  Lemma relink_sbelow a d : sbelow ts a d -> sbelow ts1 a d.
+  Proof.
+    intros (td & s & Hf & Hs & Hb). destruct (find_ty_In _ _ _ Hf) as [_ Hdn].
+    exists (relink_ty ts x oldp newp k td). unfold ts1. rewrite fnd, Hf. rewrite relink_super, Hdn. destruct (String.eqb d x) eqn:E.
+    - apply String.eqb_eq in E. rewrite E in Hf. rewrite Hx in Hf. inversion Hf; subst td. rewrite Hsx in Hs. inversion Hs; subst s.
+      exists newp. repeat split; auto. apply (relink_below ts x oldp newp k tx Hx Hsx Hnb Hon). eapply below_trans; eassumption.
+    - exists s. repeat split; auto. apply (relink_below ts x oldp newp k tx Hx Hsx Hnb Hon). exact Hb.
+  Qed.
+  Lemma relink_sbelow_inv a d : sbelow ts1 a d -> sbelow ts a d \/ (below ts x d /\ below ts a newp).
+  Proof.
+    intros (td' & s & Hf' & Hs' & Hb). unfold ts1 in Hf'. rewrite fnd in Hf'. destruct (find_ty ts d) as [td|] eqn:Ed; [|discriminate].
+    cbn [option_map] in Hf'. inversion Hf'; subst td'. rewrite relink_super in Hs'. destruct (find_ty_In _ _ _ Ed) as [_ Hdn]. rewrite Hdn in Hs'.
+    destruct (String.eqb d x) eqn:E.
+    - apply String.eqb_eq in E. inversion Hs'; subst s. right. rewrite E. split; [apply below_refl|].
+      destruct (relink_below_inv _ _ Hb) as [H1|[H1 _]]; [exact H1|contradiction].
+    - destruct (relink_below_inv _ _ Hb) as [H1|[H1 H2]].
+      + left. exists td, s. auto.
+      + right. split; [eapply below_step; eassumption|exact H2].
+  Qed.
+  Lemma relink_sbelow_newp d : below ts x d -> sbelow ts1 newp d.
+  Proof.
+    intros H. induction H as [|d td s Hf Hs Hb IH].
+    - exists (relink_ty ts x oldp newp k tx), newp. unfold ts1. rewrite fnd, Hx. rewrite relink_super. destruct (find_ty_In _ _ _ Hx) as [_ Hxn].
+      rewrite Hxn, String.eqb_refl. repeat split; auto. apply below_refl.
+    - destruct (find_ty_In _ _ _ Hf) as [_ Hdn]. destruct (String.eqb d x) eqn:E.
+      + apply String.eqb_eq in E. exists (relink_ty ts x oldp newp k td), newp. unfold ts1. rewrite fnd, Hf, relink_super, Hdn, E, String.eqb_refl.
+        repeat split; auto. apply below_refl.
+      + exists (relink_ty ts x oldp newp k td), s. unfold ts1. rewrite fnd, Hf, relink_super, Hdn, E. repeat split; auto. apply sbelow_below. exact IH.
+  Qed.
+End RelinkTree.
+
+(* ---- one _add_feature(feature, inherited=True) on the re-parented type x, functional form ---- *)
+Lemma spread_inh_inh u x f t g :
+  In g (t_inh (spread_inh u x f t)) <-> In g (t_inh t) \/ (is_below u x (t_name t) = true /\ find_feat (f_name f) (t_inh t) = None /\ g = f).
+Proof.
+  unfold spread_inh. destruct (is_below u x (t_name t)) eqn:Eb; cbn [andb].
+  - destruct (find_feat (f_name f) (t_inh t)) eqn:Ef.
+    + split; [intros H; left; exact H|]. intros [H|(_ & H & _)]; [exact H|discriminate].
+    + cbn [with_inh rebuild_ctor t_inh]. rewrite in_app_iff. cbn [In]. split.
+      * intros [H|[H|[]]]; [left; exact H|right; auto].
+      * intros [H|(_ & _ & H)]; [left; exact H|right; left; symmetry; exact H].
+  - split; [intros H; left; exact H|]. intros [H|(H & _)]; [exact H|discriminate].
+Qed.
+Lemma spread_inh_own u x f t : t_own (spread_inh u x f t) = t_own t.
+Proof. apply (proj1 (proj2 (spread_inh_fields u x f t))). Qed.
+Lemma spread_inh_name u x f t : t_name (spread_inh u x f t) = t_name t.
+Proof. apply (proj1 (spread_inh_fields u x f t)). Qed.
+Lemma spread_inh_untouched_or_rebuilt u x f d :
+  spread_inh u x f d = d \/ (t_ctor (spread_inh u x f d) = None /\ t_ctor_fn (spread_inh u x f d) = feature_names (spread_inh u x f d)).
+Proof. unfold spread_inh. destruct (is_below u x (t_name d) && _); [right; split; reflexivity|left; reflexivity]. Qed.
+
+Lemma inherit_fn_cases u x f u' : inherit_fn u x f = Ok u' -> exists t, find_ty u x = Some t /\
+  ((exists g, find_feat (f_name f) (t_inh t) = Some g /\ feat_eqb g f = true /\ u' = u) \/
+   (find_feat (f_name f) (t_inh t) = None /\
+    (forall d, In d u -> is_below u x (t_name d) = true -> conflicts (t_own d) f = false /\ conflicts (t_inh d) f = false) /\
+    u' = map (spread_inh u x f) u)).
+Proof.
+  unfold inherit_fn. destruct (find_ty u x) as [t|]; [|discriminate]. intros H. exists t. split; [reflexivity|].
+  destruct (find_feat (f_name f) (t_inh t)) as [g|].
+  - destruct (feat_eqb g f) eqn:E; [|discriminate]. inversion H. left. exists g. auto.
+  - destruct (existsb _ u) eqn:Ex; [discriminate|]. inversion H. right. split; [reflexivity|]. split; [|reflexivity].
+    intros d Hd Hb.
+    assert (Hx : (is_below u x (t_name d) && (conflicts (t_own d) f || conflicts (t_inh d) f)) = false).
+    { destruct (is_below u x (t_name d) && (conflicts (t_own d) f || conflicts (t_inh d) f)) eqn:E; [|reflexivity].
+      assert (existsb (fun d0 => is_below u x (t_name d0) && (conflicts (t_own d0) f || conflicts (t_inh d0) f)) u = true) by (apply existsb_exists; eauto).
+      congruence. }
+    rewrite Hb in Hx. cbn [andb] in Hx. apply orb_false_iff in Hx. exact Hx.
+Qed.
+
+(* the feature invariant without its completeness clause, which re-parenting suspends for the moved subtree *)
+Record WFp (ts : tsys) : Prop := {
+  wp_sound : forall t f, In t ts -> In f (t_inh t) -> exists a ta, sbelow ts a (t_name t) /\ find_ty ts a = Some ta /\ In f (t_own ta);
+  wp_one : forall t f g, In t ts -> In f (t_own t ++ t_inh t) -> In g (t_own t ++ t_inh t) -> f_name f = f_name g -> feat_eqb f g = true;
+  wp_ctor : forall t, In t ts -> t_ctor_fn t = feature_names t /\ (t_ctor t = None \/ t_ctor t = Some (feature_names t))
+}.
+Lemma WFf_WFp ts : WFf ts -> WFp ts.
+Proof. intros F. constructor; [apply (wf_inh_sound _ F)|apply (wf_one_def _ F)|apply (wf_ctor _ F)]. Qed.
+
+Section InheritStep.
+  Variables (x newp : tname).
+  (* every type of the subtree of x exposes, as an inherited feature, what x inherits *)
+  Definition Qx (u : tsys) : Prop := forall tx g', find_ty u x = Some tx -> In g' (t_inh tx) ->
+    forall t, In t u -> below u x (t_name t) -> exists f', In f' (t_inh t) /\ feat_eqb f' g' = true.
+  (* f is an own feature of the new parent or of one of its ancestors *)
+  Definition owned_above (u : tsys) (f : feat) : Prop := exists a ta, below u a newp /\ find_ty u a = Some ta /\ In f (t_own ta).
+  Definition reaches (u : tsys) (f : feat) : Prop :=
+    forall t, In t u -> below u x (t_name t) -> exists f', In f' (t_inh t) /\ feat_eqb f' f = true.
+
+  Lemma inherit_fn_step u f u' tx : HI u -> find_ty u x = Some tx -> t_super tx = Some newp -> WFp u -> Qx u -> owned_above u f ->
+    inherit_fn u x f = Ok u' ->
+    strip u' = strip u /\ grows u u' /\ (forall n t', find_ty u' n = Some t' -> exists t, find_ty u n = Some t /\ t_own t' = t_own t) /\
+    WFp u' /\ Qx u' /\ reaches u' f.
+  Proof.
+    intros W Hx Hsx P Q (a & ta & Hba & Hfa & Hoa) H. pose proof (HI_nodup _ W) as Hnd.
+    destruct (inherit_fn_cases _ _ _ _ H) as (tx0 & Hx0 & [(g & Hg & He & ->)|(Hnone & Hchk & ->)]); rewrite Hx in Hx0; inversion Hx0; subst tx0.
+    - (* x inherits an equal feature already: nothing changes, and the whole subtree has it *)
+      split; [reflexivity|]. split; [apply grows_refl|]. split; [intros n t' Hn; exists t'; auto|]. split; [exact P|]. split; [exact Q|].
+      intros t Hin Hb. destruct (Q tx g Hx (proj1 (find_feat_some _ _ _ Hg)) t Hin Hb) as (f' & Hf' & He').
+      exists f'. split; [exact Hf'|eapply feat_eqb_trans; eassumption].
+    - pose proof (spread_inh_shape u x f) as K. pose proof (strip_map _ u K) as Es.
+      assert (Hbel : forall p q, below (map (spread_inh u x f) u) p q <-> below u p q) by (intros p q; apply (below_map _ u p q K)).
+      assert (Hsbel : forall p q, sbelow (map (spread_inh u x f) u) p q <-> sbelow u p q) by (intros p q; apply (sbelow_map _ u p q K)).
+      assert (Hfind : forall n, find_ty (map (spread_inh u x f) u) n = option_map (spread_inh u x f) (find_ty u n)) by (intros n; apply (find_map_shape u _ n K)).
+      assert (Hisb : forall t, In t u -> (is_below u x (t_name t) = true <-> below u x (t_name t))).
+      { intros t Hin. apply (HI_is_below u x (t_name t) t W (In_find_ty _ _ Hnd Hin)). }
+      split; [exact Es|]. split; [apply (inherit_fn_grows _ _ _ _ H)|]. split.
+      { intros n t' Hn. rewrite Hfind in Hn. destruct (find_ty u n) as [t|]; [|discriminate]. inversion Hn. exists t. split; [reflexivity|apply spread_inh_own]. }
+      (* after the step every type below x has the feature, or one equal to it, among its inherited features *)
+      assert (Hreach : forall t, In t u -> below u x (t_name t) -> exists f', In f' (t_inh (spread_inh u x f t)) /\ feat_eqb f' f = true).
+      { intros t Hin Hb. apply (Hisb t Hin) in Hb. destruct (find_feat (f_name f) (t_inh t)) as [g0|] eqn:Eg.
+        - destruct (find_feat_some _ _ _ Eg) as [Hg0 Hn0]. exists g0. split; [apply spread_inh_inh; left; exact Hg0|].
+          apply (conflicts_false _ _ (proj2 (Hchk t Hin Hb)) g0 Hg0 Hn0).
+        - exists f. split; [apply spread_inh_inh; right; auto|apply feat_eqb_refl]. }
+      split; [constructor|split].
+      + (* sound *)
+        intros t' g Hin Hg. apply in_map_iff in Hin. destruct Hin as (t & <- & Hin). rewrite spread_inh_name.
+        apply spread_inh_inh in Hg. destruct Hg as [Hg|(Hb & _ & ->)].
+        * destruct (wp_sound _ P t g Hin Hg) as (a0 & ta0 & Hs0 & Hf0 & Ho0). exists a0, (spread_inh u x f ta0).
+          rewrite Hfind, Hf0, spread_inh_own. split; [apply Hsbel; exact Hs0|auto].
+        * exists a, (spread_inh u x f ta). rewrite Hfind, Hfa, spread_inh_own. split; [|auto]. apply Hsbel.
+          apply (Hisb t Hin) in Hb.
+          assert (Hsn : sbelow u newp (t_name t)).
+          { clear -Hb Hx Hsx. induction Hb as [|d td s Hf Hs Hb IH]; [exists tx, newp; repeat split; auto; apply below_refl|].
+            exists td, s. repeat split; auto. apply sbelow_below. exact IH. }
+          destruct Hsn as (td & s & Hf & Hs & Hbs). exists td, s. repeat split; auto. eapply below_trans; eassumption.
+      + (* one definition per name *)
+        intros t' p q Hin Hp Hq Hn. apply in_map_iff in Hin. destruct Hin as (t & <- & Hin).
+        assert (Hcases : forall y, In y (t_own (spread_inh u x f t) ++ t_inh (spread_inh u x f t)) ->
+                  In y (t_own t ++ t_inh t) \/ (y = f /\ is_below u x (t_name t) = true /\ find_feat (f_name f) (t_inh t) = None)).
+        { intros y Hy. rewrite spread_inh_own in Hy. apply in_app_or in Hy. destruct Hy as [Hy|Hy]; [left; apply in_or_app; left; exact Hy|].
+          apply spread_inh_inh in Hy. destruct Hy as [Hy|(H1 & H2 & ->)]; [left; apply in_or_app; right; exact Hy|right; auto]. }
+        assert (Hold : forall y, In y (t_own t ++ t_inh t) -> is_below u x (t_name t) = true -> find_feat (f_name f) (t_inh t) = None ->
+                  f_name y = f_name f -> feat_eqb y f = true).
+        { intros y Hy Hb Hno Hny. apply in_app_or in Hy. destruct Hy as [Hy|Hy].
+          - apply (conflicts_false _ _ (proj1 (Hchk t Hin Hb)) y Hy Hny).
+          - exfalso. apply (find_feat_none _ _ Hno y Hy Hny). }
+        destruct (Hcases p Hp) as [Hp'|(-> & Hb1 & Hn1)]; destruct (Hcases q Hq) as [Hq'|(-> & Hb2 & Hn2)].
+        * apply (wp_one _ P t p q Hin Hp' Hq' Hn).
+        * apply (Hold p Hp' Hb2 Hn2 Hn).
+        * apply feat_eqb_sym. apply (Hold q Hq' Hb1 Hn1). symmetry. exact Hn.
+        * apply feat_eqb_refl.
+      + (* constructors *)
+        intros t' Hin. apply in_map_iff in Hin. destruct Hin as (t & <- & Hin).
+        destruct (spread_inh_untouched_or_rebuilt u x f t) as [->|[-> ->]]; [apply (wp_ctor _ P t Hin)|auto].
+      + (* what x inherits reaches its whole subtree *)
+        intros tx' g' Hx' Hg' t' Hin Hb. rewrite Hfind, Hx in Hx'. cbn [option_map] in Hx'. inversion Hx'; subst tx'.
+        apply in_map_iff in Hin. destruct Hin as (t & <- & Hin). rewrite spread_inh_name in Hb. apply Hbel in Hb.
+        apply spread_inh_inh in Hg'. destruct Hg' as [Hg'|(_ & _ & ->)].
+        * destruct (Q tx g' Hx Hg' t Hin Hb) as (f' & Hf' & He'). exists f'. split; [apply spread_inh_inh; left; exact Hf'|exact He'].
+        * apply (Hreach t Hin Hb).
+      + intros t' Hin Hb. apply in_map_iff in Hin. destruct Hin as (t & <- & Hin). rewrite spread_inh_name in Hb. apply Hbel in Hb.
+        apply (Hreach t Hin Hb).
+  Qed.
+End InheritStep.
+
+Lemma inherit_list_post x newp fs : forall u u' tx, HI u -> find_ty u x = Some tx -> t_super tx = Some newp -> WFp u -> Qx x u ->
+  (forall f, In f fs -> owned_above newp u f) -> inherit_list fn_form x fs u = Ok u' ->
+  strip u' = strip u /\ grows u u' /\ (forall n t', find_ty u' n = Some t' -> exists t, find_ty u n = Some t /\ t_own t' = t_own t) /\
+  WFp u' /\ (forall f, In f fs -> reaches x u' f).
+Proof.
+  induction fs as [|f r IH]; intros u u' tx W Hx Hsx P Q Hown H; cbn [inherit_list] in H.
+  - inversion H; subst u'. split; [reflexivity|]. split; [apply grows_refl|]. split; [intros n t' Hn; exists t'; auto|]. split; [exact P|intros f []].
+  - cbn [fn_form inhf] in H. destruct (inherit_fn u x f) as [u1| |] eqn:E; cbn [bind] in H; try discriminate.
+    destruct (inherit_fn_step x newp u f u1 tx W Hx Hsx P Q (Hown f (or_introl eq_refl)) E) as (Es1 & G1 & O1 & P1 & Q1 & R1).
+    assert (W1 : HI u1) by (unfold HI; rewrite Es1; exact W).
+    destruct (strip_eq_find u u1 x tx Es1 Hx) as (tx1 & Hx1 & Hs1). rewrite Hsx in Hs1.
+    assert (Hown1 : forall g, In g r -> owned_above newp u1 g).
+    { intros g Hg. destruct (Hown g (or_intror Hg)) as (a & ta & Hb & Hf & Ho). destruct (G1 a ta Hf) as (ta1 & Hf1 & Ho1 & _).
+      exists a, ta1. split; [apply (strip_eq_below u u1 a newp Es1); exact Hb|]. split; [exact Hf1|apply Ho1; exact Ho]. }
+    destruct (IH u1 u' tx1 W1 Hx1 Hs1 P1 Q1 Hown1 H) as (Es2 & G2 & O2 & P2 & R2).
+    split; [rewrite Es2; exact Es1|]. split; [eapply grows_trans; eassumption|]. split.
+    { intros n t' Hn. destruct (O2 n t' Hn) as (t1 & Hn1 & Ho1). destruct (O1 n t1 Hn1) as (t0 & Hn0 & Ho0). exists t0. split; [exact Hn0|congruence]. }
+    split; [exact P2|]. intros g [<-|Hg]; [|apply R2; exact Hg].
+    intros t' Hin Hb. pose proof (HI_nodup _ (eq_ind_r (fun s => WFh s) W1 Es2 : HI u')) as Hnd'.
+    pose proof (In_find_ty _ _ Hnd' Hin) as Hf'. destruct (strip_eq_find u' u1 (t_name t') t' (eq_sym Es2) Hf') as (t1 & Hf1 & _).
+    destruct (find_ty_In _ _ _ Hf1) as [Hin1 Hn1].
+    assert (Hb1 : below u1 x (t_name t1)) by (rewrite Hn1; apply (strip_eq_below u1 u' x (t_name t') Es2); exact Hb).
+    destruct (R1 t1 Hin1 Hb1) as (f' & Hf'' & He). destruct (G2 _ t1 Hf1) as (t2 & Hf2 & _ & Hi2). rewrite Hf' in Hf2. inversion Hf2; subst t2.
+    exists f'. split; [apply Hi2; exact Hf''|exact He].
+Qed.
+
+Lemma relink_ctor ts x oldp newp k t :
+  t_ctor (relink_ty ts x oldp newp k t) = t_ctor t /\ t_ctor_fn (relink_ty ts x oldp newp k t) = t_ctor_fn t /\
+  feature_names (relink_ty ts x oldp newp k t) = feature_names t.
+Proof.
+  assert (Hf : feature_names (relink_ty ts x oldp newp k t) = feature_names t).
+  { unfold feature_names, all_features. rewrite relink_own, relink_inh. reflexivity. }
+  split; [|split; [|exact Hf]]; unfold relink_ty; cbv zeta; unfold add_child, remove_child;
+    destruct (String.eqb (t_name t) oldp); cbn [set_children t_name t_children];
+    destruct (String.eqb (t_name t) newp); try destruct (memb x _); destruct (String.eqb (t_name t) x); destruct (is_below ts x (t_name t)); reflexivity.
+Qed.
+
+(* re-parenting (link moved, then the new parent's effective features inherited) preserves the feature invariant *)
+Lemma reparent_FI ts x oldp newp ts' tx tn : HI ts -> WFf ts -> find_ty ts x = Some tx -> t_super tx = Some oldp ->
+  find_ty ts newp = Some tn -> ~ below ts x newp -> below ts oldp newp -> reparent fn_form ts x oldp newp = Ok ts' -> WFf ts'.
+Proof.
+  intros W F Hx Hsx Hn Hnb Hon H. pose proof (HI_nodup _ W) as Hnd.
+  destruct (find_ty_In _ _ _ Hn) as [Hnin Hnn]. destruct (find_ty_In _ _ _ Hx) as [Hxin Hxn].
+  unfold reparent in H. rewrite (get_type_full _ _ _ Hn) in H. cbn [bind] in H. rewrite Hnn in H.
+  destruct (find_ty ts oldp) as [tp|]; [|discriminate]. destruct (negb (memb x (t_children tp))); [discriminate|].
+  set (k := S (t_rank tn)) in *. set (ts1 := relink ts x oldp newp k) in *.
+  assert (Hf1 : forall n, find_ty ts1 n = option_map (relink_ty ts x oldp newp k) (find_ty ts n)) by (intros n; apply relink_find').
+  rewrite Hf1, Hn in H. cbn [option_map] in H. set (tn1 := relink_ty ts x oldp newp k tn) in *.
+  assert (Haf : all_features tn1 = all_features tn) by (unfold all_features, tn1; rewrite relink_own, relink_inh; reflexivity).
+  assert (W1 : HI ts1) by (apply (relink_HI ts x oldp newp k tx tn W Hx Hsx Hn Hnb); apply Nat.lt_succ_diag_r).
+  assert (Hx1 : find_ty ts1 x = Some (relink_ty ts x oldp newp k tx)) by (rewrite Hf1, Hx; reflexivity).
+  assert (Hsx1 : t_super (relink_ty ts x oldp newp k tx) = Some newp) by (rewrite relink_super, Hxn, String.eqb_refl; reflexivity).
+  (* the invariant, completeness apart, after the link has moved *)
+  assert (P1 : WFp ts1).
+  { constructor.
+    - intros t' f Hin Hf. apply in_map_iff in Hin. destruct Hin as (t & <- & Hin). rewrite relink_inh in Hf. rewrite relink_name.
+      destruct (wf_inh_sound _ F t f Hin Hf) as (a & ta & Hs & Ha & Ho). exists a, (relink_ty ts x oldp newp k ta).
+      rewrite Hf1, Ha, relink_own. split; [apply (relink_sbelow ts x oldp newp k tx Hx Hsx Hnb Hon); exact Hs|auto].
+    - intros t' f g Hin Hf Hg. apply in_map_iff in Hin. destruct Hin as (t & <- & Hin). rewrite relink_own, relink_inh in Hf, Hg.
+      apply (wf_one_def _ F t f g Hin Hf Hg).
+    - intros t' Hin. apply in_map_iff in Hin. destruct Hin as (t & <- & Hin). destruct (relink_ctor ts x oldp newp k t) as (-> & -> & ->).
+      apply (wf_ctor _ F t Hin). }
+  assert (Q1 : Qx x ts1).
+  { intros tx' g' Hx' Hg' t' Hin Hb. rewrite Hx1 in Hx'. inversion Hx'; subst tx'. rewrite relink_inh in Hg'.
+    apply in_map_iff in Hin. destruct Hin as (t & <- & Hin). rewrite relink_name in Hb. rewrite relink_inh.
+    apply (relink_subtree ts x oldp newp k tx Hx Hsx Hnb Hon) in Hb.
+    destruct (wf_inh_sound _ F tx g' Hxin Hg') as (a & ta & Hs & Ha & Ho). rewrite Hxn in Hs.
+    assert (Hst : sbelow ts a (t_name t)).
+    { destruct Hs as (td & s & Hfd & Hsd & Hbd). clear -Hb Hfd Hsd Hbd. induction Hb as [|d td0 s0 Hf Hs Hb IH]; [exists td, s; auto|].
+      exists td0, s0. repeat split; auto. apply sbelow_below. exact IH. }
+    apply (wf_inh_complete _ F t a ta g' Hin Hst Ha Ho). }
+  assert (O1 : forall f, In f (all_features tn1) -> owned_above newp ts1 f).
+  { intros f Hf. rewrite Haf in Hf. apply all_features_In in Hf. apply in_app_or in Hf. destruct Hf as [Hf|Hf].
+    - exists newp, tn1. split; [apply below_refl|]. split; [rewrite Hf1, Hn; reflexivity|unfold tn1; rewrite relink_own; exact Hf].
+    - destruct (wf_inh_sound _ F tn f Hnin Hf) as (a & ta & Hs & Ha & Ho). rewrite Hnn in Hs. exists a, (relink_ty ts x oldp newp k ta).
+      split; [apply (relink_below ts x oldp newp k tx Hx Hsx Hnb Hon); apply sbelow_below; exact Hs|].
+      split; [rewrite Hf1, Ha; reflexivity|rewrite relink_own; exact Ho]. }
+  destruct (inherit_list_post x newp (all_features tn1) ts1 ts' _ W1 Hx1 Hsx1 P1 Q1 O1 H) as (Es & G & Oeq & P' & R').
+  assert (W' : HI ts') by (unfold HI; rewrite Es; exact W1).
+  constructor; [apply (wp_sound _ P')| |apply (wp_one _ P')|apply (wp_ctor _ P')].
+  (* completeness is restored: old ancestors as before, the new ones through the inherited list *)
+  intros t' a ta' g Hin' Hs' Ha' Hg.
+  pose proof (In_find_ty _ _ (HI_nodup _ W') Hin') as Hft'.
+  destruct (strip_eq_find ts' ts1 (t_name t') t' (eq_sym Es) Hft') as (t1 & Hft1 & _).
+  rewrite Hf1 in Hft1. destruct (find_ty ts (t_name t')) as [t|] eqn:Et; [|discriminate]. cbn [option_map] in Hft1. inversion Hft1; subst t1.
+  destruct (find_ty_In _ _ _ Et) as [Htin Htn].
+  destruct (Oeq a ta' Ha') as (ta1 & Ha1 & Ho1). rewrite Hf1 in Ha1. destruct (find_ty ts a) as [ta|] eqn:Ea; [|discriminate].
+  cbn [option_map] in Ha1. inversion Ha1; subst ta1. rewrite relink_own in Ho1. rewrite Ho1 in Hg.
+  assert (Hgrow : forall f0, In f0 (t_inh t) -> In f0 (t_inh t')).
+  { intros f0 Hf0. destruct (G (t_name t') (relink_ty ts x oldp newp k t)) as (t2 & Hf2 & _ & Hi2); [rewrite Hf1, Et; reflexivity|].
+    rewrite Hft' in Hf2. inversion Hf2; subst t2. apply Hi2. rewrite relink_inh. exact Hf0. }
+  assert (Hs1 : sbelow ts1 a (t_name t')) by (apply (sbelow_map strip_ty ts1 a _ strip_shape); fold (strip ts1); rewrite <- Es; apply (sbelow_map strip_ty ts' a _ strip_shape); exact Hs').
+  destruct (relink_sbelow_inv ts x oldp newp k Hnb _ _ Hs1) as [Hold|[Hbx Hban]].
+  - rewrite <- Htn in Hold. destruct (wf_inh_complete _ F t a ta g Htin Hold Ea Hg) as (f0 & Hf0 & He). exists f0. split; [apply Hgrow; exact Hf0|exact He].
+  - (* a is the new parent or above it: its own features are among the effective features of the new parent *)
+    assert (Hy : exists y, In y (all_features tn1) /\ feat_eqb y g = true).
+    { rewrite Haf. destruct (below_cases _ _ _ Hban) as [->|Hsa].
+      - rewrite Hn in Ea. inversion Ea; subst ta. apply all_features_complete. apply in_or_app. left. exact Hg.
+      - rewrite <- Hnn in Hsa. destruct (wf_inh_complete _ F tn a ta g Hnin Hsa Ea Hg) as (f0 & Hf0 & He).
+        destruct (all_features_complete tn f0 (in_or_app _ _ _ (or_intror Hf0))) as (y & Hy & Hey). exists y. split; [exact Hy|eapply feat_eqb_trans; eassumption]. }
+    destruct Hy as (y & Hy & Hey).
+    assert (Hb' : below ts' x (t_name t')).
+    { apply (strip_eq_below ts1 ts' x (t_name t') Es). apply (relink_subtree ts x oldp newp k tx Hx Hsx Hnb Hon). exact Hbx. }
+    destruct (R' y Hy t' Hin' Hb') as (f' & Hf' & He'). exists f'. split; [exact Hf'|eapply feat_eqb_trans; eassumption].
+Qed.
+
+Lemma add_feature_res_FI ts x f ts' : HI ts -> WFf ts -> add_feature_res ts x f = Ok ts' -> WFf ts'.
+Proof.
+  intros W F. unfold add_feature_res. destruct (add_feature ts x f) as [ts1| | |] eqn:E; try discriminate; intros H; inversion H; subst.
+  - apply (add_feature_FI _ _ _ _ W F E).
+  - exact F.
+Qed.
+Lemma merge_features_FI i x fs : forall ts tags r, HI ts -> WFf ts -> merge_features fn_form i x fs ts tags = Ok r -> WFf (fst r).
+Proof.
+  induction fs as [|f r0 IH]; intros ts tags r W F H; cbn [merge_features] in H; [inversion H; exact F|].
+  cbn [fn_form addf] in H. destruct (add_feature_res ts x f) as [ts1| |] eqn:E; cbn [bind] in H; try discriminate.
+  eapply (IH ts1 _ r); [unfold HI; rewrite (add_feature_res_strip _ _ _ _ E); exact W|apply (add_feature_res_FI _ _ _ _ W F E)|exact H].
+Qed.
+Lemma merge_super_FI ts x sup tsup ts' : HI ts -> WFf ts -> registered ts x = true -> find_ty ts sup = Some tsup ->
+  merge_super fn_form ts x sup = Ok ts' -> WFf ts'.
+Proof.
+  intros W F Hreg Hsup H. apply registered_iff in Hreg. destruct Hreg as (ex & Hfx). destruct (find_ty_In _ _ _ Hfx) as [Hexin Hexn].
+  unfold merge_super in H. rewrite (get_type_full _ _ _ Hfx) in H. cbn [bind] in H.
+  destruct (t_super ex) as [exsup|] eqn:Es; [|discriminate]. destruct (find_ty_In _ _ _ Hsup) as [_ Hsn].
+  destruct (String.eqb sup exsup); [inversion H; subst; exact F|].
+  destruct (HI_subsumes_gen ts (t_name ex) sup ex tsup W (get_type_full _ _ _ (eq_ind_r (fun n => find_ty ts n = Some ex) Hfx Hexn)) (get_type_full _ _ _ Hsup))
+    as (b1 & Hb1 & Hiff1). rewrite Hb1 in H. cbn [bind] in H. destruct b1; [discriminate|].
+  destruct (HI_super ts ex exsup W Hexin Es) as (tp & Hfp & _). destruct (find_ty_In _ _ _ Hfp) as [_ Hpn].
+  destruct (HI_subsumes_gen ts exsup sup tp tsup W (get_type_full _ _ _ Hfp) (get_type_full _ _ _ Hsup)) as (b2 & Hb2 & Hiff2).
+  rewrite Hb2 in H. cbn [bind] in H. rewrite Hexn, Hsn in Hiff1. rewrite Hpn, Hsn in Hiff2. rewrite Hexn in H. destruct b2.
+  - apply (reparent_FI ts x exsup sup ts' ex tsup W F Hfx Es Hsup); [intros Hb; apply Hiff1 in Hb; discriminate|apply Hiff2; reflexivity|exact H].
+  - destruct (ts_subsumes ts sup exsup) as [b3| |]; cbn [bind] in H; try discriminate. destruct b3; [inversion H; subst; exact F|discriminate].
+Qed.
+Lemma merge_decl_FI L st d st1 : Inv L st -> WFf (m_ts st) -> ready st d -> merge_decl fn_form st d = Ok st1 -> WFf (m_ts st1).
+Proof.
+  intros HI F (sup & Hs & Hr) H. destruct (ready_registered L st d sup HI Hs Hr) as (tsup & Hfsup & _ & _).
+  pose proof (inv_HI _ _ HI) as W. unfold merge_decl in H. rewrite Hs in H. fold (dname d) in H.
+  destruct (registered (m_ts st) (dname d)) eqn:Er.
+  - destruct (merge_super fn_form (m_ts st) (dname d) sup) as [ts1| |] eqn:E; cbn [bind] in H; try discriminate.
+    destruct (merge_features fn_form (d_in d) (dname d) (t_own (d_ty d)) ts1 (m_tags st)) as [r| |] eqn:Ef; cbn [bind] in H; try discriminate.
+    inversion H; subst st1. cbn [m_ts]. apply (merge_features_FI _ _ _ _ _ _ (merge_super_HI _ _ _ _ W E) (merge_super_FI _ _ _ _ _ W F Er Hfsup E) Ef).
+  - destruct (create_type (m_ts st) (dname d) sup (t_desc (d_ty d))) as [ts1| |] eqn:E; cbn [bind] in H; try discriminate.
+    destruct (merge_features fn_form (d_in d) (dname d) (t_own (d_ty d)) ts1 (m_tags st)) as [r| |] eqn:Ef; cbn [bind] in H; try discriminate.
+    inversion H; subst st1. cbn [m_ts]. apply (merge_features_FI _ _ _ _ _ _ (create_type_HI _ _ _ _ _ W E) (create_type_FI _ _ _ _ _ W F E) Ef).
+Qed.
+Lemma init_WFf : WFf init_ts.
+Proof. apply (wffb_sound init_ts init_WFh). vm_compute. reflexivity. Qed.
+
+(* the result of merging well-formed type systems satisfies the feature invariant of C11: the inherited features of
+   every type are the own features of its final ancestors, and no type sees two definitions of one feature name *)
+Theorem merge_WFf inputs ts : all_WFh inputs -> merge inputs = Ok ts -> WFf ts.
+Proof.
+  intros HW H. destruct (merge_inv inputs ts HW H) as (st & Er & <- & _ & _ & _). set (L := type_list inputs) in *.
+  destruct (rounds_inv fn_form L (fun s => Inv L s /\ WFf (m_ts s)) (fun _ _ => True)) with (fuel := S (List.length L)) (l := L) (st := st0) (st' := st)
+    as ((_ & F) & _ & _).
+  - intros s d s1 [HI0 F0] Hd Hrdy Hm. destruct (merge_decl_Inv L s d s1 HI0 (type_list_ok inputs HW d Hd) Hm) as (HI1 & _ & _).
+    split; [split; [exact HI1|apply (merge_decl_FI L s d s1 HI0 F0 Hrdy Hm)]|]. split; [exact I|auto].
+  - apply incl_refl.
+  - split; [apply Inv_st0|exact init_WFf].
+  - exact Er.
+  - exact F.
+Qed.
+Theorem merge_WF inputs ts : all_WFh inputs -> merge inputs = Ok ts -> WF ts.
+Proof. intros HW H. split; [apply (merge_WFh inputs ts HW H)|apply (merge_WFf inputs ts HW H)]. Qed.
+
+(* ================================================================================================ conflicting features raise *)
+(* two declarations of one feature name whose types end up on one inheritance chain are equal for Feature.__eq__ whenever
+   the merge succeeds ... *)
+Theorem merge_ok_features_agree inputs ts d1 d2 f1 f2 : all_WFh inputs -> merge inputs = Ok ts ->
+  In d1 (type_list inputs) -> In d2 (type_list inputs) -> In f1 (t_own (d_ty d1)) -> In f2 (t_own (d_ty d2)) ->
+  f_name f1 = f_name f2 -> below ts (dname d2) (dname d1) -> feat_eqb f1 f2 = true.
+Proof.
+  intros HW H H1 H2 Hf1 Hf2 Hn Hb. pose proof (merge_WFh inputs ts HW H) as W. pose proof (merge_WFf inputs ts HW H) as F.
+  destruct (merge_contains_all_features inputs ts HW H d1 f1 H1 Hf1) as (t1 & g1 & Ht1 & Hg1 & He1).
+  destruct (merge_contains_all_features inputs ts HW H d2 f2 H2 Hf2) as (t2 & g2 & Ht2 & Hg2 & He2).
+  destruct (find_ty_In _ _ _ Ht1) as [Hin1 Hn1]. destruct (find_ty_In _ _ _ Ht2) as [Hin2 Hn2].
+  (* the type of d1 sees a feature equal to g2 *)
+  assert (Hsee : exists g, In g (t_own t1 ++ t_inh t1) /\ feat_eqb g g2 = true).
+  { destruct (below_cases _ _ _ Hb) as [Heq|Hs].
+    - rewrite <- Heq in Ht1. rewrite Ht2 in Ht1. inversion Ht1; subst t1. exists g2. split; [exact Hg2|apply feat_eqb_refl].
+    - rewrite <- Hn1 in Hs. apply in_app_or in Hg2. destruct Hg2 as [Hg2|Hg2].
+      + destruct (wf_inh_complete _ F t1 (dname d2) t2 g2 Hin1 Hs Ht2 Hg2) as (f0 & Hf0 & He0). exists f0. split; [apply in_or_app; right; exact Hf0|exact He0].
+      + destruct (wf_inh_sound _ F t2 g2 Hin2 Hg2) as (a & ta & Hsa & Ha & Hoa). rewrite Hn2 in Hsa.
+        assert (Hs' : sbelow ts a (t_name t1)).
+        { destruct Hs as (td & s & Hfd & Hsd & Hbd). exists td, s. repeat split; auto. eapply below_trans; [apply sbelow_below; exact Hsa|exact Hbd]. }
+        destruct (wf_inh_complete _ F t1 a ta g2 Hin1 Hs' Ha Hoa) as (f0 & Hf0 & He0). exists f0. split; [apply in_or_app; right; exact Hf0|exact He0]. }
+  destruct Hsee as (g & Hg & Heg).
+  assert (Hng : f_name g1 = f_name g) by (rewrite (feat_eqb_name _ _ He1), (feat_eqb_name _ _ Heg), (feat_eqb_name _ _ He2); exact Hn).
+  pose proof (wf_one_def _ F t1 g1 g Hin1 Hg1 Hg Hng) as E.
+  eapply feat_eqb_trans; [apply feat_eqb_sym; exact He1|]. eapply feat_eqb_trans; [exact E|]. eapply feat_eqb_trans; eassumption.
+Qed.
+(* ... so declarations that differ (in range, or in element type with None = TOP) on what would be one chain raise *)
+Theorem merge_conflict_raises_features inputs d1 d2 f1 f2 : all_WFh inputs ->
+  In d1 (type_list inputs) -> In d2 (type_list inputs) -> In f1 (t_own (d_ty d1)) -> In f2 (t_own (d_ty d2)) ->
+  f_name f1 = f_name f2 -> (f_range f1 <> f_range f2 \/ elem_name f1 <> elem_name f2) ->
+  (forall ts, merge inputs = Ok ts -> below ts (dname d2) (dname d1)) -> merge inputs = Err EValue.
+Proof.
+  intros HW H1 H2 Hf1 Hf2 Hn Hdiff Hchain. apply (merge_fails_with_value inputs HW). intros ts H.
+  pose proof (merge_ok_features_agree inputs ts d1 d2 f1 f2 HW H H1 H2 Hf1 Hf2 Hn (Hchain ts H)) as E.
+  apply feat_eqb_key in E. unfold fkey in E. inversion E. destruct Hdiff as [Hd|Hd]; apply Hd; assumption.
+Qed.
